@@ -24,13 +24,11 @@ Definition accepted (t : pt) : Prop := exists r, visit t = VOk r /\ r_diags r = 
 
 Ltac accept := eexists; split; [vm_compute; reflexivity | reflexivity].
 
-(* duplicate field name: FieldMap keeps the last field, nothing is reported *)
-Lemma dup_field_refuted : In (FDupField, 1) (faults w_dup_field) /\ accepted w_dup_field.
-Proof. split; [by_compute | accept]. Qed.
+(* the result carries exactly one diagnostic, of that kind, on that line *)
+Definition only_diag (t : pt) (k : dkind) (l : nat) : Prop :=
+  exists r d, visit t = VOk r /\ r_diags r = [d] /\ d_kind d = k /\ d_line d = l.
 
-(* duplicate match key: the check reads a map that is never written *)
-Lemma dup_match_key_refuted : In (FDupMatchKey, 1) (faults w_dup_match_key) /\ accepted w_dup_match_key.
-Proof. split; [by_compute | accept]. Qed.
+Ltac one_diag := eexists; eexists; split; [vm_compute; reflexivity|split; [reflexivity|split; reflexivity]].
 
 (* length-of field in an inline object *)
 Lemma len_in_inline_refuted : In (FLenOutsideRoot, 1) (faults w_len_in_inline) /\ accepted w_len_in_inline.
@@ -41,13 +39,11 @@ Proof. split; [by_compute | accept]. Qed.
 Lemma len_then_calc_refuted : In (FLenOutsideRoot, 1) (faults w_len_then_calc) /\ accepted w_len_then_calc.
 Proof. split; [by_compute | accept]. Qed.
 
-(* undeclared packet as the value of a match pair *)
-Lemma undeclared_packet_in_pair_refuted : In (FUndeclaredPacket, 1) (faults w_undeclared_in_pair) /\ accepted w_undeclared_in_pair.
-Proof. split; [by_compute | accept]. Qed.
-
-(* undeclared packet as a field type inside an inline object *)
-Lemma undeclared_packet_in_inline_refuted : In (FUndeclaredPacket, 1) (faults w_undeclared_in_inline) /\ accepted w_undeclared_in_inline.
-Proof. split; [by_compute | accept]. Qed.
+(* @lengthOf before an object field of a non-root packet: refused as an attribute (rightly), but not as a misplaced
+   length-of field *)
+Lemma lengthof_on_object_nonroot_refuted :
+  In (FLenOutsideRoot, 1) (faults w_lengthof_on_object_nonroot) /\ only_diag w_lengthof_on_object_nonroot DK_AttrOnObject 1.
+Proof. split; [by_compute | one_diag]. Qed.
 
 (* undeclared packet in a packet that is itself rejected as a duplicate: only the duplicate is reported *)
 Lemma undeclared_packet_in_dup_packet_refuted :
@@ -68,18 +64,34 @@ Proof.
   - eexists; split; [vm_compute; left; reflexivity|split; reflexivity].
 Qed.
 
-(* match on an undeclared key: MatchKeyField becomes nil, nothing is reported *)
-Lemma undeclared_match_key_refuted : In (FUndeclaredMatchKey, 1) (faults w_undeclared_match_key) /\ accepted w_undeclared_match_key.
-Proof. split; [by_compute | accept]. Qed.
+(* the packet of a match pair whose key list starts on a later line than its bracket: reported on the lines of the
+   keys (one diagnostic per key), not on the line of the pair *)
+Lemma undeclared_packet_in_list_pair_line_refuted :
+  In (FUndeclaredPacket, 1) (faults w_undeclared_in_list_pair) /\
+  exists r, visit w_undeclared_in_list_pair = VOk r /\ ~ has_diag r DK_UnknownPacket 1 /\ has_diag r DK_UnknownPacket 2.
+Proof.
+  split; [by_compute|]. eexists; split; [vm_compute; reflexivity|]. split.
+  - intros [d [Hd [_ Hl]]]. vm_compute in Hd. destruct Hd as [Hd|[Hd|[]]]; subst d; discriminate.
+  - eexists; split; [vm_compute; left; reflexivity|split; reflexivity].
+Qed.
 
-(* length-of an undeclared target: accepted when the length field is the last field ... *)
-Lemma undeclared_len_target_refuted : In (FUndeclaredLenTarget, 1) (faults w_undeclared_len_target) /\ accepted w_undeclared_len_target.
-Proof. split; [by_compute | accept]. Qed.
+(* a duplicate of a length field that was itself refused is not a duplicate for the visitor *)
+Lemma dup_field_after_dropped_len_refuted :
+  In (FDupField, 1) (faults w_dup_field_after_dropped_len) /\
+  exists r, visit w_dup_field_after_dropped_len = VOk r /\ no_diag_of r DK_DupField.
+Proof.
+  split; [by_compute|]. eexists; split; [vm_compute; reflexivity|].
+  intros d Hd. vm_compute in Hd. destruct Hd as [Hd|[]]; subst d; discriminate.
+Qed.
 
-(* ... and a panic when a field follows it *)
-Lemma undeclared_len_target_panics :
-  In (FUndeclaredLenTarget, 1) (faults w_undeclared_len_target_panic) /\ visit w_undeclared_len_target_panic = VPanic site_packetdef.
-Proof. split; by_compute. Qed.
+(* the target of a length field that is itself refused is not looked at *)
+Lemma len_target_of_dropped_len_refuted :
+  In (FUndeclaredLenTarget, 1) (faults w_len_target_of_dropped_len) /\ only_diag w_len_target_of_dropped_len DK_LenNotRoot 1.
+Proof. split; [by_compute | one_diag]. Qed.
+
+(* @calculatedFrom before a match field: the field is a checksum field of type "match" afterwards, its key is not looked at *)
+Lemma match_key_after_calc_refuted : In (FUndeclaredMatchKey, 1) (faults w_match_after_calc) /\ accepted w_match_after_calc.
+Proof. split; [by_compute | accept]. Qed.
 
 (* a repeated unknown option is reported as unknown twice, never as a duplicate *)
 Lemma dup_unknown_option_refuted :
@@ -116,52 +128,52 @@ Lemma quoted_option_value_refuted :
             r_diags r = [mkDiag 1 DK_OptValue "Option LittleEndian is not allowed to be yes, Expected one of:true,false"].
 Proof. split; [by_compute|]. eexists; split; [vm_compute; reflexivity|reflexivity]. Qed.
 
-(* the converse direction of C12: well-formed programs that are rejected *)
-Lemma padchar_nul_rejected :
-  faults w_padchar_nul = [] /\ exists r, visit w_padchar_nul = VOk r /\ has_diag r DK_OptValue 1.
+(* ---- repaired: the witnesses of the former findings are now answered *)
+
+Lemma dup_field_witness : only_diag w_dup_field DK_DupField 1.
+Proof. one_diag. Qed.
+
+Lemma undeclared_match_key_witness : only_diag w_undeclared_match_key DK_UnknownMatchKey 1.
+Proof. one_diag. Qed.
+
+Lemma undeclared_len_target_witness :
+  only_diag w_undeclared_len_target DK_UnknownLenTarget 1 /\ only_diag w_undeclared_len_target_panic DK_UnknownLenTarget 1.
+Proof. split; one_diag. Qed.
+
+Lemma undeclared_packet_in_pair_witness : only_diag w_undeclared_in_pair DK_UnknownPacket 1.
+Proof. one_diag. Qed.
+
+Lemma undeclared_packet_in_inline_witness : only_diag w_undeclared_in_inline DK_UnknownPacket 1.
+Proof. one_diag. Qed.
+
+(* attribute misuse has no fault class in the specification; it is refused with a diagnostic of its own *)
+Lemma attribute_misuse_diagnosed :
+  only_diag w_pad_on_basic DK_PadNotFixed 1 /\ only_diag w_lengthof_on_object DK_AttrOnObject 1 /\
+  only_diag w_len_named_nil_meta DK_UnknownMeta 1 /\ only_diag w_sum_named_nil_meta DK_UnknownMeta 1.
+Proof. repeat split; one_diag. Qed.
+
+(* the documented option values that used to be refused are accepted, and mean what their other spelling means *)
+Lemma padchar_nul_accepted : faults w_padchar_nul = [] /\ accepted w_padchar_nul.
+Proof. split; [reflexivity | accept]. Qed.
+
+Lemma alias_option_value_accepted :
+  faults w_alias_option = [] /\ accepted w_alias_option /\
+  exists r1 r2, visit w_alias_option = VOk r1 /\ visit w_short_option = VOk r2 /\
+                r_options r1 = r_options r2 /\ r_config r1 = r_config r2.
 Proof.
-  split; [reflexivity|]. eexists; split; [vm_compute; reflexivity|].
-  eexists; split; [left; reflexivity|split; reflexivity].
+  split; [reflexivity|]. split; [accept|]. eexists; eexists. split; [vm_compute; reflexivity|]. split; [vm_compute; reflexivity|].
+  split; reflexivity.
 Qed.
 
-Lemma alias_option_value_rejected :
-  faults w_alias_option = [] /\ exists r, visit w_alias_option = VOk r /\ has_diag r DK_OptValue 1.
-Proof.
-  split; [reflexivity|]. eexists; split; [vm_compute; reflexivity|].
-  eexists; split; [left; reflexivity|split; reflexivity].
-Qed.
+(* the NUL pad character of the option is the NUL pad character of the padding attribute *)
+Lemma nul_option_is_nul_attr :
+  exists r1 r2 c, visit w_nul_option = VOk r1 /\ visit w_nul_attr = VOk r2 /\
+                  nth_error (r_store r2) 0 = Some c /\ BModel.c_pad (r_config r1) = fc_pad c.
+Proof. eexists; eexists; eexists. split; [vm_compute; reflexivity|]. split; [vm_compute; reflexivity|]. split; reflexivity. Qed.
 
 (* a well-formed program that IS accepted, with everything in it (sanity of the witnesses' set-up) *)
 Lemma small_program_accepted : faults w_ok_small = [] /\ accepted w_ok_small.
 Proof. split; [reflexivity | accept]. Qed.
-
-(* ================================================================== (c) C11: every panic site is reachable *)
-
-Lemma panic_attr_reachable : visit w_pad_on_basic = VPanic site_attr.
-Proof. reflexivity. Qed.
-
-Lemma panic_gettype_reachable : visit w_lengthof_on_object = VPanic site_gettype.
-Proof. reflexivity. Qed.
-
-Lemma panic_lenfield_reachable : visit w_len_named_nil_meta = VPanic site_lenfield.
-Proof. reflexivity. Qed.
-
-Lemma panic_checksum_reachable : visit w_sum_named_nil_meta = VPanic site_checksum.
-Proof. reflexivity. Qed.
-
-Lemma panic_packetdef_reachable : visit w_undeclared_len_target_panic = VPanic site_packetdef.
-Proof. reflexivity. Qed.
-
-Theorem visit_may_panic : ~ (forall t, exists r, visit t = VOk r).
-Proof.
-  intros H. destruct (H w_pad_on_basic) as [r Hr]. rewrite panic_attr_reachable in Hr. discriminate.
-Qed.
-
-(* attribute misuse has no fault class: the spec calls these trees well-formed, the visitor panics *)
-Lemma attribute_misuse_not_diagnosed :
-  faults w_pad_on_basic = [] /\ faults w_lengthof_on_object = [] /\
-  faults w_len_named_nil_meta = [] /\ faults w_sum_named_nil_meta = [].
-Proof. repeat split; reflexivity. Qed.
 
 (* ================================================================== (d) C08: attribute locality is false *)
 
@@ -327,19 +339,24 @@ Proof.
   unfold add_meta. destruct (find_meta (s_metas s) (vm_name m)); [apply add_diag_mono|cbn; apply incl_refl].
 Qed.
 
-(* every MetaData item is handed to AddMetaData with its name and line *)
+(* every MetaData item is handed to AddMetaData with its name and line (a ref-declaration of an unknown type
+   after one more diagnostic) *)
 Lemma visit_meta_item_shape s i :
-  exists s' m, visit_meta_item s i = add_meta s' m /\ s_metas s' = s_metas s /\ s_diags s' = s_diags s /\
-               vm_name m = meta_item_name i /\ vm_line m = meta_item_line i.
+  exists s' m, visit_meta_item s i = add_meta s' m /\ s_metas s' = s_metas s /\ incl (s_diags s) (s_diags s') /\
+               vm_name m = meta_item_name i /\ vm_line m = meta_item_line i /\
+               s_packets s' = s_packets s /\ s_root s' = s_root s.
 Proof.
   destruct i as [d|d]; cbn [visit_meta_item].
-  - destruct (meta_decl_attr d (s_store s)) as [a st]. eexists; eexists; split; [reflexivity|]. cbn. auto.
-  - eexists; eexists; split; [reflexivity|]. cbn. auto.
+  - destruct (meta_decl_attr d (s_store s)) as [a st]. eexists; eexists; split; [reflexivity|]. cbn.
+    repeat split; auto. apply incl_refl.
+  - eexists; eexists; split; [reflexivity|]. cbn [vm_name vm_line meta_item_name meta_item_line].
+    destruct (match find_meta (s_metas s) (p_text (rm_typ d)) with Some m => vm_attr m | None => VANil end); cbn;
+      repeat split; auto; try apply incl_refl; apply incl_snoc.
 Qed.
 
 Lemma visit_meta_item_mono s i : incl (s_diags s) (s_diags (visit_meta_item s i)).
 Proof.
-  destruct (visit_meta_item_shape s i) as [s' [m [-> [_ [Hd _]]]]]. rewrite <- Hd. apply add_meta_mono.
+  destruct (visit_meta_item_shape s i) as [s' [m [-> [_ [Hd _]]]]]. eapply incl_tran; [exact Hd|apply add_meta_mono].
 Qed.
 
 Lemma find_meta_snoc ms m n :
@@ -393,7 +410,7 @@ Lemma visit_meta_item_dup s i :
   registered s (meta_item_name i) ->
   exists d, In d (s_diags (visit_meta_item s i)) /\ d_kind d = DK_DupMeta /\ d_line d = meta_item_line i.
 Proof.
-  destruct (visit_meta_item_shape s i) as [s' [m [-> [Hm [_ [Hn Hl]]]]]]. unfold registered. rewrite <- Hm, <- Hn. intros H.
+  destruct (visit_meta_item_shape s i) as [s' [m [-> [Hm [_ [Hn [Hl _]]]]]]]. unfold registered. rewrite <- Hm, <- Hn. intros H.
   unfold add_meta. destruct (find_meta (s_metas s') (vm_name m)); [|contradiction].
   eexists. split; [cbn; apply In_snoc; right; reflexivity|]. cbn. auto.
 Qed.
@@ -448,32 +465,13 @@ Proof.
     apply incl_appl. apply incl_refl.
 Qed.
 
-(* ResolveDependencies *)
-Lemma resolve_field_mono pmap f ds : incl ds (snd (resolve_field pmap (f, ds))).
-Proof.
-  unfold resolve_field. destruct (vf_attr f); try apply incl_refl. destruct ref; [apply incl_refl|].
-  destruct (mem _ _); cbn; [apply incl_refl|apply incl_snoc].
-Qed.
-
-Lemma resolve_fields_mono pmap fs : forall ds, incl ds (snd (resolve_fields pmap fs ds)).
-Proof.
-  induction fs as [|f fs IH]; intros ds; cbn [resolve_fields]; [apply incl_refl|].
-  pose proof (resolve_field_mono pmap f ds) as H1. destruct (resolve_field pmap (f, ds)) as [f1 ds1]. cbn in H1.
-  pose proof (IH ds1) as H2. destruct (resolve_fields pmap fs ds1) as [r1 ds2]. cbn in *. eapply incl_tran; eassumption.
-Qed.
-
-Lemma resolve_packets_mono pmap ps : forall ds, incl ds (snd (resolve_packets pmap ps ds)).
-Proof.
-  induction ps as [|p ps IH]; intros ds; cbn [resolve_packets]; [apply incl_refl|].
-  pose proof (resolve_fields_mono pmap (vk_fields p) ds) as H1. destruct (resolve_fields pmap (vk_fields p) ds) as [f1 ds1]. cbn in H1.
-  pose proof (IH ds1) as H2. destruct (resolve_packets pmap ps ds1) as [r1 ds2]. cbn in *. eapply incl_tran; eassumption.
-Qed.
+(* ResolveDependencies only adds *)
+Lemma finish_diags s :
+  r_diags (finish s) = s_diags s ++ snd (resolve_packets (Visitor.packet_names (s_packets s)) (s_packets s)).
+Proof. unfold finish. destruct (resolve_packets _ _) as [ps ds]. reflexivity. Qed.
 
 Lemma finish_mono s : incl (s_diags s) (r_diags (finish s)).
-Proof.
-  unfold finish. pose proof (resolve_packets_mono (Visitor.packet_names (s_packets s)) (s_packets s) (s_diags s)) as H.
-  destruct (resolve_packets _ _ _) as [ps ds]. cbn in *. exact H.
-Qed.
+Proof. rewrite finish_diags. apply incl_appl. apply incl_refl. Qed.
 
 (* the phases of [visit] *)
 Lemma visit_ok_inv t r :
@@ -595,35 +593,93 @@ Proof.
 Qed.
 
 (* ---- C12, illegal option value.  The visitor strips the quotes of a STRING value before the check, so
-   the theorem is about unquoted values (quoted_option_value_refuted is the counterexample otherwise) *)
-Definition unquoted (d : option_decl) : Prop :=
-  match od_value d with VString _ _ => False | _ => True end /\ value_text (od_value d) <> nul_pad_char.
+   the theorem is about unquoted values (quoted_option_value_refuted is the counterexample otherwise); a basic type is
+   one of the spellings of the lexer *)
+Definition basic_spellings : list string :=
+  ["char"; "uint8"; "u8"; "uint16"; "u16"; "uint32"; "u32"; "uint64"; "u64"; "int8"; "i8"; "int16"; "i16"; "int32"; "i32";
+   "int64"; "i64"; "float32"; "f32"; "float64"; "f64"].
+
+Definition plain_value (d : option_decl) : Prop :=
+  match od_value d with
+  | VString _ _ => False
+  | VType _ (TyBasic _ _) => In (value_text (od_value d)) basic_spellings
+  | _ => value_text (od_value d) <> nul_pad_char
+  end.
+
+(* the short name of a basic type is in the table only when the spelling is documented *)
+Lemma basic_value_documented n vs ws t :
+  lookup documented_options n = Some vs -> alookup option_table n = Some ws -> ws <> [] ->
+  In t basic_spellings -> In (BModel.get_basic_type t) ws -> In t vs.
+Proof.
+  cbn [lookup alookup documented_options option_table]. intros H1 H2 Hne Hs Hin.
+  case_name n; try discriminate; inversion H1; inversion H2; subst; try (exfalso; apply Hne; reflexivity);
+    cbn [basic_spellings In] in Hs;
+    repeat (destruct Hs as [<-|Hs]; [vm_compute in Hin |- *; intuition discriminate|]); contradiction.
+Qed.
+
+Lemma nul_value_documented n vs ws :
+  lookup documented_options n = Some vs -> alookup option_table n = Some ws -> ws <> [] ->
+  In nul_pad_char ws -> In "'\x00'" vs.
+Proof.
+  cbn [lookup alookup documented_options option_table]. intros H1 H2 Hne Hin.
+  case_name n; try discriminate; inversion H1; inversion H2; subst; try (exfalso; apply Hne; reflexivity);
+    vm_compute in Hin |- *; intuition discriminate.
+Qed.
+
+(* what AddOption is given, for a plain value that the table accepts, is spelled as documented *)
+Lemma option_value_documented n vs ws d :
+  lookup documented_options n = Some vs -> alookup option_table n = Some ws -> ws <> [] -> plain_value d ->
+  In (option_value (od_value d)) ws -> In (value_text (od_value d)) vs.
+Proof.
+  intros H1 H2 Hne Hp Hin. unfold plain_value in Hp. unfold option_value in Hin.
+  destruct (od_value d) as [sp ty|sp tk|sp tk|sp tk|sp tk|sp tk] eqn:Hv; try contradiction.
+  - destruct ty as [tsp b|tsp fx|tsp dy].
+    + (* a basic type: its short name is never the NUL spelling *)
+      assert (Hno : String.eqb (BModel.get_basic_type (value_text (VType sp (TyBasic tsp b)))) "'\x00'" = false).
+      { cbn [basic_spellings In] in Hp. repeat (destruct Hp as [<-|Hp]; [reflexivity|]). contradiction. }
+      rewrite Hno in Hin. eapply basic_value_documented; eassumption.
+    + destruct (String.eqb_spec (value_text (VType sp (TyFixed tsp fx))) "'\x00'") as [He|_].
+      * rewrite He. eapply nul_value_documented; eassumption.
+      * destruct (table_values_documented _ _ _ _ H1 H2 Hne Hin) as [Hx|Hx]; [contradiction|exact Hx].
+    + destruct (String.eqb_spec (value_text (VType sp (TyDynamic tsp dy))) "'\x00'") as [He|_].
+      * rewrite He. eapply nul_value_documented; eassumption.
+      * destruct (table_values_documented _ _ _ _ H1 H2 Hne Hin) as [Hx|Hx]; [contradiction|exact Hx].
+  - destruct (String.eqb_spec (value_text (VDigits sp tk)) "'\x00'") as [He|_].
+    + rewrite He. eapply nul_value_documented; eassumption.
+    + destruct (table_values_documented _ _ _ _ H1 H2 Hne Hin) as [Hx|Hx]; [contradiction|exact Hx].
+  - destruct (String.eqb_spec (value_text (VPaddingChar sp tk)) "'\x00'") as [He|_].
+    + rewrite He. eapply nul_value_documented; eassumption.
+    + destruct (table_values_documented _ _ _ _ H1 H2 Hne Hin) as [Hx|Hx]; [contradiction|exact Hx].
+  - destruct (String.eqb_spec (value_text (VTrue sp tk)) "'\x00'") as [He|_].
+    + rewrite He. eapply nul_value_documented; eassumption.
+    + destruct (table_values_documented _ _ _ _ H1 H2 Hne Hin) as [Hx|Hx]; [contradiction|exact Hx].
+  - destruct (String.eqb_spec (value_text (VFalse sp tk)) "'\x00'") as [He|_].
+    + rewrite He. eapply nul_value_documented; eassumption.
+    + destruct (table_values_documented _ _ _ _ H1 H2 Hne Hin) as [Hx|Hx]; [contradiction|exact Hx].
+Qed.
 
 Theorem illegal_option_value_diagnosed t l r :
   In (FIllegalOptionValue, l) (faults t) -> visit t = VOk r ->
-  (forall d, In d (option_decls t) -> unquoted d) ->
+  (forall d, In d (option_decls t) -> plain_value d) ->
   has_diag r DK_OptValue l.
 Proof.
   intros Hf Hv Hq. apply faults_inv in Hf.
   destruct Hf as [[Hk _]|[[Hk _]|[[Hk _]|[[Hk _]|[[d [Hin Hd]]|[s [_ Hs]]]]]]]; try discriminate.
   - apply In_option_fault in Hd. destruct Hd as [Hl [[Hk _]|[_ [vs [Hvs [Hne Hnot]]]]]]; [discriminate|].
-    destruct (Hq d Hin) as [Hnq Hnn].
+    pose proof (Hq d Hin) as Hplain.
     destruct (restricted_restricted _ _ Hvs Hne) as [ws [Hws Hwne]].
     destruct (in_split _ _ Hin) as [a [b Hsplit]].
     set (s0 := fold_left visit_option_decl a (phase_metas t st0)).
-    assert (Hv' : (match od_value d with VString _ _ => trim_quotes (value_text (od_value d)) | _ => value_text (od_value d) end)
-                  = value_text (od_value d)).
-    { destruct (od_value d); try reflexivity. contradiction. }
-    assert (Hmem : mem (value_text (od_value d)) ws = false).
-    { destruct (mem (value_text (od_value d)) ws) eqn:Hm; [|reflexivity]. apply mem_In in Hm.
-      destruct (table_values_documented _ _ _ _ Hvs Hws Hwne Hm) as [Hx|Hx]; [contradiction|]. exfalso. apply Hnot. exact Hx. }
+    assert (Hmem : mem (option_value (od_value d)) ws = false).
+    { destruct (mem (option_value (od_value d)) ws) eqn:Hm; [|reflexivity]. apply mem_In in Hm.
+      exfalso. apply Hnot. eapply option_value_documented; eassumption. }
     eexists. split.
     + eapply options_diag_reaches; [exact Hv|]. rewrite phase_options_decls, Hsplit, fold_left_app. cbn [fold_left].
-      apply fold_option_decls_mono. fold s0. unfold visit_option_decl, add_option. rewrite Hv', Hws.
+      apply fold_option_decls_mono. fold s0. unfold visit_option_decl, add_option. rewrite Hws.
       destruct ws as [|w ws]; [exfalso; apply Hwne; reflexivity|]. rewrite Hmem.
       match goal with |- In _ (s_diags (match alookup (s_options ?x) _ with _ => _ end)) => set (s1 := x) end.
       assert (H1 : In (mkDiag (start_line (od_span d)) DK_OptValue
-                              ("Option " ++ p_text (od_name d) ++ " is not allowed to be " ++ value_text (od_value d) ++
+                              ("Option " ++ p_text (od_name d) ++ " is not allowed to be " ++ option_value (od_value d) ++
                                ", Expected one of:" ++ join "," (w :: ws))%string) (s_diags s1)).
       { subst s1. cbn. apply In_snoc. right. reflexivity. }
       destruct (alookup (s_options s1) (p_text (od_name d))); [apply add_diag_mono; exact H1|exact H1].
@@ -704,8 +760,7 @@ Proof.
     destruct (documented_known _ _ Hvs) as [ws Hws].
     assert (Hset : opt_set (fold_left visit_option_decl xa (phase_metas t st0)) (p_text (od_name d))).
     { rewrite <- Hname. eapply fold_option_decls_sets; [exact Hin0|]. rewrite Hname. exact Hws. }
-    destruct (add_option_dup _ _ (match od_value d with VString _ _ => trim_quotes (value_text (od_value d)) | _ => value_text (od_value d) end)
-                             (start_line (od_span d)) _ Hws Hset) as [dg [Hdg [Hk Hln]]].
+    destruct (add_option_dup _ _ (option_value (od_value d)) (start_line (od_span d)) _ Hws Hset) as [dg [Hdg [Hk Hln]]].
     exists dg. split; [|split; [exact Hk|exact Hln]].
     eapply options_diag_reaches; [exact Hv|]. rewrite phase_options_decls, Hdecls, fold_left_app. cbn [fold_left].
     apply fold_option_decls_mono. exact Hdg.
@@ -721,8 +776,8 @@ Lemma visit_packet_def_shape metas pmap d store p st ds :
   visit_packet_def metas pmap d store = ROk (p, st, ds) ->
   vk_name p = pd_name_text d /\ vk_line p = start_line (pd_span d) /\ vk_root p = is_some (pd_root d).
 Proof.
-  unfold visit_packet_def. destruct (loop1 _ _ _ _) as [acc|e]; [|discriminate].
-  destruct (loop2 _ _ _ _ _) as [fields|e]; [|discriminate]. intros H. inversion H. cbn. auto.
+  unfold visit_packet_def. destruct (loop1 _ _ _ _ _) as [acc|e]; [|discriminate].
+  destruct (loop2 _ _ _ _ _ _) as [[fields ds2]|e]; [|discriminate]. intros H. inversion H. cbn. auto.
 Qed.
 
 Lemma add_packet_packets s p :
@@ -775,8 +830,8 @@ Proof.
   rewrite phase_options_decls, phase_metas_items.
   assert (H1 : forall l s, s_packets (fold_left visit_meta_item l s) = s_packets s /\ s_root (fold_left visit_meta_item l s) = s_root s).
   { induction l as [|i l IH]; intros s; cbn [fold_left]; [auto|]. destruct (IH (visit_meta_item s i)) as [-> ->].
-    destruct i as [d|d]; cbn [visit_meta_item]; [destruct (meta_decl_attr d (s_store s)) as [a st]|];
-      unfold add_meta; cbn; destruct (find_meta _ _); cbn; auto. }
+    destruct (visit_meta_item_shape s i) as [s' [m [-> [_ [_ [_ [_ [Hp Hr]]]]]]]]. rewrite <- Hp, <- Hr.
+    unfold add_meta. destruct (find_meta _ _); cbn; auto. }
   assert (H2 : forall l s, s_packets (fold_left visit_option_decl l s) = s_packets s /\ s_root (fold_left visit_option_decl l s) = s_root s).
   { induction l as [|d l IH]; intros s; cbn [fold_left]; [auto|]. destruct (IH (visit_option_decl s d)) as [-> ->].
     unfold visit_option_decl, add_option. destruct (alookup option_table _) as [vs|]; [|cbn; auto].
@@ -990,8 +1045,14 @@ Qed.
 
 (* ---- the attribute a top-level field ends up with: is it a length attribute? *)
 
-(* MetaData entries never carry a length attribute *)
-Definition metas_ok (ms : list vmeta) : Prop := forall m, In m ms -> is_len_attr (vm_attr m) = false.
+(* MetaData entries carry a basic, fixed-string or dynamic-string attribute, or none *)
+Definition meta_kind (a : vattr) : bool :=
+  match a with VABasic _ | VAFixed _ | VADyn | VANil => true | _ => false end.
+
+Definition metas_ok (ms : list vmeta) : Prop := forall m, In m ms -> meta_kind (vm_attr m) = true.
+
+Lemma meta_kind_not_len a : meta_kind a = true -> is_len_attr a = false.
+Proof. destruct a; cbn; auto; discriminate. Qed.
 
 Lemma find_meta_In ms n m : find_meta ms n = Some m -> In m ms.
 Proof.
@@ -1000,10 +1061,11 @@ Proof.
   - intros H. right. apply IH. exact H.
 Qed.
 
-Lemma meta_decl_attr_not_len d store : is_len_attr (fst (meta_decl_attr d store)) = false.
-Proof. unfold meta_decl_attr. destruct (md_type d); reflexivity. Qed.
+Lemma meta_decl_attr_kind d store :
+  meta_kind (fst (meta_decl_attr d store)) = true /\ fst (meta_decl_attr d store) <> VANil.
+Proof. unfold meta_decl_attr. destruct (md_type d); cbn; split; (reflexivity || discriminate). Qed.
 
-Lemma add_meta_ok s m : metas_ok (s_metas s) -> is_len_attr (vm_attr m) = false -> metas_ok (s_metas (add_meta s m)).
+Lemma add_meta_ok s m : metas_ok (s_metas s) -> meta_kind (vm_attr m) = true -> metas_ok (s_metas (add_meta s m)).
 Proof.
   intros H Hm. unfold add_meta. destruct (find_meta _ _); [exact H|]. cbn. intros x Hx. apply In_snoc in Hx.
   destruct Hx as [Hx| ->]; [apply H; exact Hx|exact Hm].
@@ -1012,9 +1074,12 @@ Qed.
 Lemma visit_meta_item_ok s i : metas_ok (s_metas s) -> metas_ok (s_metas (visit_meta_item s i)).
 Proof.
   intros H. destruct i as [d|d]; cbn [visit_meta_item].
-  - pose proof (meta_decl_attr_not_len d (s_store s)) as Ha. destruct (meta_decl_attr d (s_store s)) as [a st]. cbn in Ha.
+  - destruct (meta_decl_attr_kind d (s_store s)) as [Ha _]. destruct (meta_decl_attr d (s_store s)) as [a st]. cbn in Ha.
     apply add_meta_ok; [exact H|exact Ha].
-  - apply add_meta_ok; [exact H|]. cbn. destruct (find_meta _ _) as [m|] eqn:Hm; [|reflexivity]. apply H. eapply find_meta_In. exact Hm.
+  - assert (Hk : meta_kind (match find_meta (s_metas s) (p_text (rm_typ d)) with Some m => vm_attr m | None => VANil end) = true).
+    { destruct (find_meta _ _) as [m|] eqn:Hm; [|reflexivity]. apply H. eapply find_meta_In. exact Hm. }
+    apply add_meta_ok; [|exact Hk].
+    destruct (match find_meta (s_metas s) (p_text (rm_typ d)) with Some m => vm_attr m | None => VANil end); exact H.
 Qed.
 
 Lemma phase_metas_ok t : metas_ok (s_metas (phase_metas t st0)).
@@ -1062,117 +1127,174 @@ Fixpoint final_len (attrs : list field_attribute) (init : bool) : bool :=
 Definition is_length_field (f : field_def) : bool := match f with LengthField _ _ => true | _ => false end.
 Definition final_is_len (fw : field_with_attr) : bool := final_len (fw_attrs fw) (is_length_field (fw_def fw)).
 
-Lemma apply_attrs_len attrs : forall f store f' st,
-  apply_attrs attrs f store = ROk (f', st) -> is_len_attr (vf_attr f') = final_len attrs (is_len_attr (vf_attr f)).
+Lemma attr_set_la f l : vf_attr (set_la f l) = vf_attr f. Proof. destruct f; reflexivity. Qed.
+Lemma attr_set_attr f a : vf_attr (set_attr f a) = a. Proof. destruct f; reflexivity. Qed.
+Lemma attr_set_tag f t : vf_attr (set_tag f t) = vf_attr f. Proof. destruct f; reflexivity. Qed.
+Lemma name_set_attr f a : vf_name (set_attr f a) = vf_name f. Proof. destruct f; reflexivity. Qed.
+Lemma name_set_tag f t : vf_name (set_tag f t) = vf_name f. Proof. destruct f; reflexivity. Qed.
+Lemma line_set_attr f a : vf_line (set_attr f a) = vf_line f. Proof. destruct f; reflexivity. Qed.
+Lemma line_set_tag f t : vf_line (set_tag f t) = vf_line f. Proof. destruct f; reflexivity. Qed.
+
+Lemma apply_attrs_cons line a r f store f' st ds :
+  apply_attrs line (a :: r) f store = ROk (f', st, ds) ->
+  exists f1 st1 ds1 ds2, apply_attr line a f store = ROk (f1, st1, ds1) /\ apply_attrs line r f1 st1 = ROk (f', st, ds2) /\ ds = ds1 ++ ds2.
 Proof.
-  induction attrs as [|a attrs IH]; intros f store f' st H; cbn [apply_attrs] in H.
-  - inversion H. reflexivity.
-  - destruct (apply_attr a f store) as [[f1 st1]|e] eqn:Ha; [|discriminate]. rewrite (IH _ _ _ _ H).
-    destruct a as [sp x|sp x|sp x|sp x]; cbn [apply_attr] in Ha; cbn [final_len].
-    + destruct (field_get_type (vf_attr f)); [|discriminate]. inversion Ha. destruct f; reflexivity.
-    + destruct (field_get_type (vf_attr f)); [|discriminate]. inversion Ha. destruct f; reflexivity.
-    + inversion Ha. destruct f; reflexivity.
-    + destruct (vf_attr f) eqn:Hf; try discriminate. inversion Ha. subst. rewrite Hf. reflexivity.
+  cbn [apply_attrs]. destruct (apply_attr line a f store) as [[[f1 st1] ds1]|e] eqn:H1; [|discriminate].
+  destruct (apply_attrs line r f1 st1) as [[[f2 st2] ds2]|e] eqn:H2; [|discriminate]. intros H. inversion H. subst.
+  exists f1, st1, ds1, ds2. split; [reflexivity|]. split; [exact H2|reflexivity].
 Qed.
 
+(* on a field whose type can be taken the written attributes decide *)
+Lemma apply_attrs_len line attrs : forall f store f' st ds,
+  apply_attrs line attrs f store = ROk (f', st, ds) -> is_plain_object (vf_attr f) = false ->
+  is_len_attr (vf_attr f') = final_len attrs (is_len_attr (vf_attr f)) /\ is_plain_object (vf_attr f') = false.
+Proof.
+  induction attrs as [|a attrs IH]; intros f store f' st ds H Hnp.
+  - cbn in H. inversion H. subst. auto.
+  - destruct (apply_attrs_cons _ _ _ _ _ _ _ _ H) as [f1 [st1 [ds1 [ds2 [Ha [Hr _]]]]]].
+    destruct a as [sp x|sp x|sp x|sp x]; cbn [apply_attr] in Ha; rewrite ?Hnp in Ha; cbn [final_len].
+    + destruct (field_get_type (vf_attr f)); [|discriminate]. inversion Ha. subst.
+      destruct (IH _ _ _ _ _ Hr) as [H1 H2]; [rewrite attr_set_attr; reflexivity|]. rewrite attr_set_attr in H1. auto.
+    + destruct (field_get_type (vf_attr f)); [|discriminate]. inversion Ha. subst.
+      destruct (IH _ _ _ _ _ Hr) as [H1 H2]; [rewrite attr_set_attr; reflexivity|]. rewrite attr_set_attr in H1. auto.
+    + inversion Ha. subst. destruct (IH _ _ _ _ _ Hr) as [H1 H2]; [rewrite attr_set_tag; exact Hnp|]. rewrite attr_set_tag in H1. auto.
+    + assert (Hf1 : f1 = f) by (destruct (vf_attr f); inversion Ha; reflexivity). subst f1. exact (IH _ _ _ _ _ Hr Hnp).
+Qed.
+
+(* an object field keeps its attribute: @lengthOf and @calculatedFrom are refused, padding too *)
+Lemma apply_attrs_plain line attrs : forall f store f' st ds,
+  apply_attrs line attrs f store = ROk (f', st, ds) -> is_plain_object (vf_attr f) = true ->
+  vf_attr f' = vf_attr f /\ vf_line f' = vf_line f /\ vf_name f' = vf_name f.
+Proof.
+  induction attrs as [|a attrs IH]; intros f store f' st ds H Hp.
+  - cbn in H. inversion H. subst. auto.
+  - destruct (apply_attrs_cons _ _ _ _ _ _ _ _ H) as [f1 [st1 [ds1 [ds2 [Ha [Hr _]]]]]].
+    destruct a as [sp x|sp x|sp x|sp x]; cbn [apply_attr] in Ha; rewrite ?Hp in Ha.
+    + inversion Ha. subst. exact (IH _ _ _ _ _ Hr Hp).
+    + inversion Ha. subst. exact (IH _ _ _ _ _ Hr Hp).
+    + inversion Ha. subst. destruct (IH _ _ _ _ _ Hr) as [H1 [H2 H3]]; [rewrite attr_set_tag; exact Hp|].
+      rewrite H1, H2, H3, attr_set_tag, line_set_tag, name_set_tag. auto.
+    + assert (Hf1 : f1 = f) by (destruct (vf_attr f); inversion Ha; reflexivity). subst f1. exact (IH _ _ _ _ _ Hr Hp).
+Qed.
+
+Definition is_object_field (f : field_def) : bool := match f with ObjectField _ _ _ _ _ _ => true | _ => false end.
+
 Lemma visit_field_def_len metas f store v st ds :
-  metas_ok metas -> visit_field_def metas f store = ROk (v, st, ds) -> is_len_attr (vf_attr v) = is_length_field f.
+  metas_ok metas -> visit_field_def metas f store = ROk (v, st, ds) ->
+  is_len_attr (vf_attr v) = is_length_field f /\ (NoPanic.is_object_field f = false -> is_plain_object (vf_attr v) = false).
 Proof.
   intros Hm H. destruct f as [sp rep decl comma|sp rep d|sp rep ft fn doc comma|sp d|sp d|sp d comma]; cbn [visit_field_def] in H.
   - destruct decl as [sp2 n o fields c].
     match type of H with match ?X with _ => _ end = _ => destruct X as [[[subs st1] ds1]|e] end; [|discriminate].
-    inversion H. reflexivity.
-  - pose proof (meta_decl_attr_not_len d store) as Ha. unfold meta_decl_field in H.
-    destruct (meta_decl_attr d store) as [a st']. inversion H. cbn in *. exact Ha.
-  - inversion H. cbn. destruct (find_meta metas (p_text ft)) as [m|] eqn:Hf; [|reflexivity]. apply Hm. eapply find_meta_In. exact Hf.
-  - unfold visit_length_field in H. destruct (decl_type _ _ _ _); [|discriminate]. inversion H. reflexivity.
-  - unfold visit_checksum_field in H. destruct (decl_type _ _ _ _); [|discriminate]. inversion H. reflexivity.
-  - unfold visit_match_field in H. inversion H. reflexivity.
+    inversion H. cbn. auto.
+  - destruct (meta_decl_attr_kind d store) as [Ha Hn]. unfold meta_decl_field in H.
+    destruct (meta_decl_attr d store) as [a st']. inversion H. cbn in *. split; [apply meta_kind_not_len; exact Ha|].
+    intros _. destruct a; cbn in *; try reflexivity; try discriminate. contradiction.
+  - inversion H. cbn. split; [|discriminate]. destruct (find_meta metas (p_text ft)) as [m|] eqn:Hf; [|reflexivity].
+    apply meta_kind_not_len. apply Hm. eapply find_meta_In. exact Hf.
+  - inversion H. cbn. auto.
+  - inversion H. cbn. auto.
+  - unfold visit_match_field in H. inversion H. cbn. auto.
+Qed.
+
+Lemma visit_field_with_attr_inv metas fw store v st ds :
+  visit_field_with_attr metas fw store = ROk (v, st, ds) ->
+  exists f st1 ds1 ds2, visit_field_def metas (fw_def fw) store = ROk (f, st1, ds1) /\
+                        apply_attrs (start_line (fw_span fw)) (fw_attrs fw) f st1 = ROk (v, st, ds2) /\ ds = ds1 ++ ds2.
+Proof.
+  unfold visit_field_with_attr. destruct (visit_field_def metas (fw_def fw) store) as [[[f st1] ds1]|e] eqn:H1; [|discriminate].
+  destruct (apply_attrs _ _ f st1) as [[[f1 st2] ds2]|e] eqn:H2; [|discriminate]. intros H. inversion H. subst.
+  exists f, st1, ds1, ds2. split; [reflexivity|]. split; [exact H2|reflexivity].
 Qed.
 
 Lemma visit_field_with_attr_len metas fw store v st ds :
-  metas_ok metas -> visit_field_with_attr metas fw store = ROk (v, st, ds) -> is_len_attr (vf_attr v) = final_is_len fw.
+  metas_ok metas -> visit_field_with_attr metas fw store = ROk (v, st, ds) -> NoPanic.is_object_field (fw_def fw) = false ->
+  is_len_attr (vf_attr v) = final_is_len fw.
 Proof.
-  intros Hm H. unfold visit_field_with_attr in H.
-  destruct (visit_field_def metas (fw_def fw) store) as [[[f st1] ds1]|e] eqn:Hd; [|discriminate].
-  destruct (apply_attrs (fw_attrs fw) f st1) as [[f1 st2]|e] eqn:Ha; [|discriminate]. inversion H. subst.
-  rewrite (apply_attrs_len _ _ _ _ _ Ha), (visit_field_def_len _ _ _ _ _ _ Hm Hd). reflexivity.
+  intros Hm H Hno. destruct (visit_field_with_attr_inv _ _ _ _ _ _ H) as [f [st1 [ds1 [ds2 [Hd [Ha _]]]]]].
+  destruct (visit_field_def_len _ _ _ _ _ _ Hm Hd) as [Hl Hnp].
+  destruct (apply_attrs_len _ _ _ _ _ _ _ Ha (Hnp Hno)) as [H1 _]. rewrite H1, Hl. reflexivity.
 Qed.
 
 (* ---- the first loop of VisitPacketDefinition *)
 
-Lemma loop1_add_mono is_root line f acc store ds : incl (pa_diags acc ++ ds) (pa_diags (loop1_add is_root line f acc store ds)).
+Lemma loop1_add_mono pname is_root line f acc store ds :
+  incl (pa_diags acc ++ ds) (pa_diags (loop1_add pname is_root line f acc store ds)).
 Proof.
   unfold loop1_add. destruct (is_len_attr (vf_attr f)).
-  - destruct (negb is_root); [cbn; apply incl_snoc|]. destruct (pa_lenf acc); cbn; [apply incl_snoc|apply incl_refl].
-  - cbn. apply incl_refl.
+  - destruct (negb is_root); [cbn; apply incl_snoc|]. destruct (pa_lenf acc); cbn; [apply incl_snoc|apply incl_appl; apply incl_refl].
+  - cbn. apply incl_appl. apply incl_refl.
 Qed.
 
-Lemma loop1_cons metas is_root fw l acc acc' :
-  loop1 metas is_root (fw :: l) acc = ROk acc' ->
+Lemma loop1_cons metas pname is_root fw l acc acc' :
+  loop1 metas pname is_root (fw :: l) acc = ROk acc' ->
   exists f st ds, visit_field_with_attr metas fw (pa_store acc) = ROk (f, st, ds) /\
-                  loop1 metas is_root l (loop1_add is_root (start_line (fw_span fw)) f acc st ds) = ROk acc'.
+                  loop1 metas pname is_root l (loop1_add pname is_root (start_line (fw_span fw)) f acc st ds) = ROk acc'.
 Proof.
   cbn [loop1]. destruct (visit_field_with_attr _ _ _) as [[[f st] ds]|e]; [|discriminate]. intros H. exists f, st, ds. auto.
 Qed.
 
-Lemma loop1_app metas is_root a : forall b acc acc',
-  loop1 metas is_root (a ++ b) acc = ROk acc' -> exists acc1, loop1 metas is_root a acc = ROk acc1 /\ loop1 metas is_root b acc1 = ROk acc'.
+Lemma loop1_app metas pname is_root a : forall b acc acc',
+  loop1 metas pname is_root (a ++ b) acc = ROk acc' ->
+  exists acc1, loop1 metas pname is_root a acc = ROk acc1 /\ loop1 metas pname is_root b acc1 = ROk acc'.
 Proof.
   induction a as [|fw a IH]; intros b acc acc' H.
   - exists acc. auto.
-  - cbn [app] in H. destruct (loop1_cons _ _ _ _ _ _ H) as [f [st [ds [Hf Hr]]]].
+  - cbn [app] in H. destruct (loop1_cons _ _ _ _ _ _ _ H) as [f [st [ds [Hf Hr]]]].
     destruct (IH _ _ _ Hr) as [acc1 [H1 H2]]. exists acc1. split; [|exact H2]. cbn [loop1]. rewrite Hf. exact H1.
 Qed.
 
-Lemma loop1_mono metas is_root l : forall acc acc', loop1 metas is_root l acc = ROk acc' -> incl (pa_diags acc) (pa_diags acc').
+Lemma loop1_mono metas pname is_root l : forall acc acc', loop1 metas pname is_root l acc = ROk acc' -> incl (pa_diags acc) (pa_diags acc').
 Proof.
   induction l as [|fw l IH]; intros acc acc' H.
   - inversion H. apply incl_refl.
-  - destruct (loop1_cons _ _ _ _ _ _ H) as [f [st [ds [_ Hr]]]]. apply IH in Hr. eapply incl_tran; [|exact Hr].
+  - destruct (loop1_cons _ _ _ _ _ _ _ H) as [f [st [ds [_ Hr]]]]. apply IH in Hr. eapply incl_tran; [|exact Hr].
     eapply incl_tran; [|apply loop1_add_mono]. apply incl_appl. apply incl_refl.
 Qed.
 
 (* a length field in a non-root packet is reported on its first line *)
-Lemma loop1_len_not_root metas a fw b acc acc' :
-  metas_ok metas -> final_is_len fw = true ->
-  loop1 metas false (a ++ fw :: b) acc = ROk acc' ->
+Lemma loop1_len_not_root metas pname a fw b acc acc' :
+  metas_ok metas -> final_is_len fw = true -> NoPanic.is_object_field (fw_def fw) = false ->
+  loop1 metas pname false (a ++ fw :: b) acc = ROk acc' ->
   exists d, In d (pa_diags acc') /\ d_kind d = DK_LenNotRoot /\ d_line d = start_line (fw_span fw).
 Proof.
-  intros Hm Hfin H. destruct (loop1_app _ _ _ _ _ _ H) as [acc1 [_ H2]].
-  destruct (loop1_cons _ _ _ _ _ _ H2) as [f [st [ds [Hf Hr]]]].
-  pose proof (visit_field_with_attr_len _ _ _ _ _ _ Hm Hf) as Hlen. rewrite Hfin in Hlen.
+  intros Hm Hfin Hno H. destruct (loop1_app _ _ _ _ _ _ _ H) as [acc1 [_ H2]].
+  destruct (loop1_cons _ _ _ _ _ _ _ H2) as [f [st [ds [Hf Hr]]]].
+  pose proof (visit_field_with_attr_len _ _ _ _ _ _ Hm Hf Hno) as Hlen. rewrite Hfin in Hlen.
   eexists. split; [eapply loop1_mono; [exact Hr|]|].
   - unfold loop1_add. rewrite Hlen. cbn. apply In_snoc. right. reflexivity.
   - cbn. auto.
 Qed.
 
-Lemma loop1_add_lenf_keeps is_root line f acc store ds : pa_lenf acc <> None -> pa_lenf (loop1_add is_root line f acc store ds) <> None.
+Lemma loop1_add_lenf_keeps pname is_root line f acc store ds :
+  pa_lenf acc <> None -> pa_lenf (loop1_add pname is_root line f acc store ds) <> None.
 Proof.
   intros H. unfold loop1_add. destruct (is_len_attr (vf_attr f)).
   - destruct (negb is_root); [exact H|]. destruct (pa_lenf acc); [exact H|contradiction].
   - exact H.
 Qed.
 
-Lemma loop1_lenf_keeps metas is_root l : forall acc acc', loop1 metas is_root l acc = ROk acc' -> pa_lenf acc <> None -> pa_lenf acc' <> None.
+Lemma loop1_lenf_keeps metas pname is_root l : forall acc acc',
+  loop1 metas pname is_root l acc = ROk acc' -> pa_lenf acc <> None -> pa_lenf acc' <> None.
 Proof.
   induction l as [|fw l IH]; intros acc acc' H Hl.
   - inversion H. subst. exact Hl.
-  - destruct (loop1_cons _ _ _ _ _ _ H) as [f [st [ds [_ Hr]]]]. eapply IH; [exact Hr|]. apply loop1_add_lenf_keeps. exact Hl.
+  - destruct (loop1_cons _ _ _ _ _ _ _ H) as [f [st [ds [_ Hr]]]]. eapply IH; [exact Hr|]. apply loop1_add_lenf_keeps. exact Hl.
 Qed.
 
 (* the second length field of a root packet is reported on its first line *)
-Lemma loop1_len_dup metas a fw1 m fw2 b acc acc' :
+Lemma loop1_len_dup metas pname a fw1 m fw2 b acc acc' :
   metas_ok metas -> final_is_len fw1 = true -> final_is_len fw2 = true ->
-  loop1 metas true (a ++ fw1 :: m ++ fw2 :: b) acc = ROk acc' ->
+  NoPanic.is_object_field (fw_def fw1) = false -> NoPanic.is_object_field (fw_def fw2) = false ->
+  loop1 metas pname true (a ++ fw1 :: m ++ fw2 :: b) acc = ROk acc' ->
   exists d, In d (pa_diags acc') /\ d_kind d = DK_LenDup /\ d_line d = start_line (fw_span fw2).
 Proof.
-  intros Hm Hfin1 Hfin2 H. destruct (loop1_app _ _ _ _ _ _ H) as [acc1 [_ H2]].
-  destruct (loop1_cons _ _ _ _ _ _ H2) as [f1 [st1 [ds1 [Hf1 Hr1]]]].
-  pose proof (visit_field_with_attr_len _ _ _ _ _ _ Hm Hf1) as Hlen1. rewrite Hfin1 in Hlen1.
-  destruct (loop1_app _ _ _ _ _ _ Hr1) as [acc2 [Hmid H3]].
-  destruct (loop1_cons _ _ _ _ _ _ H3) as [f2 [st2 [ds2 [Hf2 Hr2]]]].
-  pose proof (visit_field_with_attr_len _ _ _ _ _ _ Hm Hf2) as Hlen2. rewrite Hfin2 in Hlen2.
+  intros Hm Hfin1 Hfin2 Hno1 Hno2 H. destruct (loop1_app _ _ _ _ _ _ _ H) as [acc1 [_ H2]].
+  destruct (loop1_cons _ _ _ _ _ _ _ H2) as [f1 [st1 [ds1 [Hf1 Hr1]]]].
+  pose proof (visit_field_with_attr_len _ _ _ _ _ _ Hm Hf1 Hno1) as Hlen1. rewrite Hfin1 in Hlen1.
+  destruct (loop1_app _ _ _ _ _ _ _ Hr1) as [acc2 [Hmid H3]].
+  destruct (loop1_cons _ _ _ _ _ _ _ H3) as [f2 [st2 [ds2 [Hf2 Hr2]]]].
+  pose proof (visit_field_with_attr_len _ _ _ _ _ _ Hm Hf2 Hno2) as Hlen2. rewrite Hfin2 in Hlen2.
   assert (Hset : pa_lenf acc2 <> None).
   { eapply loop1_lenf_keeps; [exact Hmid|]. unfold loop1_add. rewrite Hlen1. cbn. destruct (pa_lenf acc1); cbn; discriminate. }
   eexists. split; [eapply loop1_mono; [exact Hr2|]|].
@@ -1180,12 +1302,17 @@ Proof.
   - cbn. auto.
 Qed.
 
-Lemma visit_packet_def_diags metas pmap d store p st ds :
+Lemma visit_packet_def_inv metas pmap d store p st ds :
   visit_packet_def metas pmap d store = ROk (p, st, ds) ->
-  exists acc, loop1 metas (is_some (pd_root d)) (pd_fields d) (mkPacc [] [] None [] store []) = ROk acc /\ ds = pa_diags acc.
+  exists acc fields ds2,
+    loop1 metas (p_text (pd_name d)) (is_some (pd_root d)) (pd_fields d) (mkPacc [] [] [] None [] store []) = ROk acc /\
+    loop2 pmap (pa_fmap acc) (pa_lenf acc) (pa_lines acc) (seq 0 (length (pa_fields acc))) (pa_fields acc) = ROk (fields, ds2) /\
+    p = mkVPacket (p_text (pd_name d)) (is_some (pd_root d)) (pa_lenf acc) fields (pa_fmap acc) (pa_mfs acc) (start_line (pd_span d)) /\
+    st = pa_store acc /\ ds = pa_diags acc ++ ds2.
 Proof.
-  unfold visit_packet_def. destruct (loop1 _ _ _ _) as [acc|e]; [|discriminate].
-  destruct (loop2 _ _ _ _ _) as [fields|e]; [|discriminate]. intros H. inversion H. exists acc. auto.
+  unfold visit_packet_def. destruct (loop1 _ _ _ _ _) as [acc|e] eqn:H1; [|discriminate].
+  destruct (loop2 _ _ _ _ _ _) as [[fields ds2]|e] eqn:H2; [|discriminate]. intros H. inversion H. exists acc, fields, ds2.
+  split; [reflexivity|]. split; [exact H2|]. auto.
 Qed.
 
 (* the diagnostics of one packet definition reach the result *)
@@ -1206,10 +1333,12 @@ Qed.
 
 (* ---- C12, length-of field outside the root packet / second length-of field.
    Guards: on every top-level field with a length-of the length attribute is the one that takes effect
-   (len_then_calc_refuted is the counterexample otherwise), and - for placement - no inline object declares a
+   (len_then_calc_refuted is the counterexample otherwise) and the field is not an object field (there the attribute is
+   refused as such: lengthof_on_object_nonroot_refuted), and - for placement - no inline object declares a
    length-of field (len_in_inline_refuted). *)
 Definition len_final (t : pt) : Prop :=
-  forall d fw, In d (packet_defs t) -> In fw (pd_fields d) -> is_len_entry (top_entry fw) = true -> final_is_len fw = true.
+  forall d fw, In d (packet_defs t) -> In fw (pd_fields d) -> is_len_entry (top_entry fw) = true ->
+               final_is_len fw = true /\ NoPanic.is_object_field (fw_def fw) = false.
 
 Definition no_inline_len (t : pt) : Prop :=
   forall s, In s (scopes t) -> sc_top s = false -> filter is_len_entry (sc_entries s) = [].
@@ -1230,12 +1359,12 @@ Proof.
       destruct (is_some (pd_root d)) eqn:Hroot; [apply In_tag in Hsf; destruct Hsf; discriminate|].
       apply In_tag in Hsf. destruct Hsf as [_ Hl]. apply in_map_iff in Hl. destruct Hl as [e [Hline He]].
       apply filter_In in He. destruct He as [He Hlen]. apply in_map_iff in He. destruct He as [fw [<- Hfw]].
-      pose proof (Hfinal _ _ Hd Hfw Hlen) as Hfin.
+      destruct (Hfinal _ _ Hd Hfw Hlen) as [Hfin Hno].
       destruct (packet_def_diag_reaches _ _ _ Hv Hd) as [metas [pmap [store [p [st [ds [Hm [Hp Hincl]]]]]]]].
-      destruct (visit_packet_def_diags _ _ _ _ _ _ _ Hp) as [acc [Hloop ->]]. rewrite Hroot in Hloop.
+      destruct (visit_packet_def_inv _ _ _ _ _ _ _ Hp) as [acc [fields [ds2 [Hloop [_ [_ [_ ->]]]]]]]. rewrite Hroot in Hloop.
       destruct (in_split _ _ Hfw) as [a [b Hsplit]]. rewrite Hsplit in Hloop.
-      destruct (loop1_len_not_root _ _ _ _ _ _ Hm Hfin Hloop) as [dg [Hdg [Hk Hln]]].
-      exists dg. split; [apply Hincl; exact Hdg|]. split; [exact Hk|]. rewrite Hln. exact Hline.
+      destruct (loop1_len_not_root _ _ _ _ _ _ _ Hm Hfin Hno Hloop) as [dg [Hdg [Hk Hln]]].
+      exists dg. split; [apply Hincl; apply in_or_app; left; exact Hdg|]. split; [exact Hk|]. rewrite Hln. exact Hline.
     + cbn [andb] in Hsf. apply In_tag in Hsf. destruct Hsf as [_ Hl]. rewrite (Hnoinl _ Hs Htop) in Hl. contradiction.
 Qed.
 
@@ -1258,11 +1387,11 @@ Proof.
     assert (Hin1 : In fw1 (pd_fields d)) by (rewrite Hfields; apply in_or_app; right; left; reflexivity).
     assert (Hin2 : In fw2 (pd_fields d)).
     { rewrite Hfields. apply in_or_app. right. right. apply in_or_app. right. left. reflexivity. }
-    pose proof (Hfinal _ _ Hd Hin1 Hlen1) as Hfin1. pose proof (Hfinal _ _ Hd Hin2 Hlen2) as Hfin2.
+    destruct (Hfinal _ _ Hd Hin1 Hlen1) as [Hfin1 Hno1]. destruct (Hfinal _ _ Hd Hin2 Hlen2) as [Hfin2 Hno2].
     destruct (packet_def_diag_reaches _ _ _ Hv Hd) as [metas [pmap [store [p [st [ds [Hm [Hp Hincl]]]]]]]].
-    destruct (visit_packet_def_diags _ _ _ _ _ _ _ Hp) as [acc [Hloop ->]]. rewrite Hroot, Hfields in Hloop.
-    destruct (loop1_len_dup _ _ _ _ _ _ _ _ Hm Hfin1 Hfin2 Hloop) as [dg [Hdg [Hk Hln]]].
-    exists dg. split; [apply Hincl; exact Hdg|]. split; [exact Hk|]. rewrite Hln. exact Hline.
+    destruct (visit_packet_def_inv _ _ _ _ _ _ _ Hp) as [acc [fields [ds2 [Hloop [_ [_ [_ ->]]]]]]]. rewrite Hroot, Hfields in Hloop.
+    destruct (loop1_len_dup _ _ _ _ _ _ _ _ _ Hm Hfin1 Hfin2 Hno1 Hno2 Hloop) as [dg [Hdg [Hk Hln]]].
+    exists dg. split; [apply Hincl; apply in_or_app; left; exact Hdg|]. split; [exact Hk|]. rewrite Hln. exact Hline.
 Qed.
 
 (* ---- the second loop of VisitPacketDefinition *)
@@ -1288,10 +1417,7 @@ Definition skel (f : vfield) : string * nat := (vf_name f, vf_line f).
 
 Lemma skel_set_la f l : skel (set_la f l) = skel f. Proof. destruct f; reflexivity. Qed.
 Lemma skel_set_attr f a : skel (set_attr f a) = skel f. Proof. destruct f; reflexivity. Qed.
-Lemma attr_set_la f l : vf_attr (set_la f l) = vf_attr f. Proof. destruct f; reflexivity. Qed.
-Lemma attr_set_attr f a : vf_attr (set_attr f a) = a. Proof. destruct f; reflexivity. Qed.
 
-(* replacing an element by one with the same skeleton *)
 Lemma skel_upd_nth fields i f g j :
   nth_error fields i = Some f -> skel g = skel f ->
   option_map skel (nth_error (upd_nth i g fields) j) = option_map skel (nth_error fields j).
@@ -1310,32 +1436,7 @@ Proof.
   - rewrite nth_error_upd_nth_neq by exact Hn. reflexivity.
 Qed.
 
-(* the first half of an iteration (the LenAttr assignments) changes no Attr, no name, no line *)
-Definition step_la (lenf : option nat) (i : nat) (fields : list vfield) (f : vfield) : res (list vfield) :=
-  match lenf with
-  | None => ROk fields
-  | Some li =>
-      match nth_error fields li with
-      | None => ROk fields
-      | Some lf =>
-          match vf_attr lf with
-          | VALen tgt lenty =>
-              match fref_name tgt with
-              | None => RPanic site_packetdef
-              | Some tn =>
-                  if String.eqb (vf_name f) tn then
-                    let fields1 := upd_nth li (set_la lf (VLLenOf (vf_name lf))) fields in
-                    match nth_error fields1 i with
-                    | Some f1 => ROk (upd_nth i (set_la f1 (VLLen (Some tn) lenty)) fields1)
-                    | None => ROk fields1
-                    end
-                  else ROk fields
-              end
-          | _ => RPanic site_packetdef
-          end
-      end
-  end.
-
+(* the LenAttr assignments change no Attr, no name, no line *)
 Lemma step_la_keeps lenf i fields f fields1 :
   step_la lenf i fields f = ROk fields1 ->
   length fields1 = length fields /\
@@ -1361,186 +1462,77 @@ Proof.
   - split; [exact Hlen0|exact Hk0].
 Qed.
 
-Lemma loop2_step_unfold pmap fmap lenf i fields f :
-  nth_error fields i = Some f ->
-  loop2_step pmap fmap lenf i fields =
-  match step_la lenf i fields f with
-  | RPanic e => RPanic e
-  | ROk fields1 =>
-      match nth_error fields1 i with
-      | None => ROk fields1
-      | Some f1 =>
-          match vf_attr f1 with
-          | VAObj false pn _ inlp =>
-              ROk (upd_nth i (set_attr f1 (VAObj false pn (if mem pn pmap then Some pn else None) inlp)) fields1)
-          | VALen tgt lenty =>
-              match fref_name tgt with
-              | None => RPanic site_packetdef
-              | Some tn =>
-                  match field_get_type (vf_attr f1) with
-                  | None => RPanic site_gettype
-                  | Some t => ROk (upd_nth i (set_attr f1 (VALen (fmap_ref fmap tn) t)) fields1)
-                  end
-              end
-          | VAMatch key pairs =>
-              match fref_name key with
-              | None => RPanic site_packetdef
-              | Some kn => ROk (upd_nth i (set_attr f1 (VAMatch (fmap_ref fmap kn) pairs)) fields1)
-              end
-          | _ => ROk fields1
-          end
-      end
-  end.
-Proof. intros Hf. unfold loop2_step, step_la. rewrite Hf. reflexivity. Qed.
+Lemma option_map_Some_inv {A B} (g : A -> B) (o : option A) (x : A) :
+  option_map g o = option_map g (Some x) -> exists y, o = Some y /\ g y = g x.
+Proof. destruct o as [y|]; cbn; intros H; [inversion H; exists y; auto|discriminate]. Qed.
 
-(* the new attribute of the field an iteration works on *)
-Definition step_attr (pmap : list string) (fmap : list (string * nat)) (a : vattr) : vattr :=
-  match a with
-  | VAObj false pn _ inlp => VAObj false pn (if mem pn pmap then Some pn else None) inlp
-  | VALen tgt lenty =>
-      match fref_name tgt, field_get_type a with
-      | Some tn, Some t => VALen (fmap_ref fmap tn) t
-      | _, _ => a
-      end
-  | VAMatch key pairs =>
-      match fref_name key with
-      | Some kn => VAMatch (fmap_ref fmap kn) pairs
-      | None => a
-      end
-  | _ => a
-  end.
-
-(* one iteration: lengths, names and lines stay; the Attr of the i-th field becomes [step_attr], the others stay *)
-Lemma loop2_step_spec pmap fmap lenf i fields fields' :
-  loop2_step pmap fmap lenf i fields = ROk fields' ->
+(* one iteration: lengths, names and lines stay; the Attr of the i-th field becomes what [step_attr] says, the others stay *)
+Lemma loop2_step_spec pmap fmap lenf lines i fields fields' ds :
+  loop2_step pmap fmap lenf lines i fields = ROk (fields', ds) ->
   length fields' = length fields /\
-  forall j, option_map skel (nth_error fields' j) = option_map skel (nth_error fields j) /\
-            option_map vf_attr (nth_error fields' j) =
-            (if Nat.eqb i j then option_map (step_attr pmap fmap) else (fun x => x)) (option_map vf_attr (nth_error fields j)).
+  (forall j, option_map skel (nth_error fields' j) = option_map skel (nth_error fields j)) /\
+  (forall j, j <> i -> option_map vf_attr (nth_error fields' j) = option_map vf_attr (nth_error fields j)) /\
+  (forall f, nth_error fields i = Some f ->
+     exists a, step_attr pmap fmap (nth i lines 0) (vf_name f) (vf_attr f) = ROk (a, ds) /\
+               option_map vf_attr (nth_error fields' i) = Some a) /\
+  (nth_error fields i = None -> ds = []).
 Proof.
-  destruct (nth_error fields i) as [f|] eqn:Hf.
-  - rewrite (loop2_step_unfold _ _ _ _ _ _ Hf). destruct (step_la lenf i fields f) as [fields1|e] eqn:Hla; [|discriminate].
-    destruct (step_la_keeps _ _ _ _ _ Hla) as [Hlen1 Hk1].
-    destruct (nth_error fields1 i) as [f1|] eqn:Hf1.
-    2:{ intros H. inversion H. subst fields'. split; [exact Hlen1|]. intros j. destruct (Hk1 j) as [Hs Ha]. split; [exact Hs|].
-        rewrite Ha. destruct (Nat.eqb_spec i j) as [<-|_]; [|reflexivity].
-        destruct (Hk1 i) as [_ Hai]. rewrite Hf1, Hf in Hai. discriminate. }
-    assert (Hattr1 : vf_attr f1 = vf_attr f).
-    { destruct (Hk1 i) as [_ Hai]. rewrite Hf1, Hf in Hai. cbn in Hai. inversion Hai. reflexivity. }
-    assert (Hupd : forall g, skel g = skel f1 ->
-                     length (upd_nth i g fields1) = length fields /\
-                     forall j, option_map skel (nth_error (upd_nth i g fields1) j) = option_map skel (nth_error fields j) /\
-                               option_map vf_attr (nth_error (upd_nth i g fields1) j) =
-                               (if Nat.eqb i j then (fun _ => Some (vf_attr g)) else (fun x => x)) (option_map vf_attr (nth_error fields j))).
-    { intros g Hg. split; [rewrite length_upd_nth; exact Hlen1|]. intros j. destruct (Hk1 j) as [Hs Ha]. split.
-      - rewrite <- Hs. apply (skel_upd_nth _ _ f1); [exact Hf1|exact Hg].
-      - destruct (Nat.eqb_spec i j) as [<-|Hn].
-        + rewrite nth_error_upd_nth_eq by (eapply nth_error_Some_lt; exact Hf1). reflexivity.
-        + rewrite nth_error_upd_nth_neq by exact Hn. exact Ha. }
-    assert (Hsame : fields' = fields1 -> step_attr pmap fmap (vf_attr f) = vf_attr f ->
-                    length fields' = length fields /\
-                    forall j, option_map skel (nth_error fields' j) = option_map skel (nth_error fields j) /\
-                              option_map vf_attr (nth_error fields' j) =
-                              (if Nat.eqb i j then option_map (step_attr pmap fmap) else (fun x => x)) (option_map vf_attr (nth_error fields j))).
-    { intros -> Hst. split; [exact Hlen1|]. intros j. destruct (Hk1 j) as [Hs Ha]. split; [exact Hs|]. rewrite Ha.
-      destruct (Nat.eqb_spec i j) as [<-|_]; [|reflexivity]. rewrite Hf. cbn. rewrite Hst. reflexivity. }
-    assert (Hnew : forall g, skel g = skel f1 -> fields' = upd_nth i g fields1 -> vf_attr g = step_attr pmap fmap (vf_attr f) ->
-                    length fields' = length fields /\
-                    forall j, option_map skel (nth_error fields' j) = option_map skel (nth_error fields j) /\
-                              option_map vf_attr (nth_error fields' j) =
-                              (if Nat.eqb i j then option_map (step_attr pmap fmap) else (fun x => x)) (option_map vf_attr (nth_error fields j))).
-    { intros g Hg -> Hst. destruct (Hupd g Hg) as [Hl Hk]. split; [exact Hl|]. intros j. destruct (Hk j) as [Hs Ha]. split; [exact Hs|].
-      rewrite Ha. destruct (Nat.eqb_spec i j) as [<-|_]; [|reflexivity]. rewrite Hf. cbn. rewrite Hst. reflexivity. }
-    rewrite Hattr1. destruct (vf_attr f) as [ty|c| |tgt lenty|alg ty|iner pn ref inlp|key pairs|] eqn:Hfa;
-      try (intros H; injection H as <-; apply Hsame; reflexivity).
-    + destruct (fref_name tgt) as [tn|] eqn:Htn; [|discriminate]. cbn [field_get_type].
-      intros H. injection H as <-. eapply Hnew; [apply skel_set_attr|reflexivity|]. rewrite attr_set_attr. cbn [step_attr field_get_type]. rewrite Htn. reflexivity.
-    + destruct iner.
-      * intros H; injection H as <-; apply Hsame; reflexivity.
-      * intros H. injection H as <-. eapply Hnew; [apply skel_set_attr|reflexivity|]. rewrite attr_set_attr. reflexivity.
-    + destruct (fref_name key) as [kn|] eqn:Hkn; [|discriminate].
-      intros H. injection H as <-. eapply Hnew; [apply skel_set_attr|reflexivity|]. rewrite attr_set_attr. cbn [step_attr]. rewrite Hkn. reflexivity.
-  - unfold loop2_step. rewrite Hf. intros H. inversion H. subst. split; [reflexivity|]. intros j. split; [reflexivity|].
-    destruct (Nat.eqb_spec i j) as [<-|_]; [rewrite Hf|]; reflexivity.
+  unfold loop2_step. destruct (nth_error fields i) as [f|] eqn:Hf.
+  2:{ intros H. inversion H. subst. repeat split; auto. intros f Hx. discriminate. }
+  destruct (step_la lenf i fields f) as [fields1|e] eqn:Hla; [|discriminate].
+  destruct (step_la_keeps _ _ _ _ _ Hla) as [Hlen1 Hk1].
+  destruct (Hk1 i) as [Hsi Hai]. rewrite Hf in Hsi, Hai.
+  destruct (option_map_Some_inv _ _ _ Hsi) as [f1 [Hf1 Hskel1]]. rewrite Hf1 in Hai. cbn in Hai. inversion Hai as [Hattr1].
+  rewrite Hf1. assert (Hname1 : vf_name f1 = vf_name f) by (unfold skel in Hskel1; inversion Hskel1; reflexivity).
+  rewrite Hname1, Hattr1.
+  destruct (step_attr pmap fmap (nth i lines 0) (vf_name f) (vf_attr f)) as [[a ds0]|e] eqn:Hst; [|discriminate].
+  intros H. inversion H. subst. split; [rewrite length_upd_nth; exact Hlen1|]. split; [|split; [|split]].
+  - intros j. destruct (Hk1 j) as [Hs _]. rewrite <- Hs. apply (skel_upd_nth _ _ f1); [exact Hf1|apply skel_set_attr].
+  - intros j Hj. destruct (Hk1 j) as [_ Ha]. rewrite <- Ha. rewrite nth_error_upd_nth_neq by congruence. reflexivity.
+  - intros f0 Hf0. inversion Hf0. subst f0. exists a. split; [exact Hst|].
+    rewrite nth_error_upd_nth_eq by (eapply nth_error_Some_lt; exact Hf1). cbn. rewrite attr_set_attr. reflexivity.
+  - discriminate.
 Qed.
 
-Lemma loop2_cons pmap fmap lenf i r fields fields' :
-  loop2 pmap fmap lenf (i :: r) fields = ROk fields' ->
-  exists fields1, loop2_step pmap fmap lenf i fields = ROk fields1 /\ loop2 pmap fmap lenf r fields1 = ROk fields'.
+Lemma loop2_cons pmap fmap lenf lines i r fields fields' ds :
+  loop2 pmap fmap lenf lines (i :: r) fields = ROk (fields', ds) ->
+  exists fields1 ds1 ds2, loop2_step pmap fmap lenf lines i fields = ROk (fields1, ds1) /\
+                          loop2 pmap fmap lenf lines r fields1 = ROk (fields', ds2) /\ ds = ds1 ++ ds2.
 Proof.
-  cbn [loop2]. destruct (loop2_step _ _ _ _ _) as [fields1|e]; [|discriminate]. intros H. exists fields1. auto.
+  cbn [loop2]. destruct (loop2_step _ _ _ _ _ _) as [[fields1 ds1]|e] eqn:H1; [|discriminate].
+  destruct (loop2 _ _ _ _ r fields1) as [[fields2 ds2]|e] eqn:H2; [|discriminate]. intros H. inversion H. subst.
+  exists fields1, ds1, ds2. split; [reflexivity|]. split; [exact H2|reflexivity].
 Qed.
 
 (* the whole loop over pairwise different indices *)
-Lemma loop2_spec pmap fmap lenf idx : forall fields fields',
-  NoDup idx -> loop2 pmap fmap lenf idx fields = ROk fields' ->
+Lemma loop2_spec pmap fmap lenf lines idx : forall fields fields' ds,
+  NoDup idx -> loop2 pmap fmap lenf lines idx fields = ROk (fields', ds) ->
   length fields' = length fields /\
-  forall j, option_map skel (nth_error fields' j) = option_map skel (nth_error fields j) /\
-            option_map vf_attr (nth_error fields' j) =
-            (if existsb (Nat.eqb j) idx then option_map (step_attr pmap fmap) else (fun x => x)) (option_map vf_attr (nth_error fields j)).
+  (forall j, option_map skel (nth_error fields' j) = option_map skel (nth_error fields j)) /\
+  (forall j, ~ In j idx -> option_map vf_attr (nth_error fields' j) = option_map vf_attr (nth_error fields j)) /\
+  (forall j f, In j idx -> nth_error fields j = Some f ->
+     exists a dsj, step_attr pmap fmap (nth j lines 0) (vf_name f) (vf_attr f) = ROk (a, dsj) /\
+                   option_map vf_attr (nth_error fields' j) = Some a /\ incl dsj ds).
 Proof.
-  induction idx as [|i r IH]; intros fields fields' Hnd H.
-  - inversion H. subst. split; [reflexivity|]. intros j. split; reflexivity.
-  - destruct (loop2_cons _ _ _ _ _ _ _ H) as [fields1 [H1 H2]]. inversion Hnd as [|x xs Hnotin Hnd']. subst.
-    destruct (loop2_step_spec _ _ _ _ _ _ H1) as [Hl1 Hk1]. destruct (IH _ _ Hnd' H2) as [Hl2 Hk2].
-    split; [rewrite Hl2; exact Hl1|]. intros j. destruct (Hk1 j) as [Hs1 Ha1]. destruct (Hk2 j) as [Hs2 Ha2].
-    split; [rewrite Hs2; exact Hs1|]. rewrite Ha2, Ha1. cbn [existsb]. rewrite (Nat.eqb_sym j i).
-    destruct (Nat.eqb_spec i j) as [<-|Hn]; cbn [orb].
-    + assert (Hex : existsb (Nat.eqb i) r = false).
-      { destruct (existsb (Nat.eqb i) r) eqn:He; [|reflexivity]. apply existsb_exists in He. destruct He as [x [Hx He]].
-        apply Nat.eqb_eq in He. subst. contradiction. }
-      rewrite Hex. reflexivity.
-    + reflexivity.
+  induction idx as [|i r IH]; intros fields fields' ds Hnd H.
+  - cbn in H. inversion H. subst. repeat split; auto. intros j f [].
+  - destruct (loop2_cons _ _ _ _ _ _ _ _ _ H) as [fields1 [ds1 [ds2 [H1 [H2 ->]]]]]. inversion Hnd as [|x xs Hnotin Hnd']. subst.
+    destruct (loop2_step_spec _ _ _ _ _ _ _ _ H1) as [Hl1 [Hs1 [Ha1 [Hi1 _]]]].
+    destruct (IH _ _ _ Hnd' H2) as [Hl2 [Hs2 [Ha2 Hi2]]].
+    split; [rewrite Hl2; exact Hl1|]. split; [intros j; rewrite Hs2; apply Hs1|]. split.
+    + intros j Hj. rewrite Ha2 by (intros Hx; apply Hj; right; exact Hx). apply Ha1. intros ->. apply Hj. left. reflexivity.
+    + intros j f [<-|Hj] Hf.
+      * destruct (Hi1 f Hf) as [a [Hst Hat]]. exists a, ds1. split; [exact Hst|]. split; [|apply incl_appl; apply incl_refl].
+        rewrite Ha2 by exact Hnotin. exact Hat.
+      * assert (Hne : j <> i) by (intros ->; contradiction).
+        pose proof (Hs1 j) as Hsj. pose proof (Ha1 j Hne) as Haj. rewrite Hf in Hsj, Haj.
+        destruct (option_map_Some_inv _ _ _ Hsj) as [f1 [Hf1 Hsk]]. rewrite Hf1 in Haj. cbn in Haj. inversion Haj as [Hattr].
+        destruct (Hi2 j f1 Hj Hf1) as [a [dsj [Hst [Hat Hin]]]]. exists a, dsj.
+        assert (Hname : vf_name f1 = vf_name f) by (unfold skel in Hsk; inversion Hsk; reflexivity).
+        rewrite Hname in Hst. split; [congruence|]. split; [exact Hat|apply incl_appr; exact Hin].
 Qed.
 
-(* ================================================================== (c) C11: no panic on the fragment *)
-
-(* what MetaData entries can be, and where the nil ones come from *)
-Definition meta_kind (a : vattr) : bool :=
-  match a with VABasic _ | VAFixed _ | VADyn | VANil => true | _ => false end.
-
-Definition metas_inv (refs : list string) (ms : list vmeta) : Prop :=
-  forall m, In m ms -> meta_kind (vm_attr m) = true /\ (vm_attr m = VANil -> In (vm_name m) refs).
-
-Lemma meta_decl_attr_kind d store :
-  meta_kind (fst (meta_decl_attr d store)) = true /\ fst (meta_decl_attr d store) <> VANil.
-Proof. unfold meta_decl_attr. destruct (md_type d); cbn; split; (reflexivity || discriminate). Qed.
-
-Lemma add_meta_inv refs s m :
-  metas_inv refs (s_metas s) -> meta_kind (vm_attr m) = true -> (vm_attr m = VANil -> In (vm_name m) refs) ->
-  metas_inv refs (s_metas (add_meta s m)).
-Proof.
-  intros H Hk Hn. unfold add_meta. destruct (find_meta _ _); [exact H|]. cbn. intros x Hx. apply In_snoc in Hx.
-  destruct Hx as [Hx| ->]; [apply H; exact Hx|auto].
-Qed.
-
-Lemma visit_meta_item_inv refs s i :
-  metas_inv refs (s_metas s) -> (forall r, i = MIRef r -> In (p_text (rm_name r)) refs) ->
-  metas_inv refs (s_metas (visit_meta_item s i)).
-Proof.
-  intros H Href. destruct i as [d|d]; cbn [visit_meta_item].
-  - destruct (meta_decl_attr_kind d (s_store s)) as [Hk Hn]. destruct (meta_decl_attr d (s_store s)) as [a st]. cbn in Hk, Hn.
-    apply add_meta_inv; [exact H|exact Hk|]. cbn. intros Ha. contradiction.
-  - apply add_meta_inv; [exact H| |].
-    + cbn. destruct (find_meta _ _) as [m|] eqn:Hm; [|reflexivity]. apply H. eapply find_meta_In. exact Hm.
-    + cbn. intros _. apply Href. reflexivity.
-Qed.
-
-Lemma ref_names_In t r : In (MIRef r) (meta_items t) -> In (p_text (rm_name r)) (ref_names t).
-Proof.
-  unfold meta_items, ref_names. intros H. apply in_flat_map in H. destruct H as [d [Hd H]]. apply in_flat_map. exists d. split; [exact Hd|].
-  destruct d as [p|m|o]; try contradiction. apply in_flat_map. exists (MIRef r). split; [exact H|left; reflexivity].
-Qed.
-
-Lemma phase_metas_inv t : metas_inv (ref_names t) (s_metas (phase_metas t st0)).
-Proof.
-  rewrite phase_metas_items.
-  assert (H : forall l s, (forall i, In i l -> In i (meta_items t)) -> metas_inv (ref_names t) (s_metas s) ->
-                          metas_inv (ref_names t) (s_metas (fold_left visit_meta_item l s))).
-  { induction l as [|i l IH]; intros s Hsub Hs; cbn [fold_left]; [exact Hs|]. apply IH; [intros x Hx; apply Hsub; right; exact Hx|].
-    apply visit_meta_item_inv; [exact Hs|]. intros r ->. apply ref_names_In. apply Hsub. left. reflexivity. }
-  apply H; [auto|]. intros m [].
-Qed.
+(* ================================================================== (c) C11: the visitor never panics *)
 
 (* attributes as the field visit leaves them: field references are the fresh placeholder objects *)
 Definition fresh_attr (a : vattr) : Prop :=
@@ -1550,183 +1542,342 @@ Definition fresh_attr (a : vattr) : Prop :=
   | _ => True
   end.
 
-(* a length attribute names one of the given targets *)
-Definition len_from (targets : list string) (a : vattr) : Prop :=
-  forall tgt ty, a = VALen tgt ty -> exists tn, tgt = FRNew tn /\ In tn targets.
-
-Definition gettable (a : vattr) : Prop := field_get_type a <> None.
+(* Field.GetType has an answer, or the attribute loop refuses to ask *)
+Definition typed (a : vattr) : Prop := is_plain_object a = true \/ field_get_type a <> None.
 
 Lemma meta_kind_fresh a : meta_kind a = true -> fresh_attr a.
 Proof. destruct a; cbn; try discriminate; auto. Qed.
 
-Lemma meta_kind_len_from a T : meta_kind a = true -> len_from T a.
-Proof. destruct a; cbn; try discriminate; intros _ tgt ty H; discriminate. Qed.
+Lemma meta_kind_typed a : meta_kind a = true -> typed a.
+Proof. destruct a; cbn; try discriminate; intros _; unfold typed; cbn; auto; right; discriminate. Qed.
 
-Definition def_len_targets (f : field_def) : list string :=
-  match f with LengthField _ d => [p_text (lo_from (lf_length_of d))] | _ => [] end.
-
-Lemma decl_type_ok site refs metas ty name :
-  metas_inv refs metas -> ~ In name refs -> exists typ, decl_type site metas ty name = ROk typ.
-Proof.
-  intros Hm Hn. unfold decl_type. destruct (find_meta metas name) as [m|] eqn:Hf; [|eexists; reflexivity].
-  destruct (Hm m (find_meta_In _ _ _ Hf)) as [Hk Hnil].
-  assert (Hname : vm_name m = name).
-  { clear - Hf. induction metas as [|x ms IH]; cbn [find_meta] in Hf; [discriminate|].
-    destruct (String.eqb_spec name (vm_name x)); [inversion Hf; subst; auto|apply IH; exact Hf]. }
-  destruct (vm_attr m); try (eexists; reflexivity). exfalso. apply Hn. rewrite <- Hname. apply Hnil. reflexivity.
-Qed.
-
-Lemma np_mem_In n l : np_mem n l = true <-> In n l.
-Proof. apply mem_In. Qed.
-
-(* VisitFieldDefinition does not panic on the fragment, and what it returns *)
-Lemma visit_field_def_ok refs metas : metas_inv refs metas -> forall f store,
-  def_ok refs f = true ->
-  exists v st ds, visit_field_def metas f store = ROk (v, st, ds) /\
-                  vf_name v = np_field_name f /\ fresh_attr (vf_attr v) /\ len_from (def_len_targets f) (vf_attr v) /\
-                  (is_object_field f = false -> gettable (vf_attr v)) /\
-                  (is_fixed_meta_field f = true -> exists c, vf_attr v = VAFixed c).
+(* VisitFieldDefinition returns a field, for every field definition *)
+Lemma visit_field_def_ok metas : metas_ok metas -> forall f store,
+  exists v st ds, visit_field_def metas f store = ROk (v, st, ds) /\ fresh_attr (vf_attr v) /\ typed (vf_attr v).
 Proof.
   intros Hm f. induction f as [sp rep sp2 n o fields c comma IH|sp rep d|sp rep ft fn doc comma|sp d|sp d|sp d comma]
-    using field_def_induction; intros store Hok.
-  - (* inline object *)
-    cbn [def_ok] in Hok. cbn [visit_field_def].
-    assert (IH' : Forall (fun f => forall store, def_ok refs f = true -> exists v st ds, visit_field_def metas f store = ROk (v, st, ds)) fields).
-    { eapply Forall_impl; [|exact IH]. intros a Ha st0 Hd. destruct (Ha st0 Hd) as [v [st [ds [Hv _]]]]. eauto. }
-    assert (Hgo : forall fs store, Forall (fun f => forall store, def_ok refs f = true -> exists v st ds, visit_field_def metas f store = ROk (v, st, ds)) fs ->
-                   forallb (def_ok refs) fs = true ->
+    using field_def_induction; intros store.
+  - cbn [visit_field_def].
+    assert (IH' : Forall (fun f => forall store, exists v st ds, visit_field_def metas f store = ROk (v, st, ds)) fields).
+    { eapply Forall_impl; [|exact IH]. intros a Ha st0. destruct (Ha st0) as [v [st [ds [Hv _]]]]. eauto. }
+    assert (Hgo : forall fs store names, Forall (fun f => forall store, exists v st ds, visit_field_def metas f store = ROk (v, st, ds)) fs ->
                    exists subs st ds,
-                     (fix go (l : list field_def) (store : list fcell) {struct l} : res (list vfield * list fcell * list diag) :=
+                     (fix go (l : list field_def) (store : list fcell) (names : list string) {struct l}
+                        : res (list vfield * list fcell * list diag) :=
                         match l with
                         | [] => ROk ([], store, [])
                         | x :: r =>
                             match visit_field_def metas x store with
                             | RPanic e => RPanic e
                             | ROk (v, st1, ds1) =>
-                                match go r st1 with
+                                let dup := if mem (vf_name v) names then [dup_field_diag (start_line (fd_span x)) (vf_name v) (p_text n)] else [] in
+                                match go r st1 (vf_name v :: names) with
                                 | RPanic e => RPanic e
-                                | ROk (vs, st2, ds2) => ROk (v :: vs, st2, ds1 ++ ds2)
+                                | ROk (vs, st2, ds2) => ROk (v :: vs, st2, ds1 ++ dup ++ ds2)
                                 end
                             end
-                        end) fs store = ROk (subs, st, ds)).
-    { induction fs as [|x fs IHfs]; intros st0 Hall Hfb.
+                        end) fs store names = ROk (subs, st, ds)).
+    { induction fs as [|x fs IHfs]; intros st0 names Hall.
       - eexists; eexists; eexists; reflexivity.
-      - inversion Hall as [|y ys Hx Hrest]. subst. cbn [forallb] in Hfb. apply andb_true_iff in Hfb. destruct Hfb as [Hx1 Hx2].
-        destruct (Hx st0 Hx1) as [v [st1 [ds1 Hv]]]. rewrite Hv.
-        destruct (IHfs st1 Hrest Hx2) as [subs [st2 [ds2 Hsub]]]. rewrite Hsub. eexists; eexists; eexists; reflexivity. }
-    destruct (Hgo fields store IH' Hok) as [subs [st [ds Hsub]]]. rewrite Hsub.
-    eexists; eexists; eexists. split; [reflexivity|]. cbn. repeat split; auto; try discriminate.
-  - (* MetaField *)
-    cbn [visit_field_def]. unfold meta_decl_field.
+      - inversion Hall as [|y ys Hx Hrest]. subst. destruct (Hx st0) as [v [st1 [ds1 Hv]]]. rewrite Hv.
+        destruct (IHfs st1 (vf_name v :: names) Hrest) as [subs [st2 [ds2 Hsub]]]. rewrite Hsub. eexists; eexists; eexists; reflexivity. }
+    destruct (Hgo fields store [] IH') as [subs [st [ds Hsub]]]. cbv zeta in Hsub |- *. rewrite Hsub.
+    eexists; eexists; eexists. split; [reflexivity|]. cbn. split; [exact I|]. right. cbn. discriminate.
+  - cbn [visit_field_def]. unfold meta_decl_field.
     destruct (meta_decl_attr_kind d store) as [Hk Hn]. destruct (meta_decl_attr d store) as [a st] eqn:Ha. cbn in Hk, Hn.
-    eexists; eexists; eexists. split; [reflexivity|]. cbn. split; [reflexivity|]. split; [apply meta_kind_fresh; exact Hk|].
-    split; [apply meta_kind_len_from; exact Hk|]. split.
-    + intros _. unfold gettable. destruct a; cbn in *; try discriminate. contradiction.
-    + intros Hfx. unfold meta_decl_attr in Ha. destruct (md_type d); try discriminate. inversion Ha. eexists. reflexivity.
-  - (* ObjectField *)
-    cbn [visit_field_def]. eexists; eexists; eexists. split; [reflexivity|]. cbn.
-    split; [destruct fn; reflexivity|].
+    eexists; eexists; eexists. split; [reflexivity|]. cbn. split; [apply meta_kind_fresh; exact Hk|apply meta_kind_typed; exact Hk].
+  - cbn [visit_field_def]. eexists; eexists; eexists. split; [reflexivity|]. cbn.
     destruct (find_meta metas (p_text ft)) as [m|] eqn:Hf.
-    + destruct (Hm m (find_meta_In _ _ _ Hf)) as [Hk _]. split; [apply meta_kind_fresh; exact Hk|].
-      split; [apply meta_kind_len_from; exact Hk|]. split; discriminate.
-    + split; [exact I|]. split; [intros tgt ty H; discriminate|]. split; discriminate.
-  - (* LengthField *)
-    cbn [def_ok] in Hok. apply negb_true_iff in Hok. cbn [visit_field_def]. unfold visit_length_field.
-    assert (Hn : ~ In (p_text (lf_name d)) refs). { intros Hin. apply np_mem_In in Hin. rewrite Hin in Hok. discriminate. }
-    destruct (decl_type_ok site_lenfield refs metas (lf_type d) _ Hm Hn) as [typ ->].
-    eexists; eexists; eexists. split; [reflexivity|]. cbn. split; [reflexivity|]. split; [eexists; reflexivity|]. split.
-    + intros tgt ty H. inversion H. eexists. split; [reflexivity|left; reflexivity].
-    + split; [intros _; unfold gettable; cbn; discriminate|discriminate].
-  - (* CheckSumField *)
-    cbn [def_ok] in Hok. apply negb_true_iff in Hok. cbn [visit_field_def]. unfold visit_checksum_field.
-    assert (Hn : ~ In (p_text (ck_name d)) refs). { intros Hin. apply np_mem_In in Hin. rewrite Hin in Hok. discriminate. }
-    destruct (decl_type_ok site_checksum refs metas (ck_type d) _ Hm Hn) as [typ ->].
-    eexists; eexists; eexists. split; [reflexivity|]. cbn. split; [reflexivity|]. split; [exact I|]. split.
-    + intros tgt ty H. discriminate.
-    + split; [intros _; unfold gettable; cbn; discriminate|discriminate].
-  - (* MatchField *)
-    cbn [visit_field_def]. unfold visit_match_field. eexists; eexists; eexists. split; [reflexivity|]. cbn.
-    split; [reflexivity|]. split; [eexists; reflexivity|]. split; [intros tgt ty H; discriminate|].
-    split; [intros _; unfold gettable; cbn; discriminate|discriminate].
+    + pose proof (Hm m (find_meta_In _ _ _ Hf)) as Hk. split; [apply meta_kind_fresh; exact Hk|apply meta_kind_typed; exact Hk].
+    + split; [exact I|]. left. reflexivity.
+  - cbn [visit_field_def]. eexists; eexists; eexists. split; [reflexivity|]. cbn. split; [eexists; reflexivity|]. right. cbn. discriminate.
+  - cbn [visit_field_def]. eexists; eexists; eexists. split; [reflexivity|]. cbn. split; [exact I|]. right. cbn. discriminate.
+  - cbn [visit_field_def]. unfold visit_match_field. eexists; eexists; eexists. split; [reflexivity|]. cbn.
+    split; [eexists; reflexivity|]. right. cbn. discriminate.
 Qed.
 
-Definition attr_targets (attrs : list field_attribute) : list string :=
-  flat_map (fun a => match a with FALengthOf _ l => [p_text (lo_from l)] | _ => [] end) attrs.
-
-Lemma len_from_incl T T' a : len_from T a -> incl T T' -> len_from T' a.
-Proof. intros H Hi tgt ty Ha. destruct (H tgt ty Ha) as [tn [Ht Hin]]. exists tn. split; [exact Ht|apply Hi; exact Hin]. Qed.
-
-Lemma name_set_attr f a : vf_name (set_attr f a) = vf_name f. Proof. destruct f; reflexivity. Qed.
-Lemma name_set_tag f t : vf_name (set_tag f t) = vf_name f. Proof. destruct f; reflexivity. Qed.
-Lemma attr_set_tag f t : vf_attr (set_tag f t) = vf_attr f. Proof. destruct f; reflexivity. Qed.
-
-(* the attribute loop of VisitFieldDefinitionWithAttribute does not panic when: padding only meets a fixed string that
-   no @lengthOf/@calculatedFrom replaces, and @lengthOf/@calculatedFrom meet a field whose type can be taken *)
-Lemma apply_attrs_ok attrs : forall f store T,
-  (existsb is_padding attrs = true -> (exists c, vf_attr f = VAFixed c) /\ existsb is_len_or_calc attrs = false) ->
-  (existsb is_len_or_calc attrs = true -> gettable (vf_attr f)) ->
-  fresh_attr (vf_attr f) -> len_from T (vf_attr f) ->
-  exists f' st, apply_attrs attrs f store = ROk (f', st) /\ vf_name f' = vf_name f /\ fresh_attr (vf_attr f') /\
-                len_from (T ++ attr_targets attrs) (vf_attr f').
+(* the attribute loop returns, whatever is written before the field *)
+Lemma apply_attr_ok line a f store :
+  fresh_attr (vf_attr f) -> typed (vf_attr f) ->
+  exists f' st ds, apply_attr line a f store = ROk (f', st, ds) /\ fresh_attr (vf_attr f') /\ typed (vf_attr f').
 Proof.
-  induction attrs as [|a r IH]; intros f store T Hpad Hlc Hfresh Hlen.
-  - exists f, store. cbn. rewrite app_nil_r. auto.
-  - destruct a as [sp l|sp c|sp tg|sp p]; cbn [apply_attrs apply_attr].
-    + (* @lengthOf *)
-      assert (Hnopad : existsb is_padding r = false).
-      { destruct (existsb is_padding r) eqn:Hp; [|reflexivity]. destruct (Hpad Hp) as [_ Hx]. discriminate. }
-      pose proof (Hlc eq_refl) as Hg. unfold gettable in Hg. destruct (field_get_type (vf_attr f)) as [t|]; [|contradiction].
-      destruct (IH (set_attr f (VALen (FRNew (p_text (lo_from l))) t)) store (T ++ [p_text (lo_from l)])) as [f' [st [Hr [Hn [Hf Hl]]]]].
-      * rewrite Hnopad. discriminate.
-      * intros _. rewrite attr_set_attr. unfold gettable. cbn. discriminate.
-      * rewrite attr_set_attr. eexists. reflexivity.
-      * rewrite attr_set_attr. intros tgt ty H. inversion H. eexists. split; [reflexivity|]. apply in_or_app. right. left. reflexivity.
-      * exists f', st. split; [exact Hr|]. split; [rewrite Hn; apply name_set_attr|]. split; [exact Hf|].
-        cbn [attr_targets flat_map]. cbn [app]. rewrite <- app_assoc in Hl. exact Hl.
-    + (* @calculatedFrom *)
-      assert (Hnopad : existsb is_padding r = false).
-      { destruct (existsb is_padding r) eqn:Hp; [|reflexivity]. destruct (Hpad Hp) as [_ Hx]. discriminate. }
-      pose proof (Hlc eq_refl) as Hg. unfold gettable in Hg. destruct (field_get_type (vf_attr f)) as [t|]; [|contradiction].
-      destruct (IH (set_attr f (VACheck (p_text (cf_from c)) t)) store T) as [f' [st [Hr [Hn [Hf Hl]]]]].
-      * rewrite Hnopad. discriminate.
-      * intros _. rewrite attr_set_attr. unfold gettable. cbn. discriminate.
-      * rewrite attr_set_attr. exact I.
-      * rewrite attr_set_attr. intros tgt ty H. discriminate.
-      * exists f', st. split; [exact Hr|]. split; [rewrite Hn; apply name_set_attr|]. split; [exact Hf|exact Hl].
-    + (* @tag *)
-      destruct (IH (set_tag f (atoi (p_text (ta_digits tg)))) store T) as [f' [st [Hr [Hn [Hf Hl]]]]].
-      * rewrite attr_set_tag. exact Hpad.
-      * rewrite attr_set_tag. exact Hlc.
-      * rewrite attr_set_tag. exact Hfresh.
-      * rewrite attr_set_tag. exact Hlen.
-      * exists f', st. split; [exact Hr|]. split; [rewrite Hn; apply name_set_tag|]. split; [exact Hf|exact Hl].
-    + (* padding *)
-      destruct (Hpad eq_refl) as [[cell Hcell] Hnolc]. cbn [existsb is_len_or_calc orb] in Hnolc. rewrite Hcell.
-      match goal with |- context [apply_attrs r f ?st'] => destruct (IH f st' T) as [f' [st [Hr [Hn [Hf Hl]]]]] end.
-      * intros _. split; [eexists; exact Hcell|exact Hnolc].
-      * rewrite Hnolc. discriminate.
-      * exact Hfresh.
-      * exact Hlen.
-      * exists f', st. split; [exact Hr|]. split; [exact Hn|]. split; [exact Hf|exact Hl].
+  intros Hfr Hty. destruct a as [sp l|sp c|sp tg|sp p]; cbn [apply_attr].
+  - destruct (is_plain_object (vf_attr f)) eqn:Hp; [eexists; eexists; eexists; split; [reflexivity|auto]|].
+    destruct Hty as [Hx|Hg]; [rewrite Hx in Hp; discriminate|]. destruct (field_get_type (vf_attr f)); [|contradiction].
+    eexists; eexists; eexists. split; [reflexivity|]. rewrite attr_set_attr. split; [eexists; reflexivity|right; cbn; discriminate].
+  - destruct (is_plain_object (vf_attr f)) eqn:Hp; [eexists; eexists; eexists; split; [reflexivity|auto]|].
+    destruct Hty as [Hx|Hg]; [rewrite Hx in Hp; discriminate|]. destruct (field_get_type (vf_attr f)); [|contradiction].
+    eexists; eexists; eexists. split; [reflexivity|]. rewrite attr_set_attr. split; [exact I|right; cbn; discriminate].
+  - eexists; eexists; eexists. split; [reflexivity|]. rewrite attr_set_tag. auto.
+  - destruct (vf_attr f) eqn:Hf; eexists; eexists; eexists; (split; [reflexivity|]); rewrite Hf; auto.
 Qed.
 
-(* VisitFieldDefinitionWithAttribute on the fragment *)
-Lemma visit_field_with_attr_ok refs metas fw store :
-  metas_inv refs metas -> attrs_ok fw = true -> def_ok refs (fw_def fw) = true ->
-  exists v st ds, visit_field_with_attr metas fw store = ROk (v, st, ds) /\
-                  vf_name v = np_field_name (fw_def fw) /\ fresh_attr (vf_attr v) /\ len_from (fw_len_targets fw) (vf_attr v).
+Lemma apply_attrs_ok line attrs : forall f store,
+  fresh_attr (vf_attr f) -> typed (vf_attr f) ->
+  exists f' st ds, apply_attrs line attrs f store = ROk (f', st, ds) /\ fresh_attr (vf_attr f').
 Proof.
-  intros Hm Ha Hd. unfold visit_field_with_attr.
-  destruct (visit_field_def_ok refs metas Hm (fw_def fw) store Hd) as [f [st1 [ds [Hf [Hn [Hfr [Hl [Hget Hfix]]]]]]]]. rewrite Hf.
-  unfold attrs_ok in Ha. apply andb_true_iff in Ha. destruct Ha as [Ha1 Ha2].
-  destruct (apply_attrs_ok (fw_attrs fw) f st1 (def_len_targets (fw_def fw))) as [f' [st [Hr [Hn' [Hfr' Hl']]]]].
-  - intros Hp. rewrite Hp in Ha1. apply andb_true_iff in Ha1. destruct Ha1 as [Hfx Hnolc]. apply negb_true_iff in Hnolc.
-    split; [apply Hfix; exact Hfx|exact Hnolc].
-  - intros Hlc. rewrite Hlc in Ha2. apply negb_true_iff in Ha2. apply Hget. exact Ha2.
-  - exact Hfr.
-  - exact Hl.
-  - rewrite Hr. exists f', st, ds. split; [reflexivity|]. split; [rewrite Hn'; exact Hn|]. split; [exact Hfr'|].
-    unfold fw_len_targets. destruct (fw_def fw); exact Hl'.
+  induction attrs as [|a r IH]; intros f store Hfr Hty.
+  - eexists; eexists; eexists. split; [reflexivity|exact Hfr].
+  - destruct (apply_attr_ok line a f store Hfr Hty) as [f1 [st1 [ds1 [Ha [Hfr1 Hty1]]]]].
+    destruct (IH f1 st1 Hfr1 Hty1) as [f2 [st2 [ds2 [Hr Hfr2]]]]. cbn [apply_attrs]. rewrite Ha, Hr.
+    eexists; eexists; eexists. split; [reflexivity|exact Hfr2].
+Qed.
+
+Lemma visit_field_with_attr_ok metas fw store :
+  metas_ok metas -> exists v st ds, visit_field_with_attr metas fw store = ROk (v, st, ds) /\ fresh_attr (vf_attr v).
+Proof.
+  intros Hm. unfold visit_field_with_attr. destruct (visit_field_def_ok metas Hm (fw_def fw) store) as [f [st1 [ds [Hf [Hfr Hty]]]]].
+  rewrite Hf. destruct (apply_attrs_ok (start_line (fw_span fw)) (fw_attrs fw) f st1 Hfr Hty) as [f' [st [ds2 [Hr Hfr']]]]. rewrite Hr.
+  eexists; eexists; eexists. split; [reflexivity|exact Hfr'].
+Qed.
+
+Lemma nth_error_snoc_old {A} (l : list A) x i y : nth_error l i = Some y -> nth_error (snoc l x) i = Some y.
+Proof. intros H. unfold snoc. rewrite nth_error_app1; [exact H|]. eapply nth_error_Some_lt. exact H. Qed.
+
+Lemma nth_error_snoc_new {A} (l : list A) x : nth_error (snoc l x) (length l) = Some x.
+Proof. unfold snoc. rewrite nth_error_app2 by lia. rewrite Nat.sub_diag. reflexivity. Qed.
+
+(* what the first loop keeps true *)
+Record l1inv (acc : pacc) : Prop := mkL1 {
+  i_fresh : forall f, In f (pa_fields acc) -> fresh_attr (vf_attr f);
+  i_lenf : forall li, pa_lenf acc = Some li -> exists lf, nth_error (pa_fields acc) li = Some lf /\ is_len_attr (vf_attr lf) = true;
+  i_lines : length (pa_lines acc) = length (pa_fields acc)
+}.
+
+Lemma snoc_length {A} (l : list A) x : length (snoc l x) = S (length l).
+Proof. unfold snoc. rewrite app_length. cbn. lia. Qed.
+
+Lemma loop1_add_inv pname is_root line f acc store ds :
+  l1inv acc -> fresh_attr (vf_attr f) -> l1inv (loop1_add pname is_root line f acc store ds).
+Proof.
+  intros [Hfr Hlf Hln] Hfresh.
+  assert (Hkept : forall lenf mfs dg,
+             (forall li, lenf = Some li -> pa_lenf acc = Some li \/ (li = length (pa_fields acc) /\ is_len_attr (vf_attr f) = true)) ->
+             l1inv (mkPacc (snoc (pa_fields acc) f) (snoc (pa_lines acc) line) (aset (pa_fmap acc) (vf_name f) (length (pa_fields acc)))
+                           lenf mfs store dg)).
+  { intros lenf mfs dg Hlenf. constructor; cbn.
+    - intros x Hx. apply In_snoc in Hx. destruct Hx as [Hx| ->]; [apply Hfr; exact Hx|exact Hfresh].
+    - intros li Hli. destruct (Hlenf li Hli) as [Hold|[-> Hislen]].
+      + destruct (Hlf li Hold) as [lf [H1 H2]]. exists lf. split; [apply nth_error_snoc_old; exact H1|exact H2].
+      + exists f. split; [apply nth_error_snoc_new|exact Hislen].
+    - rewrite !snoc_length, Hln. reflexivity. }
+  unfold loop1_add. destruct (is_len_attr (vf_attr f)) eqn:Hislen.
+  - destruct (negb is_root); [constructor; cbn; assumption|]. destruct (pa_lenf acc) as [l0|] eqn:Hl0.
+    + constructor; cbn; [assumption|exact Hlf|assumption].
+    + apply Hkept. intros li Hli. inversion Hli. right. auto.
+  - apply Hkept. intros li Hli. left. exact Hli.
+Qed.
+
+Lemma loop1_ok metas pname is_root : metas_ok metas -> forall l acc,
+  l1inv acc -> exists acc', loop1 metas pname is_root l acc = ROk acc' /\ l1inv acc'.
+Proof.
+  intros Hm. induction l as [|fw l IH]; intros acc Hinv.
+  - exists acc. auto.
+  - destruct (visit_field_with_attr_ok metas fw (pa_store acc) Hm) as [f [st [ds [Hv Hfr]]]]. cbn [loop1]. rewrite Hv.
+    apply IH. apply loop1_add_inv; assumption.
+Qed.
+
+(* the second loop: the length field keeps a target object, the fields still to come are as the first loop left them *)
+Definition len_ok (lenf : option nat) (fields : list vfield) : Prop :=
+  forall li lf, lenf = Some li -> nth_error fields li = Some lf ->
+  exists tgt ty tn, vf_attr lf = VALen tgt ty /\ fref_name tgt = Some tn.
+
+Definition fresh_at (idx : list nat) (fields : list vfield) : Prop :=
+  forall j f, In j idx -> nth_error fields j = Some f -> fresh_attr (vf_attr f).
+
+Lemma step_attr_ok pmap fmap line fname a :
+  fresh_attr a -> exists a' ds, step_attr pmap fmap line fname a = ROk (a', ds) /\
+                                (forall tgt ty tn, a = VALen tgt ty -> fref_name tgt = Some tn ->
+                                                   exists tgt' ty', a' = VALen tgt' ty' /\ fref_name tgt' = Some tn).
+Proof.
+  intros Hfr. destruct a as [| | |tgt ty| |iner pn ref inlp|key pairs|]; cbn [step_attr];
+    try (eexists; eexists; split; [reflexivity|]; intros; discriminate).
+  - destruct Hfr as [tn ->]. cbn [fref_name field_get_type]. destruct (alookup fmap tn) as [j|]; eexists; eexists; (split; [reflexivity|]);
+      intros tgt0 ty0 tn0 H Hn; inversion H; subst; cbn in Hn; inversion Hn; subst; eexists; eexists; split; reflexivity.
+  - destruct iner; eexists; eexists; (split; [reflexivity|]); intros; discriminate.
+  - destruct Hfr as [kn ->]. cbn [fref_name]. destruct (alookup fmap kn); eexists; eexists; (split; [reflexivity|]); intros; discriminate.
+Qed.
+
+Lemma loop2_step_ok pmap fmap lenf lines i fields :
+  len_ok lenf fields -> fresh_at [i] fields -> exists fields' ds, loop2_step pmap fmap lenf lines i fields = ROk (fields', ds).
+Proof.
+  intros Hlen Hfresh. unfold loop2_step. destruct (nth_error fields i) as [f|] eqn:Hf; [|eexists; eexists; reflexivity].
+  assert (Hla : exists fields1, step_la lenf i fields f = ROk fields1).
+  { unfold step_la. destruct lenf as [li|]; [|eexists; reflexivity]. destruct (nth_error fields li) as [lf|] eqn:Hlf; [|eexists; reflexivity].
+    destruct (Hlen li lf eq_refl Hlf) as [tgt [ty [tn [-> ->]]]]. destruct (String.eqb _ _); [|eexists; reflexivity].
+    destruct (nth_error (upd_nth li _ fields) i); eexists; reflexivity. }
+  destruct Hla as [fields1 Hla]. rewrite Hla. destruct (step_la_keeps _ _ _ _ _ Hla) as [_ Hk].
+  destruct (nth_error fields1 i) as [f1|] eqn:Hf1; [|eexists; eexists; reflexivity].
+  assert (Hattr1 : vf_attr f1 = vf_attr f).
+  { destruct (Hk i) as [_ Hai]. rewrite Hf1, Hf in Hai. cbn in Hai. inversion Hai. reflexivity. }
+  pose proof (Hfresh i f (or_introl eq_refl) Hf) as Hfr. rewrite Hattr1.
+  destruct (step_attr_ok pmap fmap (nth i lines 0) (vf_name f1) (vf_attr f) Hfr) as [a [ds [-> _]]]. eexists; eexists; reflexivity.
+Qed.
+
+Lemma loop2_ok pmap fmap lenf lines idx : forall fields,
+  NoDup idx -> len_ok lenf fields -> fresh_at idx fields -> exists fields' ds, loop2 pmap fmap lenf lines idx fields = ROk (fields', ds).
+Proof.
+  induction idx as [|i r IH]; intros fields Hnd Hlen Hfresh; [eexists; eexists; reflexivity|].
+  inversion Hnd as [|x xs Hnotin Hnd']. subst.
+  destruct (loop2_step_ok pmap fmap lenf lines i fields Hlen) as [fields1 [ds1 H1]].
+  { intros j f [<-|[]] Hj. eapply Hfresh; [left; reflexivity|exact Hj]. }
+  cbn [loop2]. rewrite H1. destruct (loop2_step_spec _ _ _ _ _ _ _ _ H1) as [_ [Hs1 [Ha1 [Hi1 _]]]].
+  destruct (IH fields1 Hnd') as [fields2 [ds2 H2]].
+  - (* the length field keeps a target *)
+    intros li lf Hli Hlf. destruct (Nat.eq_dec li i) as [->|Hne].
+    + destruct (nth_error fields i) as [f0|] eqn:Hf0.
+      * destruct (Hi1 f0 eq_refl) as [a [Hst Hat]]. rewrite Hlf in Hat. cbn in Hat. inversion Hat as [Ha].
+        destruct (Hlen i f0 Hli Hf0) as [tgt [ty [tn [Hattr Htn]]]].
+        assert (Hfr : fresh_attr (vf_attr f0)) by (eapply Hfresh; [left; reflexivity|exact Hf0]).
+        destruct (step_attr_ok pmap fmap (nth i lines 0) (vf_name f0) (vf_attr f0) Hfr) as [a' [ds' [Hst' Hkeep]]].
+        rewrite Hst in Hst'. inversion Hst'. subst a' ds'. destruct (Hkeep _ _ _ Hattr Htn) as [tgt' [ty' [-> Htn']]].
+        exists tgt', ty', tn. auto.
+      * pose proof (Hs1 i) as Hsi. rewrite Hlf, Hf0 in Hsi. discriminate.
+    + pose proof (Ha1 li Hne) as Hal. rewrite Hlf in Hal. cbn in Hal.
+      destruct (nth_error fields li) as [lf0|] eqn:Hlf0; [|discriminate]. cbn in Hal. inversion Hal as [Ha].
+      rewrite Ha. exact (Hlen li lf0 Hli Hlf0).
+  - (* the fields still to come are untouched *)
+    intros j f Hj Hfj. assert (Hne : j <> i) by (intros ->; contradiction).
+    pose proof (Ha1 j Hne) as Haj. rewrite Hfj in Haj. cbn in Haj.
+    destruct (nth_error fields j) as [f0|] eqn:Hf0; [|discriminate]. cbn in Haj. inversion Haj as [Ha].
+    rewrite Ha. eapply Hfresh; [right; exact Hj|exact Hf0].
+  - rewrite H2. eexists; eexists; reflexivity.
+Qed.
+
+(* VisitPacketDefinition returns a packet *)
+Lemma visit_packet_def_ok metas pmap d store :
+  metas_ok metas -> exists p st ds, visit_packet_def metas pmap d store = ROk (p, st, ds).
+Proof.
+  intros Hm. unfold visit_packet_def.
+  destruct (loop1_ok metas (p_text (pd_name d)) (is_some (pd_root d)) Hm (pd_fields d) (mkPacc [] [] [] None [] store [])) as [acc [Hl1 Hinv]].
+  { constructor; cbn; [intros f []|intros li H; discriminate|reflexivity]. }
+  rewrite Hl1. destruct Hinv as [Hfr Hlf _].
+  destruct (loop2_ok pmap (pa_fmap acc) (pa_lenf acc) (pa_lines acc) (seq 0 (length (pa_fields acc))) (pa_fields acc)) as [fields [ds2 H2]].
+  - apply seq_NoDup.
+  - intros li lf Hli Hnth. destruct (Hlf li Hli) as [lf' [H1 Hislen]]. rewrite Hnth in H1. inversion H1. subst lf'.
+    pose proof (Hfr lf (nth_error_In _ _ Hnth)) as Hfresh. destruct (vf_attr lf) as [| | |tgt ty| | | |]; try discriminate.
+    destruct Hfresh as [tn ->]. exists (FRNew tn), ty, tn. auto.
+  - intros j f _ Hj. apply Hfr. eapply nth_error_In. exact Hj.
+  - rewrite H2. eexists; eexists; eexists. reflexivity.
+Qed.
+
+Lemma visit_packets_ok l : forall s, metas_ok (s_metas s) -> exists s', visit_packets l s = ROk s'.
+Proof.
+  induction l as [|d l IH]; intros s Hm; [eexists; reflexivity|]. cbn [visit_packets].
+  destruct (visit_packet_def_ok (s_metas s) (Visitor.packet_names (s_packets s)) d (s_store s) Hm) as [p [st [ds ->]]].
+  apply IH. rewrite add_packet_metas. exact Hm.
+Qed.
+
+(* ---- C11 on the model: the visitor returns a result for every parse tree *)
+Theorem visit_never_panics : forall t, exists r, visit t = VOk r.
+Proof.
+  intros t. unfold visit.
+  destruct (visit_packets_ok (packets_of t) (phase_options t (phase_metas t st0))) as [s Hs].
+  - rewrite phase_options_metas. apply phase_metas_ok.
+  - rewrite Hs. eexists. reflexivity.
+Qed.
+
+Corollary visit_no_panic t site : visit t <> VPanic site.
+Proof. destruct (visit_never_panics t) as [r Hr]. rewrite Hr. discriminate. Qed.
+
+(* the structural fragment of Model/NoPanic.v (what the unrepaired visitor needed) is no longer a condition *)
+Corollary nopanic_frag_sound t : nopanic_frag t = true -> exists r, visit t = VOk r.
+Proof. intros _. apply visit_never_panics. Qed.
+
+(* ================================================================== C12, the repaired classes *)
+
+(* ---- what the visit of a top-level field returns *)
+
+Lemma apply_attr_name line a f store f' st ds : apply_attr line a f store = ROk (f', st, ds) -> vf_name f' = vf_name f.
+Proof.
+  destruct a as [sp x|sp x|sp x|sp x]; cbn [apply_attr].
+  - destruct (is_plain_object _); [intros H; inversion H; reflexivity|]. destruct (field_get_type _); [|discriminate].
+    intros H. inversion H. apply name_set_attr.
+  - destruct (is_plain_object _); [intros H; inversion H; reflexivity|]. destruct (field_get_type _); [|discriminate].
+    intros H. inversion H. apply name_set_attr.
+  - intros H. inversion H. apply name_set_tag.
+  - destruct (vf_attr f); intros H; inversion H; reflexivity.
+Qed.
+
+Lemma apply_attrs_name line attrs : forall f store f' st ds, apply_attrs line attrs f store = ROk (f', st, ds) -> vf_name f' = vf_name f.
+Proof.
+  induction attrs as [|a r IH]; intros f store f' st ds H.
+  - cbn in H. inversion H. reflexivity.
+  - destruct (apply_attrs_cons _ _ _ _ _ _ _ _ H) as [f1 [st1 [ds1 [ds2 [Ha [Hr _]]]]]].
+    rewrite (IH _ _ _ _ _ Hr). eapply apply_attr_name. exact Ha.
+Qed.
+
+Lemma visit_field_def_name metas f store v st ds : visit_field_def metas f store = ROk (v, st, ds) -> vf_name v = np_field_name f.
+Proof.
+  destruct f as [sp rep decl comma|sp rep d|sp rep ft fn doc comma|sp d|sp d|sp d comma]; cbn [visit_field_def np_field_name].
+  - destruct decl as [sp2 n o fields c]. cbv zeta.
+    match goal with |- match ?X with _ => _ end = _ -> _ => destruct X as [[[subs st1] ds1]|e] end; [|discriminate].
+    intros H. inversion H. reflexivity.
+  - unfold meta_decl_field. destruct (meta_decl_attr d store) as [a st']. intros H. inversion H. reflexivity.
+  - intros H. inversion H. destruct fn; reflexivity.
+  - intros H. inversion H. reflexivity.
+  - intros H. inversion H. reflexivity.
+  - unfold visit_match_field. intros H. inversion H. reflexivity.
+Qed.
+
+Lemma visit_field_with_attr_name metas fw store v st ds :
+  visit_field_with_attr metas fw store = ROk (v, st, ds) -> vf_name v = np_field_name (fw_def fw).
+Proof.
+  intros H. destruct (visit_field_with_attr_inv _ _ _ _ _ _ H) as [f [st1 [ds1 [ds2 [Hd [Ha _]]]]]].
+  rewrite (apply_attrs_name _ _ _ _ _ _ _ Ha). eapply visit_field_def_name. exact Hd.
+Qed.
+
+(* a declaration without any @lengthOf does not end up as a length field *)
+Lemma final_len_nolen attrs : (forall sp l, ~ In (FALengthOf sp l) attrs) -> final_len attrs false = false.
+Proof.
+  induction attrs as [|a r IH]; intros H; [reflexivity|]. destruct a as [sp x|sp x|sp x|sp x]; cbn [final_len].
+  - exfalso. eapply H. left. reflexivity.
+  - clear IH. assert (Hx : forall b, (forall sp l, ~ In (FALengthOf sp l) r) -> final_len r b = false \/ final_len r b = b).
+    { clear. induction r as [|a r IH]; intros b H; [right; reflexivity|]. destruct a as [sp x|sp x|sp x|sp x]; cbn [final_len].
+      - exfalso. eapply H. left. reflexivity.
+      - destruct (IH false) as [Hx|Hx]; [intros sp' l' Hin; eapply H; right; exact Hin|left; exact Hx|left; exact Hx].
+      - apply IH. intros sp' l' Hin. eapply H. right. exact Hin.
+      - apply IH. intros sp' l' Hin. eapply H. right. exact Hin. }
+    destruct (Hx false) as [Hy|Hy]; [intros sp' l' Hin; eapply H; right; exact Hin|exact Hy|exact Hy].
+  - apply IH. intros sp' l' Hin. eapply H. right. exact Hin.
+  - apply IH. intros sp' l' Hin. eapply H. right. exact Hin.
+Qed.
+
+Lemma has_len_false_inv fw :
+  has_len fw = false -> is_length_field (fw_def fw) = false /\ (forall sp l, ~ In (FALengthOf sp l) (fw_attrs fw)).
+Proof.
+  unfold has_len, fw_len_targets. intros H. split.
+  - destruct (fw_def fw); try reflexivity. cbn in H. discriminate.
+  - intros sp l Hin. destruct (fw_def fw); cbn [app] in H;
+      try (assert (Hx : In (p_text (lo_from l)) (flat_map (fun a => match a with FALengthOf _ l0 => [p_text (lo_from l0)] | _ => [] end) (fw_attrs fw)))
+             by (apply in_flat_map; exists (FALengthOf sp l); split; [exact Hin|left; reflexivity]);
+           destruct (flat_map _ (fw_attrs fw)); [contradiction|discriminate]).
+Qed.
+
+Lemma not_len_kept metas fw store v st ds :
+  metas_ok metas -> visit_field_with_attr metas fw store = ROk (v, st, ds) -> has_len fw = false -> is_len_attr (vf_attr v) = false.
+Proof.
+  intros Hm H Hnl. destruct (has_len_false_inv _ Hnl) as [Hdef Hattrs].
+  destruct (visit_field_with_attr_inv _ _ _ _ _ _ H) as [f [st1 [ds1 [ds2 [Hd [Ha _]]]]]].
+  destruct (visit_field_def_len _ _ _ _ _ _ Hm Hd) as [Hl _].
+  destruct (is_plain_object (vf_attr f)) eqn:Hp.
+  - destruct (apply_attrs_plain _ _ _ _ _ _ _ Ha Hp) as [-> _]. rewrite Hl. exact Hdef.
+  - destruct (apply_attrs_len _ _ _ _ _ _ _ Ha Hp) as [-> _]. rewrite Hl, Hdef. apply final_len_nolen. exact Hattrs.
+Qed.
+
+(* ---- what the first loop keeps *)
+
+Lemma loop1_add_kept pname is_root line f acc store ds :
+  is_len_attr (vf_attr f) = false ->
+  pa_fields (loop1_add pname is_root line f acc store ds) = snoc (pa_fields acc) f /\
+  pa_lines (loop1_add pname is_root line f acc store ds) = snoc (pa_lines acc) line /\
+  pa_fmap (loop1_add pname is_root line f acc store ds) = aset (pa_fmap acc) (vf_name f) (length (pa_fields acc)) /\
+  pa_lenf (loop1_add pname is_root line f acc store ds) = pa_lenf acc /\
+  (alookup (pa_fmap acc) (vf_name f) <> None ->
+   In (dup_field_diag line (vf_name f) pname) (pa_diags (loop1_add pname is_root line f acc store ds))).
+Proof.
+  intros Hl. unfold loop1_add. rewrite Hl. cbn. repeat split; auto. intros Hdup.
+  destruct (alookup (pa_fmap acc) (vf_name f)); [|contradiction]. apply in_or_app. right. left. reflexivity.
 Qed.
 
 Lemma alookup_aset {A} (m : list (string * A)) k v k' :
@@ -1741,274 +1892,309 @@ Proof.
       * exact IH.
 Qed.
 
-Lemma alookup_aset_keeps {A} (m : list (string * A)) k v k' : alookup m k' <> None -> alookup (aset m k v) k' <> None.
-Proof. rewrite alookup_aset. destruct (String.eqb k' k); [discriminate|auto]. Qed.
-
-Lemma alookup_aset_same {A} (m : list (string * A)) k v : alookup (aset m k v) k <> None.
-Proof. rewrite alookup_aset, String.eqb_refl. discriminate. Qed.
-
-Lemma nth_error_snoc_old {A} (l : list A) x i y : nth_error l i = Some y -> nth_error (snoc l x) i = Some y.
-Proof. intros H. unfold snoc. rewrite nth_error_app1; [exact H|]. eapply nth_error_Some_lt. exact H. Qed.
-
-Lemma nth_error_snoc_new {A} (l : list A) x : nth_error (snoc l x) (length l) = Some x.
-Proof. unfold snoc. rewrite nth_error_app2 by lia. rewrite Nat.sub_diag. reflexivity. Qed.
-
-(* what the first loop has established after the fields [done] *)
-Record l1inv (done : list field_with_attr) (acc : pacc) : Prop := mkL1 {
-  i_fresh : forall f, In f (pa_fields acc) -> fresh_attr (vf_attr f);
-  i_fmap : forall fw, In fw done -> has_len fw = false -> alookup (pa_fmap acc) (np_field_name (fw_def fw)) <> None;
-  i_lenf : forall li, pa_lenf acc = Some li ->
-           exists lf tn ty fw, nth_error (pa_fields acc) li = Some lf /\ vf_attr lf = VALen (FRNew tn) ty /\
-                               In fw done /\ In tn (fw_len_targets fw)
-}.
-
-Lemma loop1_add_inv is_root line done fw f acc store ds :
-  l1inv done acc ->
-  vf_name f = np_field_name (fw_def fw) -> fresh_attr (vf_attr f) -> len_from (fw_len_targets fw) (vf_attr f) ->
-  l1inv (snoc done fw) (loop1_add is_root line f acc store ds).
-Proof.
-  intros [Hfr Hfm Hlf] Hname Hfresh Hlen.
-  assert (Hdropped : forall dg, is_len_attr (vf_attr f) = true ->
-                     l1inv (snoc done fw) (mkPacc (pa_fields acc) (pa_fmap acc) (pa_lenf acc) (pa_mfs acc) store dg)).
-  { intros dg Hislen. constructor; cbn.
-    - exact Hfr.
-    - intros fw' Hin Hnl. apply In_snoc in Hin. destruct Hin as [Hin| ->]; [apply Hfm; assumption|].
-      exfalso. destruct (vf_attr f) eqn:Ha; try discriminate. destruct (Hlen _ _ eq_refl) as [tn [_ Hin]].
-      unfold has_len in Hnl. destruct (fw_len_targets fw); [contradiction|discriminate].
-    - intros li Hli. destruct (Hlf li Hli) as [lf [tn [ty [fw' [H1 [H2 [H3 H4]]]]]]]. exists lf, tn, ty, fw'.
-      repeat split; auto. apply In_snoc. left. exact H3. }
-  assert (Hkept : forall lenf mfs,
-             (forall li, lenf = Some li -> pa_lenf acc = Some li \/ (li = length (pa_fields acc) /\ is_len_attr (vf_attr f) = true)) ->
-             l1inv (snoc done fw) (mkPacc (snoc (pa_fields acc) f) (aset (pa_fmap acc) (vf_name f) (length (pa_fields acc))) lenf mfs store
-                                          (pa_diags acc ++ ds))).
-  { intros lenf mfs Hlenf. constructor; cbn.
-    - intros x Hx. apply In_snoc in Hx. destruct Hx as [Hx| ->]; [apply Hfr; exact Hx|exact Hfresh].
-    - intros fw' Hin Hnl. apply In_snoc in Hin. destruct Hin as [Hin| ->].
-      + apply alookup_aset_keeps. apply Hfm; assumption.
-      + rewrite Hname. apply alookup_aset_same.
-    - intros li Hli. destruct (Hlenf li Hli) as [Hold|[-> Hislen]].
-      + destruct (Hlf li Hold) as [lf [tn [ty [fw' [H1 [H2 [H3 H4]]]]]]]. exists lf, tn, ty, fw'.
-        split; [apply nth_error_snoc_old; exact H1|]. repeat split; auto. apply In_snoc. left. exact H3.
-      + destruct (vf_attr f) as [| | |tgt ty| | | |] eqn:Ha; try discriminate.
-        destruct (Hlen _ _ eq_refl) as [tn [-> Hin]]. exists f, tn, ty, fw.
-        split; [apply nth_error_snoc_new|]. split; [exact Ha|]. split; [apply In_snoc; right; reflexivity|exact Hin]. }
-  unfold loop1_add. destruct (is_len_attr (vf_attr f)) eqn:Hislen.
-  - destruct (negb is_root); [apply Hdropped; reflexivity|]. destruct (pa_lenf acc) as [l0|] eqn:Hl0.
-    + apply Hdropped. reflexivity.
-    + apply Hkept. intros li Hli. inversion Hli. right. auto.
-  - apply Hkept. intros li Hli. left. exact Hli.
-Qed.
-
-Lemma loop1_ok refs metas is_root : metas_inv refs metas -> forall l done acc,
-  l1inv done acc -> forallb (fun fw => attrs_ok fw && def_ok refs (fw_def fw)) l = true ->
-  exists acc', loop1 metas is_root l acc = ROk acc' /\ l1inv (done ++ l) acc'.
-Proof.
-  intros Hm. induction l as [|fw l IH]; intros done acc Hinv Hok.
-  - exists acc. rewrite app_nil_r. auto.
-  - cbn [forallb] in Hok. apply andb_true_iff in Hok. destruct Hok as [Hfw Hrest]. apply andb_true_iff in Hfw. destruct Hfw as [Ha Hd].
-    destruct (visit_field_with_attr_ok refs metas fw (pa_store acc) Hm Ha Hd) as [f [st [ds [Hv [Hn [Hfr Hl]]]]]].
-    cbn [loop1]. rewrite Hv.
-    destruct (IH (snoc done fw) (loop1_add is_root (start_line (fw_span fw)) f acc st ds)) as [acc' [Hr Hinv']].
-    + apply loop1_add_inv; assumption.
-    + exact Hrest.
-    + exists acc'. split; [exact Hr|]. unfold snoc in Hinv'. rewrite <- app_assoc in Hinv'. exact Hinv'.
-Qed.
-
-(* ---- the second loop does not panic when the length field's target is a registered field *)
-Definition len_ok (fmap : list (string * nat)) (lenf : option nat) (fields : list vfield) : Prop :=
-  forall li lf, lenf = Some li -> nth_error fields li = Some lf ->
-  exists tgt ty tn, vf_attr lf = VALen tgt ty /\ fref_name tgt = Some tn /\ alookup fmap tn <> None.
-
-Definition fresh_at (idx : list nat) (fields : list vfield) : Prop :=
-  forall j f, In j idx -> nth_error fields j = Some f -> fresh_attr (vf_attr f).
-
-Lemma loop2_step_ok pmap fmap lenf i fields :
-  len_ok fmap lenf fields -> fresh_at [i] fields -> exists fields', loop2_step pmap fmap lenf i fields = ROk fields'.
-Proof.
-  intros Hlen Hfresh. destruct (nth_error fields i) as [f|] eqn:Hf; [|unfold loop2_step; rewrite Hf; eexists; reflexivity].
-  rewrite (loop2_step_unfold _ _ _ _ _ _ Hf).
-  assert (Hla : exists fields1, step_la lenf i fields f = ROk fields1).
-  { unfold step_la. destruct lenf as [li|]; [|eexists; reflexivity]. destruct (nth_error fields li) as [lf|] eqn:Hlf; [|eexists; reflexivity].
-    destruct (Hlen li lf eq_refl Hlf) as [tgt [ty [tn [-> [-> _]]]]]. destruct (String.eqb _ _); [|eexists; reflexivity].
-    destruct (nth_error (upd_nth li _ fields) i); eexists; reflexivity. }
-  destruct Hla as [fields1 Hla]. rewrite Hla. destruct (step_la_keeps _ _ _ _ _ Hla) as [_ Hk].
-  destruct (nth_error fields1 i) as [f1|] eqn:Hf1; [|eexists; reflexivity].
-  assert (Hattr1 : vf_attr f1 = vf_attr f).
-  { destruct (Hk i) as [_ Hai]. rewrite Hf1, Hf in Hai. cbn in Hai. inversion Hai. reflexivity. }
-  pose proof (Hfresh i f (or_introl eq_refl) Hf) as Hfr. rewrite Hattr1.
-  destruct (vf_attr f) as [| | |tgt ty| |iner pn ref inlp|key pairs|]; try (eexists; reflexivity).
-  - destruct Hfr as [tn ->]. cbn. eexists; reflexivity.
-  - destruct iner; eexists; reflexivity.
-  - destruct Hfr as [kn ->]. cbn. eexists; reflexivity.
-Qed.
-
-Lemma loop2_ok pmap fmap lenf idx : forall fields,
-  NoDup idx -> len_ok fmap lenf fields -> fresh_at idx fields -> exists fields', loop2 pmap fmap lenf idx fields = ROk fields'.
-Proof.
-  induction idx as [|i r IH]; intros fields Hnd Hlen Hfresh; [eexists; reflexivity|].
-  inversion Hnd as [|x xs Hnotin Hnd']. subst.
-  destruct (loop2_step_ok pmap fmap lenf i fields Hlen) as [fields1 H1].
-  { intros j f [<-|[]] Hj. eapply Hfresh; [left; reflexivity|exact Hj]. }
-  cbn [loop2]. rewrite H1. destruct (loop2_step_spec _ _ _ _ _ _ H1) as [_ Hk]. apply IH; [exact Hnd'| |].
-  - (* the length field keeps a registered target *)
-    intros li lf Hli Hlf. destruct (Hk li) as [_ Ha]. rewrite Hlf in Ha. cbn in Ha.
-    destruct (nth_error fields li) as [lf0|] eqn:Hlf0; [|destruct (Nat.eqb i li); discriminate].
-    destruct (Hlen li lf0 Hli Hlf0) as [tgt [ty [tn [Hat [Htn Hreg]]]]].
-    destruct (Nat.eqb i li); cbn in Ha; inversion Ha as [Ha'].
-    + rewrite Ha', Hat. cbn [step_attr field_get_type]. rewrite Htn. unfold fmap_ref.
-      destruct (alookup fmap tn) as [k|] eqn:Hk'; [|contradiction]. eexists; eexists; exists tn. split; [reflexivity|]. split; [reflexivity|].
-      rewrite Hk'. discriminate.
-    + rewrite Ha'. exists tgt, ty, tn. auto.
-  - (* the fields still to come are untouched *)
-    intros j f Hj Hfj. destruct (Hk j) as [_ Ha]. rewrite Hfj in Ha. cbn in Ha.
-    assert (Hne : Nat.eqb i j = false). { apply Nat.eqb_neq. intros ->. contradiction. }
-    rewrite Hne in Ha. destruct (nth_error fields j) as [f0|] eqn:Hf0; [|discriminate]. cbn in Ha. inversion Ha as [Ha'].
-    rewrite Ha'. eapply Hfresh; [right; exact Hj|exact Hf0].
-Qed.
-
-Lemma loop1_lenf_nonroot metas l : forall acc acc', loop1 metas false l acc = ROk acc' -> pa_lenf acc = None -> pa_lenf acc' = None.
-Proof.
-  induction l as [|fw l IH]; intros acc acc' H Hn.
-  - inversion H. subst. exact Hn.
-  - destruct (loop1_cons _ _ _ _ _ _ H) as [f [st [ds [_ Hr]]]]. eapply IH; [exact Hr|].
-    unfold loop1_add. destruct (is_len_attr (vf_attr f)); cbn; exact Hn.
-Qed.
-
-(* VisitPacketDefinition does not panic on a packet of the fragment *)
-Lemma visit_packet_def_ok refs metas pmap d store :
-  metas_inv refs metas -> packet_ok refs d = true -> exists p st ds, visit_packet_def metas pmap d store = ROk (p, st, ds).
-Proof.
-  intros Hm Hok. unfold packet_ok in Hok. apply andb_true_iff in Hok. destruct Hok as [Hfields Htargets].
-  unfold visit_packet_def.
-  destruct (loop1_ok refs metas (is_some (pd_root d)) Hm (pd_fields d) [] (mkPacc [] [] None [] store [])) as [acc [Hl1 Hinv]].
-  { constructor; cbn; [intros f []|intros fw []|intros li H; discriminate]. }
-  { exact Hfields. }
-  rewrite Hl1. cbn [app] in Hinv. destruct Hinv as [Hfr Hfm Hlf].
-  destruct (loop2_ok pmap (pa_fmap acc) (pa_lenf acc) (seq 0 (length (pa_fields acc))) (pa_fields acc)) as [fields H2].
-  - apply seq_NoDup.
-  - intros li lf Hli Hnth. destruct (Hlf li Hli) as [lf' [tn [ty [fw [H1 [Hat [Hin Htn]]]]]]]. rewrite Hnth in H1. inversion H1. subst lf'.
-    exists (FRNew tn), ty, tn. split; [exact Hat|]. split; [reflexivity|].
-    unfold targets_ok in Htargets. destruct (pd_root d) as [rt|] eqn:Hroot.
-    + rewrite forallb_forall in Htargets. pose proof (Htargets fw Hin) as Hfw. rewrite forallb_forall in Hfw.
-      pose proof (Hfw tn Htn) as Hsafe. apply np_mem_In in Hsafe. apply in_map_iff in Hsafe. destruct Hsafe as [fw' [Hname Hfw']].
-      apply filter_In in Hfw'. destruct Hfw' as [Hin' Hnl]. apply negb_true_iff in Hnl. rewrite <- Hname. apply Hfm; assumption.
-    + cbn [is_some] in Hl1. pose proof (loop1_lenf_nonroot _ _ _ _ Hl1 eq_refl) as Hnone. rewrite Hnone in Hli. discriminate.
-  - intros j f _ Hj. apply Hfr. eapply nth_error_In. exact Hj.
-  - rewrite H2. eexists; eexists; eexists. reflexivity.
-Qed.
-
-Lemma visit_packets_ok refs l : forall s,
-  metas_inv refs (s_metas s) -> (forall d, In d l -> packet_ok refs d = true) -> exists s', visit_packets l s = ROk s'.
-Proof.
-  induction l as [|d l IH]; intros s Hm Hok; [eexists; reflexivity|]. cbn [visit_packets].
-  destruct (visit_packet_def_ok refs (s_metas s) (Visitor.packet_names (s_packets s)) d (s_store s) Hm (Hok d (or_introl eq_refl)))
-    as [p [st [ds ->]]].
-  apply IH; [rewrite add_packet_metas; exact Hm|]. intros d' Hd'. apply Hok. right. exact Hd'.
-Qed.
-
-(* ---- C11 on the model: inside the structural fragment the visitor returns a result *)
-Theorem nopanic_frag_sound t : nopanic_frag t = true -> exists r, visit t = VOk r.
-Proof.
-  intros H. unfold visit.
-  destruct (visit_packets_ok (ref_names t) (packets_of t) (phase_options t (phase_metas t st0))) as [s Hs].
-  - rewrite phase_options_metas. apply phase_metas_inv.
-  - intros d Hd. unfold packets_of in Hd. apply in_flat_map in Hd. destruct Hd as [x [Hx Hd]].
-    unfold nopanic_frag in H. rewrite forallb_forall in H. pose proof (H x Hx) as Hp.
-    destruct x as [p|m|o]; try contradiction. destruct Hd as [<-|[]]. exact Hp.
-  - rewrite Hs. eexists. reflexivity.
-Qed.
-
-(* together with the five witnesses: the five panic sites are exactly what the fragment excludes *)
-Corollary panic_outside_fragment t site : visit t = VPanic site -> nopanic_frag t = false.
-Proof.
-  intros H. destruct (nopanic_frag t) eqn:Hf; [|reflexivity]. destruct (nopanic_frag_sound t Hf) as [r Hr]. rewrite H in Hr. discriminate.
-Qed.
-
-(* ================================================================== C12, reference to an undeclared packet *)
-
-(* ResolveDependencies (the local check): an unresolved object field of a kept packet whose type is no packet is reported on
-   the field's line *)
-Lemma resolve_fields_reports pmap fs : forall ds f iner pn inlp,
-  In f fs -> vf_attr f = VAObj iner pn None inlp -> mem pn pmap = false ->
-  exists d, In d (snd (resolve_fields pmap fs ds)) /\ d_kind d = DK_UnknownPacket /\ d_line d = vf_line f.
-Proof.
-  induction fs as [|x fs IH]; intros ds f iner pn inlp Hin Ha Hm; [contradiction|]. cbn [resolve_fields].
-  destruct (resolve_field pmap (x, ds)) as [x1 ds1] eqn:Hx.
-  pose proof (resolve_fields_mono pmap fs ds1) as Hmono.
-  destruct Hin as [->|Hin].
-  - unfold resolve_field in Hx. rewrite Ha, Hm in Hx. inversion Hx. subst.
-    destruct (resolve_fields pmap fs _) as [r1 ds2]. cbn in *. eexists. split; [apply Hmono; apply In_snoc; right; reflexivity|]. cbn. auto.
-  - destruct (IH ds1 f iner pn inlp Hin Ha Hm) as [d [Hd Hk]]. destruct (resolve_fields pmap fs ds1) as [r1 ds2]. cbn in *. exists d. auto.
-Qed.
-
-Lemma resolve_packets_reports pmap ps : forall ds p f iner pn inlp,
-  In p ps -> In f (vk_fields p) -> vf_attr f = VAObj iner pn None inlp -> mem pn pmap = false ->
-  exists d, In d (snd (resolve_packets pmap ps ds)) /\ d_kind d = DK_UnknownPacket /\ d_line d = vf_line f.
-Proof.
-  induction ps as [|x ps IH]; intros ds p f iner pn inlp Hp Hf Ha Hm; [contradiction|]. cbn [resolve_packets].
-  destruct Hp as [->|Hp].
-  - destruct (resolve_fields_reports pmap (vk_fields p) ds f iner pn inlp Hf Ha Hm) as [d [Hd Hk]].
-    destruct (resolve_fields pmap (vk_fields p) ds) as [f1 ds1]. pose proof (resolve_packets_mono pmap ps ds1) as Hmono.
-    destruct (resolve_packets pmap ps ds1) as [r1 ds2]. cbn in *. exists d. split; [apply Hmono; exact Hd|exact Hk].
-  - destruct (resolve_fields pmap (vk_fields x) ds) as [f1 ds1].
-    destruct (IH ds1 p f iner pn inlp Hp Hf Ha Hm) as [d [Hd Hk]]. destruct (resolve_packets pmap ps ds1) as [r1 ds2]. cbn in *. exists d. auto.
-Qed.
-
-Lemma finish_reports s p f iner pn inlp :
-  In p (s_packets s) -> In f (vk_fields p) -> vf_attr f = VAObj iner pn None inlp ->
-  ~ In pn (Visitor.packet_names (s_packets s)) ->
-  exists d, In d (r_diags (finish s)) /\ d_kind d = DK_UnknownPacket /\ d_line d = vf_line f.
-Proof.
-  intros Hp Hf Ha Hn. unfold finish.
-  assert (Hm : mem pn (Visitor.packet_names (s_packets s)) = false).
-  { destruct (mem pn _) eqn:Hm; [apply mem_In in Hm; contradiction|reflexivity]. }
-  destruct (resolve_packets_reports _ (s_packets s) (s_diags s) p f iner pn inlp Hp Hf Ha Hm) as [d [Hd Hk]].
-  destruct (resolve_packets _ _ _) as [ps ds]. cbn in *. exists d. auto.
-Qed.
-
-(* the visit of an object field whose type is no MetaData entry *)
-Lemma line_set_attr f a : vf_line (set_attr f a) = vf_line f. Proof. destruct f; reflexivity. Qed.
-Lemma line_set_tag f t : vf_line (set_tag f t) = vf_line f. Proof. destruct f; reflexivity. Qed.
-
-Lemma apply_attrs_obj attrs : forall f store f' st pn,
-  vf_attr f = VAObj false pn None None -> apply_attrs attrs f store = ROk (f', st) ->
-  vf_attr f' = VAObj false pn None None /\ vf_line f' = vf_line f.
-Proof.
-  induction attrs as [|a r IH]; intros f store f' st pn Ha H; cbn [apply_attrs] in H.
-  - inversion H. subst. auto.
-  - destruct a as [sp l|sp c|sp tg|sp p]; cbn [apply_attr] in H; rewrite ?Ha in H; cbn in H; try discriminate.
-    destruct (IH _ _ _ _ pn (eq_trans (attr_set_tag f _) Ha) H) as [H1 H2]. split; [exact H1|]. rewrite H2. apply line_set_tag.
-Qed.
-
-Lemma visit_object_field metas fw store f st ds sp rep ft fn doc comma :
-  fw_def fw = ObjectField sp rep ft fn doc comma -> find_meta metas (p_text ft) = None ->
-  visit_field_with_attr metas fw store = ROk (f, st, ds) ->
-  vf_attr f = VAObj false (p_text ft) None None /\ vf_line f = start_line sp.
-Proof.
-  intros Hdef Hnone H. unfold visit_field_with_attr in H. rewrite Hdef in H. cbn [visit_field_def] in H. rewrite Hnone in H.
-  destruct (apply_attrs _ _ _) as [[f1 st2]|e] eqn:Ha; [|discriminate]. inversion H. subst.
-  pose proof (fun pf => apply_attrs_obj _ _ _ _ _ (p_text ft) pf Ha) as Hx. destruct (Hx eq_refl) as [H1 H2].
-  split; [exact H1|]. rewrite H2. reflexivity.
-Qed.
-
-(* the first loop only appends to Fields *)
-Lemma loop1_add_fields is_root line f acc store ds :
-  pa_fields (loop1_add is_root line f acc store ds) = pa_fields acc \/
-  (pa_fields (loop1_add is_root line f acc store ds) = snoc (pa_fields acc) f).
+Lemma loop1_add_shape pname is_root line f acc store ds :
+  (pa_fields (loop1_add pname is_root line f acc store ds) = pa_fields acc /\
+   pa_lines (loop1_add pname is_root line f acc store ds) = pa_lines acc /\
+   pa_fmap (loop1_add pname is_root line f acc store ds) = pa_fmap acc /\
+   pa_lenf (loop1_add pname is_root line f acc store ds) = pa_lenf acc /\ is_len_attr (vf_attr f) = true) \/
+  (pa_fields (loop1_add pname is_root line f acc store ds) = snoc (pa_fields acc) f /\
+   pa_lines (loop1_add pname is_root line f acc store ds) = snoc (pa_lines acc) line /\
+   pa_fmap (loop1_add pname is_root line f acc store ds) = aset (pa_fmap acc) (vf_name f) (length (pa_fields acc))).
 Proof.
   unfold loop1_add. destruct (is_len_attr (vf_attr f)).
-  - destruct (negb is_root); [left; reflexivity|]. destruct (pa_lenf acc); [left|right]; reflexivity.
-  - right. reflexivity.
+  - destruct (negb is_root); [left; cbn; auto|]. destruct (pa_lenf acc); [left; cbn; auto|right; cbn; auto].
+  - right. cbn. auto.
 Qed.
 
-Lemma loop1_keeps_field metas is_root l : forall acc acc' k f,
-  loop1 metas is_root l acc = ROk acc' -> nth_error (pa_fields acc) k = Some f -> nth_error (pa_fields acc') k = Some f.
+(* fields, lines and field-map entries only accumulate *)
+Lemma loop1_keeps metas pname is_root l : forall acc acc',
+  loop1 metas pname is_root l acc = ROk acc' ->
+  (forall k f, nth_error (pa_fields acc) k = Some f -> nth_error (pa_fields acc') k = Some f) /\
+  (forall k ln, nth_error (pa_lines acc) k = Some ln -> nth_error (pa_lines acc') k = Some ln) /\
+  (forall n, alookup (pa_fmap acc) n <> None -> alookup (pa_fmap acc') n <> None) /\
+  (length (pa_lines acc) = length (pa_fields acc) -> length (pa_lines acc') = length (pa_fields acc')).
 Proof.
-  induction l as [|fw l IH]; intros acc acc' k f H Hk.
-  - inversion H. subst. exact Hk.
-  - destruct (loop1_cons _ _ _ _ _ _ H) as [g [st [ds [_ Hr]]]]. eapply IH; [exact Hr|].
-    destruct (loop1_add_fields is_root (start_line (fw_span fw)) g acc st ds) as [-> | ->]; [exact Hk|apply nth_error_snoc_old; exact Hk].
+  induction l as [|fw l IH]; intros acc acc' H.
+  - inversion H. subst. auto.
+  - destruct (loop1_cons _ _ _ _ _ _ _ H) as [g [st [ds [_ Hr]]]]. destruct (IH _ _ Hr) as [I1 [I2 [I3 I4]]].
+    destruct (loop1_add_shape pname is_root (start_line (fw_span fw)) g acc st ds) as [[E1 [E2 [E3 _]]]|[E1 [E2 E3]]].
+    + rewrite E1, E2, E3 in *. auto.
+    + rewrite E1, E2, E3 in *. repeat split.
+      * intros k f Hk. apply I1. apply nth_error_snoc_old. exact Hk.
+      * intros k ln Hk. apply I2. apply nth_error_snoc_old. exact Hk.
+      * intros n Hn. apply I3. rewrite alookup_aset. destruct (String.eqb n (vf_name g)); [discriminate|exact Hn].
+      * intros Hlen. apply I4. rewrite !snoc_length, Hlen. reflexivity.
 Qed.
+
+(* the keys of the field map are names of the declarations gone through *)
+Lemma loop1_fmap_keys metas pname is_root l : forall acc acc' n,
+  loop1 metas pname is_root l acc = ROk acc' -> alookup (pa_fmap acc') n <> None ->
+  alookup (pa_fmap acc) n <> None \/ In n (map (fun fw => np_field_name (fw_def fw)) l).
+Proof.
+  induction l as [|fw l IH]; intros acc acc' n H Hn.
+  - inversion H. subst. left. exact Hn.
+  - destruct (loop1_cons _ _ _ _ _ _ _ H) as [g [st [ds [Hg Hr]]]]. destruct (IH _ _ n Hr Hn) as [Hx|Hx]; [|right; right; exact Hx].
+    destruct (loop1_add_shape pname is_root (start_line (fw_span fw)) g acc st ds) as [[_ [_ [E3 _]]]|[_ [_ E3]]]; rewrite E3 in Hx.
+    + left. exact Hx.
+    + rewrite alookup_aset in Hx. destruct (String.eqb_spec n (vf_name g)) as [->|_]; [|left; exact Hx].
+      right. left. symmetry. eapply visit_field_with_attr_name. exact Hg.
+Qed.
+
+(* a declaration that does not end up as a length field stays: where it is afterwards *)
+Definition never_len (metas : list vmeta) (fw : field_with_attr) : Prop :=
+  forall store f st ds, visit_field_with_attr metas fw store = ROk (f, st, ds) -> is_len_attr (vf_attr f) = false.
+
+Lemma never_len_nolen metas fw : metas_ok metas -> has_len fw = false -> never_len metas fw.
+Proof. intros Hm Hnl store f st ds H. eapply not_len_kept; eassumption. Qed.
+
+Lemma loop1_kept_at metas pname is_root a fw b acc acc' :
+  never_len metas fw -> length (pa_lines acc) = length (pa_fields acc) ->
+  loop1 metas pname is_root (a ++ fw :: b) acc = ROk acc' ->
+  exists acc1 f st ds,
+    loop1 metas pname is_root a acc = ROk acc1 /\ visit_field_with_attr metas fw (pa_store acc1) = ROk (f, st, ds) /\
+    nth_error (pa_fields acc') (length (pa_fields acc1)) = Some f /\
+    nth (length (pa_fields acc1)) (pa_lines acc') 0 = start_line (fw_span fw) /\
+    alookup (pa_fmap acc') (vf_name f) <> None /\
+    (alookup (pa_fmap acc1) (vf_name f) <> None ->
+     In (dup_field_diag (start_line (fw_span fw)) (vf_name f) pname) (pa_diags acc')).
+Proof.
+  intros Hnl Hlen H. destruct (loop1_app _ _ _ _ _ _ _ H) as [acc1 [H1 H2]].
+  destruct (loop1_cons _ _ _ _ _ _ _ H2) as [f [st [ds [Hf Hr]]]].
+  pose proof (Hnl _ _ _ _ Hf) as Hk.
+  destruct (loop1_add_kept pname is_root (start_line (fw_span fw)) f acc1 st ds Hk) as [E1 [E2 [E3 [_ Edup]]]].
+  destruct (loop1_keeps _ _ _ _ _ _ Hr) as [I1 [I2 [I3 _]]].
+  destruct (loop1_keeps _ _ _ _ _ _ H1) as [_ [_ [_ J4]]]. pose proof (J4 Hlen) as Hlen1.
+  exists acc1, f, st, ds. split; [exact H1|]. split; [exact Hf|]. split; [|split; [|split]].
+  - apply I1. rewrite E1. apply nth_error_snoc_new.
+  - apply nth_error_nth. apply I2. rewrite E2, <- Hlen1. apply nth_error_snoc_new.
+  - apply I3. rewrite E3, alookup_aset, String.eqb_refl. discriminate.
+  - intros Hdup. eapply loop1_mono; [exact Hr|]. apply Edup. exact Hdup.
+Qed.
+
+(* ---- C12, duplicate field name at the top level of a packet: reported on the first line of the later declaration.
+   Guard: neither declaration carries a @lengthOf (dup_field_after_dropped_len_refuted is the counterexample otherwise) *)
+Theorem dup_field_diagnosed t r d a fw1 m fw2 b :
+  visit t = VOk r -> In d (packet_defs t) -> pd_fields d = a ++ fw1 :: m ++ fw2 :: b ->
+  np_field_name (fw_def fw1) = np_field_name (fw_def fw2) -> has_len fw1 = false -> has_len fw2 = false ->
+  has_diag r DK_DupField (start_line (fw_span fw2)).
+Proof.
+  intros Hv Hd Hfields Hname Hnl1 Hnl2.
+  destruct (packet_def_diag_reaches _ _ _ Hv Hd) as [metas [pmap [store [p [st [ds [Hm [Hp Hincl]]]]]]]].
+  destruct (visit_packet_def_inv _ _ _ _ _ _ _ Hp) as [acc [fields [ds2 [Hloop [_ [_ [_ ->]]]]]]]. rewrite Hfields in Hloop.
+  pose proof (fun Hl => loop1_kept_at _ _ _ _ _ _ _ _ (never_len_nolen _ _ Hm Hnl1) Hl Hloop) as K1. destruct (K1 eq_refl) as [acc1 [f1 [st1 [ds1 [Ha [Hf1 _]]]]]].
+  replace (a ++ fw1 :: m ++ fw2 :: b) with ((a ++ fw1 :: m) ++ fw2 :: b) in Hloop by (rewrite <- app_assoc; reflexivity).
+  pose proof (fun Hl => loop1_kept_at _ _ _ _ _ _ _ _ (never_len_nolen _ _ Hm Hnl2) Hl Hloop) as K2. destruct (K2 eq_refl) as [acc2 [f2 [st2 [ds2' [Hb [Hf2 [_ [_ [_ Hdup]]]]]]]]].
+  (* the first declaration has registered the name before the second is reached *)
+  assert (Hreg : alookup (pa_fmap acc2) (vf_name f2) <> None).
+  { destruct (loop1_app _ _ _ _ _ _ _ Hb) as [acc1' [Ha' Hrest]]. rewrite Ha in Ha'. inversion Ha'. subst acc1'.
+    destruct (loop1_cons _ _ _ _ _ _ _ Hrest) as [g [stg [dsg [Hg Hm2]]]]. rewrite Hf1 in Hg. inversion Hg. subst g stg dsg.
+    destruct (loop1_keeps _ _ _ _ _ _ Hm2) as [_ [_ [I3 _]]]. apply I3.
+    destruct (loop1_add_kept (p_text (pd_name d)) (is_some (pd_root d)) (start_line (fw_span fw1)) f1 acc1 st1 ds1
+                             (not_len_kept _ _ _ _ _ _ Hm Hf1 Hnl1)) as [_ [_ [E3 _]]].
+    rewrite E3, alookup_aset. rewrite (visit_field_with_attr_name _ _ _ _ _ _ Hf1), (visit_field_with_attr_name _ _ _ _ _ _ Hf2), Hname.
+    rewrite String.eqb_refl. discriminate. }
+  eexists. split; [apply Hincl; apply in_or_app; left; apply Hdup; exact Hreg|]. cbn. auto.
+Qed.
+
+(* ---- tags and padding attributes leave the attribute of the field alone *)
+Lemma apply_attrs_nolc line attrs : forall f store f' st ds,
+  (forall a, In a attrs -> is_len_or_calc a = false) -> apply_attrs line attrs f store = ROk (f', st, ds) -> vf_attr f' = vf_attr f.
+Proof.
+  induction attrs as [|a r IH]; intros f store f' st ds Hno H.
+  - cbn in H. inversion H. reflexivity.
+  - destruct (apply_attrs_cons _ _ _ _ _ _ _ _ H) as [f1 [st1 [ds1 [ds2 [Ha [Hr _]]]]]].
+    rewrite (IH _ _ _ _ _ (fun x Hx => Hno x (or_intror Hx)) Hr). pose proof (Hno a (or_introl eq_refl)) as Hna.
+    destruct a as [sp x|sp x|sp x|sp x]; cbn in Hna; try discriminate; cbn [apply_attr] in Ha.
+    + inversion Ha. apply attr_set_tag.
+    + destruct (vf_attr f) eqn:Hf; inversion Ha; subst; exact Hf.
+Qed.
+
+(* the declarations of a packet in the second loop: the i-th kept field meets [step_attr] with its own line *)
+Lemma packet_step_reaches metas pmap d store p st ds k f :
+  visit_packet_def metas pmap d store = ROk (p, st, ds) ->
+  forall acc, loop1 metas (p_text (pd_name d)) (is_some (pd_root d)) (pd_fields d) (mkPacc [] [] [] None [] store []) = ROk acc ->
+  nth_error (pa_fields acc) k = Some f ->
+  exists a dsk, step_attr pmap (pa_fmap acc) (nth k (pa_lines acc) 0) (vf_name f) (vf_attr f) = ROk (a, dsk) /\ incl dsk ds /\
+                exists f', nth_error (vk_fields p) k = Some f' /\ vf_attr f' = a /\ skel f' = skel f.
+Proof.
+  intros Hp acc Hl1 Hk. destruct (visit_packet_def_inv _ _ _ _ _ _ _ Hp) as [acc0 [fields [ds2 [Hloop [Hl2 [-> [_ ->]]]]]]].
+  rewrite Hl1 in Hloop. inversion Hloop. subst acc0.
+  destruct (loop2_spec _ _ _ _ _ _ _ _ (seq_NoDup _ _) Hl2) as [_ [Hs [_ Hi]]].
+  destruct (Hi k f) as [a [dsk [Hst [Hat Hin]]]]; [apply in_seq; pose proof (nth_error_Some_lt _ _ _ Hk); lia|exact Hk|].
+  exists a, dsk. split; [exact Hst|]. split; [apply incl_appr; exact Hin|]. cbn [vk_fields].
+  pose proof (Hs k) as Hsk. rewrite Hk in Hsk. destruct (option_map_Some_inv _ _ _ Hsk) as [f' [Hf' Hskel]].
+  exists f'. split; [exact Hf'|]. split; [|exact Hskel]. rewrite Hf' in Hat. cbn in Hat. inversion Hat. reflexivity.
+Qed.
+
+(* ---- C12, match on an undeclared key field, at the top level of a packet: reported on the first line of the match field's
+   declaration.  Guard: no @lengthOf / @calculatedFrom before the match field (they would replace the match attribute) *)
+Theorem undeclared_match_key_diagnosed t r d a fw b sp md comma :
+  visit t = VOk r -> In d (packet_defs t) -> pd_fields d = a ++ fw :: b -> fw_def fw = MatchField sp md comma ->
+  (forall x, In x (fw_attrs fw) -> is_len_or_calc x = false) ->
+  ~ In (p_text (mf_key md)) (map (fun x => np_field_name (fw_def x)) (pd_fields d)) ->
+  has_diag r DK_UnknownMatchKey (start_line (fw_span fw)).
+Proof.
+  intros Hv Hd Hfields Hdef Hnolc Hundecl.
+  destruct (packet_def_diag_reaches _ _ _ Hv Hd) as [metas [pmap [store [p [st [ds [Hm [Hp Hincl]]]]]]]].
+  destruct (visit_packet_def_inv _ _ _ _ _ _ _ Hp) as [acc [fields [ds2 [Hloop _]]]]. pose proof Hloop as Hloop0. rewrite Hfields in Hloop.
+  assert (Hnl : has_len fw = false).
+  { unfold has_len, fw_len_targets. rewrite Hdef. cbn [app].
+    assert (Hnil : flat_map (fun x => match x with FALengthOf _ l => [p_text (lo_from l)] | _ => [] end) (fw_attrs fw) = []).
+    { induction (fw_attrs fw) as [|x xs IHx]; [reflexivity|]. cbn [flat_map]. rewrite IHx by (intros y Hy; apply Hnolc; right; exact Hy).
+      pose proof (Hnolc x (or_introl eq_refl)) as Hx. destruct x; cbn in Hx; try discriminate; reflexivity. }
+    rewrite Hnil. reflexivity. }
+  pose proof (fun Hl => loop1_kept_at _ _ _ _ _ _ _ _ (never_len_nolen _ _ Hm Hnl) Hl Hloop) as K. destruct (K eq_refl) as [acc1 [f [st1 [ds1 [_ [Hf [Hnth [Hline _]]]]]]]].
+  (* the field is the match field with its placeholder key *)
+  destruct (visit_field_with_attr_inv _ _ _ _ _ _ Hf) as [f0 [st0 [ds0 [ds0' [Hd0 [Ha0 _]]]]]].
+  rewrite Hdef in Hd0. cbn [visit_field_def] in Hd0. unfold visit_match_field in Hd0. inversion Hd0. subst f0.
+  pose proof (apply_attrs_nolc _ _ _ _ _ _ _ Hnolc Ha0) as Hattr. cbn [vf_attr] in Hattr.
+  destruct (packet_step_reaches _ _ _ _ _ _ _ _ _ Hp acc Hloop0 Hnth) as [a' [dsk [Hst [Hin _]]]].
+  (* the key is no key of the field map *)
+  assert (Hnone : alookup (pa_fmap acc) (p_text (mf_key md)) = None).
+  { destruct (alookup (pa_fmap acc) (p_text (mf_key md))) eqn:Hx; [|reflexivity]. exfalso.
+    destruct (loop1_fmap_keys _ _ _ _ _ _ (p_text (mf_key md)) Hloop0) as [Hy|Hy]; [rewrite Hx; discriminate|cbn in Hy; contradiction|].
+    apply Hundecl. exact Hy. }
+  rewrite Hattr in Hst. cbn [step_attr fref_name] in Hst. rewrite Hnone in Hst. inversion Hst. subst a' dsk.
+  eexists. split; [apply Hincl; apply Hin; left; reflexivity|]. cbn. split; [reflexivity|exact Hline].
+Qed.
+
+(* ---- a length attribute names a target written on the declaration *)
+Definition len_from (targets : list string) (a : vattr) : Prop :=
+  forall tgt ty, a = VALen tgt ty -> exists tn, tgt = FRNew tn /\ In tn targets.
+
+Definition attr_targets (attrs : list field_attribute) : list string :=
+  flat_map (fun a => match a with FALengthOf _ l => [p_text (lo_from l)] | _ => [] end) attrs.
+
+Lemma len_from_incl T T' a : len_from T a -> incl T T' -> len_from T' a.
+Proof. intros H Hi tgt ty Ha. destruct (H tgt ty Ha) as [tn [Ht Hin]]. exists tn. split; [exact Ht|apply Hi; exact Hin]. Qed.
+
+Lemma apply_attrs_len_from line attrs : forall f store f' st ds T,
+  apply_attrs line attrs f store = ROk (f', st, ds) -> len_from T (vf_attr f) -> len_from (T ++ attr_targets attrs) (vf_attr f').
+Proof.
+  induction attrs as [|a r IH]; intros f store f' st ds T H Hl.
+  - cbn in H. inversion H. subst. cbn. rewrite app_nil_r. exact Hl.
+  - destruct (apply_attrs_cons _ _ _ _ _ _ _ _ H) as [f1 [st1 [ds1 [ds2 [Ha [Hr _]]]]]].
+    assert (Hl1 : len_from (T ++ attr_targets [a]) (vf_attr f1)).
+    { destruct a as [sp x|sp x|sp x|sp x]; cbn [apply_attr] in Ha; cbn [attr_targets flat_map app].
+      - destruct (is_plain_object (vf_attr f)).
+        + inversion Ha. subst. eapply len_from_incl; [exact Hl|apply incl_appl; apply incl_refl].
+        + destruct (field_get_type (vf_attr f)); [|discriminate]. inversion Ha. rewrite attr_set_attr.
+          intros tgt ty Hx. inversion Hx. eexists. split; [reflexivity|]. apply in_or_app. right. left. reflexivity.
+      - rewrite app_nil_r. destruct (is_plain_object (vf_attr f)).
+        + inversion Ha. subst. exact Hl.
+        + destruct (field_get_type (vf_attr f)); [|discriminate]. inversion Ha. rewrite attr_set_attr. intros tgt ty Hx. discriminate.
+      - rewrite app_nil_r. inversion Ha. rewrite attr_set_tag. exact Hl.
+      - rewrite app_nil_r. assert (Hf1 : f1 = f) by (destruct (vf_attr f); inversion Ha; reflexivity). subst f1. exact Hl. }
+    pose proof (IH _ _ _ _ _ _ Hr Hl1) as Hx.
+    replace (T ++ attr_targets (a :: r)) with ((T ++ attr_targets [a]) ++ attr_targets r); [exact Hx|].
+    rewrite <- app_assoc. f_equal. unfold attr_targets. cbn [flat_map]. rewrite app_nil_r. reflexivity.
+Qed.
+
+Lemma visit_field_with_attr_len_from metas fw store v st ds :
+  metas_ok metas -> visit_field_with_attr metas fw store = ROk (v, st, ds) -> len_from (fw_len_targets fw) (vf_attr v).
+Proof.
+  intros Hm H. destruct (visit_field_with_attr_inv _ _ _ _ _ _ H) as [f [st1 [ds1 [ds2 [Hd [Ha _]]]]]].
+  unfold fw_len_targets. apply (apply_attrs_len_from _ _ _ _ _ _ _ _ Ha).
+  destruct (visit_field_def_len _ _ _ _ _ _ Hm Hd) as [Hl _].
+  destruct (fw_def fw) as [sp rep decl comma|sp rep d|sp rep ft fn doc comma|sp d|sp d|sp d comma]; cbn [is_length_field] in Hl;
+    try (intros tgt ty Hx; rewrite Hx in Hl; discriminate).
+  cbn [visit_field_def] in Hd. inversion Hd. cbn. intros tgt ty Hx. inversion Hx. eexists. split; [reflexivity|left; reflexivity].
+Qed.
+
+Lemma loop1_lenf_none metas pname is_root l : forall acc acc',
+  metas_ok metas -> (forall x, In x l -> has_len x = false) ->
+  loop1 metas pname is_root l acc = ROk acc' -> pa_lenf acc = None -> pa_lenf acc' = None.
+Proof.
+  induction l as [|fw l IH]; intros acc acc' Hm Hno H Hn.
+  - inversion H. subst. exact Hn.
+  - destruct (loop1_cons _ _ _ _ _ _ _ H) as [g [st [ds [Hg Hr]]]]. eapply IH; [exact Hm|intros x Hx; apply Hno; right; exact Hx|exact Hr|].
+    destruct (loop1_add_kept pname is_root (start_line (fw_span fw)) g acc st ds
+                             (not_len_kept _ _ _ _ _ _ Hm Hg (Hno fw (or_introl eq_refl)))) as [_ [_ [_ [E4 _]]]]. rewrite E4. exact Hn.
+Qed.
+
+(* ---- C12, length-of an undeclared target: the (first) length field of the root packet whose only target is no field of
+   the packet is reported on the first line of its declaration (len_target_of_dropped_len_refuted: not when the length
+   field itself is refused) *)
+Theorem undeclared_len_target_diagnosed t r d a fw b tn :
+  visit t = VOk r -> In d (packet_defs t) -> pd_root d <> None -> pd_fields d = a ++ fw :: b ->
+  (forall x, In x a -> has_len x = false) ->
+  final_is_len fw = true -> NoPanic.is_object_field (fw_def fw) = false -> fw_len_targets fw = [tn] ->
+  ~ In tn (map (fun x => np_field_name (fw_def x)) (pd_fields d)) ->
+  has_diag r DK_UnknownLenTarget (start_line (fw_span fw)).
+Proof.
+  intros Hv Hd Hroot Hfields Hnolen Hfin Hnoobj Htargets Hundecl.
+  destruct (packet_def_diag_reaches _ _ _ Hv Hd) as [metas [pmap [store [p [st [ds [Hm [Hp Hincl]]]]]]]].
+  destruct (visit_packet_def_inv _ _ _ _ _ _ _ Hp) as [acc [fields [ds2 [Hloop _]]]]. pose proof Hloop as Hloop0. rewrite Hfields in Hloop.
+  assert (His_root : is_some (pd_root d) = true) by (destruct (pd_root d); [reflexivity|contradiction]). rewrite His_root in Hloop.
+  destruct (loop1_app _ _ _ _ _ _ _ Hloop) as [acc1 [H1 H2]].
+  destruct (loop1_cons _ _ _ _ _ _ _ H2) as [f [st1 [ds1 [Hf Hr]]]].
+  pose proof (visit_field_with_attr_len _ _ _ _ _ _ Hm Hf Hnoobj) as Hlen. rewrite Hfin in Hlen.
+  pose proof (loop1_lenf_none _ _ _ _ _ _ Hm Hnolen H1 eq_refl) as Hnone1.
+  destruct (loop1_keeps _ _ _ _ _ _ H1) as [_ [_ [_ J4]]]. pose proof (J4 eq_refl) as Hlen1.
+  destruct (loop1_keeps _ _ _ _ _ _ Hr) as [I1 [I2 _]].
+  (* the length field is kept as THE length field *)
+  assert (Hadd : pa_fields (loop1_add (p_text (pd_name d)) true (start_line (fw_span fw)) f acc1 st1 ds1) = snoc (pa_fields acc1) f /\
+                 pa_lines (loop1_add (p_text (pd_name d)) true (start_line (fw_span fw)) f acc1 st1 ds1) = snoc (pa_lines acc1) (start_line (fw_span fw))).
+  { unfold loop1_add. rewrite Hlen, Hnone1. cbn. auto. }
+  destruct Hadd as [E1 E2].
+  assert (Hnth : nth_error (pa_fields acc) (length (pa_fields acc1)) = Some f) by (apply I1; rewrite E1; apply nth_error_snoc_new).
+  assert (Hline : nth (length (pa_fields acc1)) (pa_lines acc) 0 = start_line (fw_span fw)).
+  { apply nth_error_nth. apply I2. rewrite E2, <- Hlen1. apply nth_error_snoc_new. }
+  (* its attribute names the target *)
+  destruct (vf_attr f) as [| | |tgt ty| | | |] eqn:Hattr; try discriminate.
+  destruct (visit_field_with_attr_len_from _ _ _ _ _ _ Hm Hf tgt ty Hattr) as [x [-> Hx]]. rewrite Htargets in Hx.
+  destruct Hx as [<-|[]].
+  destruct (packet_step_reaches _ _ _ _ _ _ _ _ _ Hp acc Hloop0 Hnth) as [a' [dsk [Hst [Hin _]]]].
+  assert (Hnone : alookup (pa_fmap acc) tn = None).
+  { destruct (alookup (pa_fmap acc) tn) eqn:Hy; [|reflexivity]. exfalso.
+    destruct (loop1_fmap_keys _ _ _ _ _ _ tn Hloop0) as [Hz|Hz]; [rewrite Hy; discriminate|cbn in Hz; contradiction|].
+    apply Hundecl. exact Hz. }
+  rewrite Hattr in Hst. cbn [step_attr fref_name field_get_type] in Hst. rewrite Hnone in Hst. inversion Hst. subst a' dsk.
+  eexists. split; [apply Hincl; apply Hin; left; reflexivity|]. cbn. split; [reflexivity|exact Hline].
+Qed.
+
+(* ---- ResolveDependencies *)
+
+(* the inner loop of [resolve_field] over the fields of an inline object is [resolve_fields] *)
+Lemma resolve_inline_eq pmap n pn r pn2 ro lf fs fm mf pl la rep doc tag ln :
+  resolve_field pmap (mkVField n (VAObj true pn (Some r) (Some (mkVPacket pn2 ro lf fs fm mf pl))) la rep doc tag ln) =
+  (mkVField n (VAObj true pn (Some r) (Some (mkVPacket pn2 ro lf (fst (resolve_fields pmap fs)) fm mf pl))) la rep doc tag ln,
+   snd (resolve_fields pmap fs)).
+Proof.
+  cbn [resolve_field].
+  assert (Hgo : forall l, (fix go (l : list vfield) : list vfield * list diag :=
+                             match l with
+                             | [] => ([], [])
+                             | x :: rest => let '(x', d1) := resolve_field pmap x in let '(rest', d2) := go rest in (x' :: rest', d1 ++ d2)
+                             end) l = resolve_fields pmap l).
+  { induction l as [|x l IH]; [reflexivity|]. cbn [resolve_fields]. rewrite IH. reflexivity. }
+  rewrite Hgo. destruct (resolve_fields pmap fs) as [fs' ds]. reflexivity.
+Qed.
+
+Lemma resolve_fields_incl pmap fs f : In f fs -> incl (snd (resolve_field pmap f)) (snd (resolve_fields pmap fs)).
+Proof.
+  induction fs as [|x fs IH]; intros Hin; [contradiction|]. cbn [resolve_fields].
+  destruct (resolve_field pmap x) as [x1 d1] eqn:Hx. destruct (resolve_fields pmap fs) as [r1 d2] eqn:Hr. cbn [snd] in *.
+  destruct Hin as [->|Hin]; [rewrite Hx; apply incl_appl; apply incl_refl|apply incl_appr; apply IH; exact Hin].
+Qed.
+
+Lemma resolve_packets_incl pmap ps p : In p ps -> incl (snd (resolve_fields pmap (vk_fields p))) (snd (resolve_packets pmap ps)).
+Proof.
+  induction ps as [|x ps IH]; intros Hin; [contradiction|]. cbn [resolve_packets].
+  destruct (resolve_fields pmap (vk_fields x)) as [f1 d1] eqn:Hx. destruct (resolve_packets pmap ps) as [r1 d2] eqn:Hr. cbn [snd] in *.
+  destruct Hin as [->|Hin]; [rewrite Hx; apply incl_appl; apply incl_refl|apply incl_appr; apply IH; exact Hin].
+Qed.
+
+(* what ResolveDependencies says about one field of a kept packet reaches the result *)
+Lemma finish_field_diags s p f : In p (s_packets s) -> In f (vk_fields p) ->
+  incl (snd (resolve_field (Visitor.packet_names (s_packets s)) f)) (r_diags (finish s)).
+Proof.
+  intros Hp Hf. rewrite finish_diags. apply incl_appr. eapply incl_tran; [apply resolve_fields_incl; exact Hf|].
+  apply resolve_packets_incl. exact Hp.
+Qed.
+
+Lemma mem_false_not_In n l : ~ In n l -> mem n l = false.
+Proof. intros H. destruct (mem n l) eqn:Hm; [apply mem_In in Hm; contradiction|reflexivity]. Qed.
 
 (* the names AddMetaData has registered are names of MetaData items of the file *)
 Lemma phase_metas_names t m : In m (s_metas (phase_metas t st0)) -> In (vm_name m) (meta_names t).
@@ -2042,66 +2228,295 @@ Proof.
   - destruct (visit_packets_cons _ _ _ _ H) as [p [st [ds [_ Hr]]]]. eapply IH; [exact Hr|]. apply add_packet_keeps_packet. exact Hq.
 Qed.
 
-(* ---- C12, an object field at the top level of a packet (that is not itself rejected as a duplicate) whose type is neither a
-   packet nor a MetaData entry: reported, on the line of the fieldDefinition (undeclared_packet_line_refuted: not on the line
-   of a prefixed attribute; undeclared_packet_in_inline_refuted, undeclared_packet_in_pair_refuted,
-   undeclared_packet_in_dup_packet_refuted: not in the other positions) *)
-Theorem undeclared_object_type_diagnosed t r A d B fw sp rep ft fn doc comma :
-  visit t = VOk r ->
-  packet_defs t = A ++ d :: B -> ~ In (pd_name_text d) (map pd_name_text A) ->
-  In fw (pd_fields d) -> fw_def fw = ObjectField sp rep ft fn doc comma ->
-  ~ In (p_text ft) (Faults.packet_names t) -> ~ In (p_text ft) (meta_names t) ->
-  has_diag r DK_UnknownPacket (start_line sp).
+(* a packet definition whose name is new: its packet, as VisitPacketDefinition returns it, is in the result, and the names of the
+   final PacketsMap are the names of the packet definitions *)
+Lemma kept_packet t r A d B :
+  visit t = VOk r -> packet_defs t = A ++ d :: B -> ~ In (pd_name_text d) (map pd_name_text A) ->
+  exists s metas pmap store p st ds,
+    r = finish s /\ metas_ok metas /\ (forall n, find_meta metas n <> None -> In n (meta_names t)) /\
+    (forall n, In n pmap -> In n (Faults.packet_names t)) /\
+    visit_packet_def metas pmap d store = ROk (p, st, ds) /\ In p (s_packets s) /\ incl ds (r_diags r) /\
+    (forall n, In n (Visitor.packet_names (s_packets s)) -> In n (Faults.packet_names t)).
 Proof.
-  intros Hv Hdefs Hfreshname Hfw Hdef Hnp Hnm.
-  destruct (visit_ok_inv _ _ Hv) as [s [Hs Hr]]. rewrite packets_of_defs, Hdefs in Hs.
+  intros Hv Hdefs Hfresh. destruct (visit_ok_inv _ _ Hv) as [s [Hs Hr]]. pose proof Hs as Hs0. rewrite packets_of_defs, Hdefs in Hs.
   destruct (phases_no_packets t) as [Hnop _].
   destruct (visit_packets_app _ _ _ _ Hs) as [sa [Ha Hrest]].
   destruct (visit_packets_cons _ _ _ _ Hrest) as [p [st [ds [Hp Hrest2]]]].
-  (* the type is no MetaData entry *)
-  assert (Hmetas : find_meta (s_metas sa) (p_text ft) = None).
-  { apply find_meta_none_of_names. intros m Hm Heq. apply Hnm. rewrite <- Heq. apply phase_metas_names.
-    rewrite (visit_packets_metas _ _ _ Ha), phase_options_metas in Hm. exact Hm. }
-  (* the names of the final PacketsMap are names of packet definitions *)
-  assert (Hfinal : ~ In (p_text ft) (Visitor.packet_names (s_packets s))).
-  { rewrite (visit_packets_names _ _ _ (p_text ft) Hs), Hnop. cbn [Visitor.packet_names map In]. intros [[]|Hin]. apply Hnp.
-    unfold Faults.packet_names. rewrite Hdefs. exact Hin. }
-  assert (Hpmap : mem (p_text ft) (Visitor.packet_names (s_packets sa)) = false).
-  { destruct (mem _ _) eqn:Hm; [|reflexivity]. apply mem_In in Hm. exfalso. apply Hfinal.
-    rewrite (visit_packets_names _ _ _ (p_text ft) Hs), Hnop. rewrite (visit_packets_names _ _ _ (p_text ft) Ha), Hnop in Hm.
-    destruct Hm as [[]|Hm]. right. rewrite map_app. apply in_or_app. left. exact Hm. }
-  (* the field in the first loop *)
-  unfold visit_packet_def in Hp.
-  destruct (loop1 _ _ _ _) as [acc|e] eqn:Hl1; [|discriminate].
-  destruct (loop2 _ _ _ _ _) as [fields|e] eqn:Hl2; [|discriminate]. inversion Hp. subst p st ds. clear Hp.
-  destruct (in_split _ _ Hfw) as [fa [fb Hsplit]]. rewrite Hsplit in Hl1.
-  destruct (loop1_app _ _ _ _ _ _ Hl1) as [acc1 [_ Hl1b]].
-  destruct (loop1_cons _ _ _ _ _ _ Hl1b) as [f [st1 [ds1 [Hvf Hl1c]]]].
-  destruct (visit_object_field _ _ _ _ _ _ _ _ _ _ _ _ Hdef Hmetas Hvf) as [Hattr Hline].
-  assert (Hkept : nth_error (pa_fields acc) (length (pa_fields acc1)) = Some f).
-  { eapply loop1_keeps_field; [exact Hl1c|]. unfold loop1_add. rewrite Hattr. cbn. apply nth_error_snoc_new. }
-  (* the second loop *)
-  destruct (loop2_spec _ _ _ _ _ _ (seq_NoDup _ _) Hl2) as [Hlen Hk].
-  destruct (Hk (length (pa_fields acc1))) as [Hskel Hat]. rewrite Hkept in Hskel, Hat. cbn in Hskel, Hat.
-  destruct (nth_error fields (length (pa_fields acc1))) as [f'|] eqn:Hf'; [|discriminate]. cbn in Hskel, Hat.
-  assert (Hinseq : existsb (Nat.eqb (length (pa_fields acc1))) (seq 0 (length (pa_fields acc))) = true).
-  { apply existsb_exists. exists (length (pa_fields acc1)). split; [|apply Nat.eqb_refl]. apply in_seq.
-    pose proof (nth_error_Some_lt _ _ _ Hkept). lia. }
-  rewrite Hinseq in Hat. cbn in Hat. rewrite Hattr in Hat. cbn [step_attr] in Hat. rewrite Hpmap in Hat.
-  inversion Hat as [Hat']. inversion Hskel as [[Hname' Hline']].
-  (* the packet is kept and resolved *)
-  set (p := mkVPacket (p_text (pd_name d)) (is_some (pd_root d)) (pa_lenf acc) fields (pa_fmap acc) (pa_mfs acc) (start_line (pd_span d))) in *.
-  assert (Hpin : In p (s_packets s)).
-  { eapply visit_packets_keeps_packet; [exact Hrest2|]. rewrite add_packet_packets. cbn [s_packets].
+  exists s, (s_metas sa), (Visitor.packet_names (s_packets sa)), (s_store sa), p, st, ds.
+  assert (Hmetas : s_metas sa = s_metas (phase_metas t st0)) by (rewrite (visit_packets_metas _ _ _ Ha), phase_options_metas; reflexivity).
+  split; [exact Hr|]. split; [rewrite Hmetas; apply phase_metas_ok|]. split; [|split; [|split; [exact Hp|split; [|split]]]].
+  - intros n Hn. rewrite Hmetas in Hn. destruct (find_meta (s_metas (phase_metas t st0)) n) as [m|] eqn:Hf; [|contradiction].
+    assert (Hname : vm_name m = n).
+    { clear - Hf. induction (s_metas (phase_metas t st0)) as [|x ms IH]; cbn [find_meta] in Hf; [discriminate|].
+      destruct (String.eqb_spec n (vm_name x)); [inversion Hf; subst; auto|apply IH; exact Hf]. }
+    rewrite <- Hname. apply phase_metas_names. eapply find_meta_In. exact Hf.
+  - intros n Hn. rewrite (visit_packets_names _ _ _ n Ha), Hnop in Hn. destruct Hn as [[]|Hn].
+    unfold Faults.packet_names. rewrite Hdefs, map_app. apply in_or_app. left. exact Hn.
+  - eapply visit_packets_keeps_packet; [exact Hrest2|]. rewrite add_packet_packets. cbn [s_packets].
+    destruct (visit_packet_def_shape _ _ _ _ _ _ _ Hp) as [Hpn _].
     destruct (mem (vk_name p) _) eqn:Hm.
-    - exfalso. apply mem_In in Hm. rewrite (visit_packets_names _ _ _ (vk_name p) Ha), Hnop in Hm. destruct Hm as [[]|Hm].
-      apply Hfreshname. exact Hm.
-    - apply In_snoc. right. reflexivity. }
-  destruct (finish_reports s p f' false (p_text ft) None Hpin) as [dg [Hdg [Hkind Hln]]].
-  - cbn. eapply nth_error_In. exact Hf'.
-  - exact Hat'.
-  - exact Hfinal.
-  - exists dg. subst r. split; [exact Hdg|]. split; [exact Hkind|]. rewrite Hln, Hline'. exact Hline.
+    + exfalso. apply mem_In in Hm. rewrite (visit_packets_names _ _ _ (vk_name p) Ha), Hnop in Hm. destruct Hm as [[]|Hm].
+      apply Hfresh. rewrite <- Hpn. exact Hm.
+    + apply In_snoc. right. reflexivity.
+  - subst r. eapply incl_tran; [|apply finish_mono]. eapply incl_tran; [|eapply visit_packets_mono; exact Hrest2].
+    eapply incl_tran; [|apply add_packet_mono]. cbn. apply incl_appr. apply incl_refl.
+  - intros n Hn. rewrite (visit_packets_names _ _ _ n Hs), Hnop in Hn. destruct Hn as [[]|Hn].
+    unfold Faults.packet_names. rewrite Hdefs. exact Hn.
+Qed.
+
+(* the visit of an object field whose type is no MetaData entry *)
+Lemma visit_object_field metas fw store f st ds sp rep ft fn doc comma :
+  fw_def fw = ObjectField sp rep ft fn doc comma -> find_meta metas (p_text ft) = None ->
+  visit_field_with_attr metas fw store = ROk (f, st, ds) ->
+  vf_attr f = VAObj false (p_text ft) None None /\ vf_line f = start_line sp.
+Proof.
+  intros Hdef Hnone H. destruct (visit_field_with_attr_inv _ _ _ _ _ _ H) as [f0 [st0 [ds0 [ds1 [Hd [Ha _]]]]]].
+  rewrite Hdef in Hd. cbn [visit_field_def] in Hd. rewrite Hnone in Hd. inversion Hd. subst f0.
+  destruct (apply_attrs_plain _ _ _ _ _ _ _ Ha eq_refl) as [Hx [Hy _]]. auto.
+Qed.
+
+(* ---- C12, an object field at the top level of a packet (that is not itself rejected as a duplicate) whose type is neither a
+   packet nor a MetaData entry: reported, on the line of the fieldDefinition (undeclared_packet_line_refuted: not on the line
+   of a prefixed attribute; undeclared_packet_in_dup_packet_refuted: not in a rejected packet) *)
+Theorem undeclared_object_type_diagnosed t r A d B a fw b sp rep ft fn doc comma :
+  visit t = VOk r ->
+  packet_defs t = A ++ d :: B -> ~ In (pd_name_text d) (map pd_name_text A) ->
+  pd_fields d = a ++ fw :: b -> fw_def fw = ObjectField sp rep ft fn doc comma ->
+  ~ In (p_text ft) (Faults.packet_names t) -> ~ In (p_text ft) (meta_names t) ->
+  has_diag r DK_UnknownPacket (start_line sp).
+Proof.
+  intros Hv Hdefs Hfreshname Hfields Hdef Hnp Hnm.
+  destruct (kept_packet _ _ _ _ _ Hv Hdefs Hfreshname) as [s [metas [pmap [store [p [st [ds [Hr [Hm [Hmn [Hpm [Hp [Hpin [_ Hfinal]]]]]]]]]]]]]].
+  destruct (visit_packet_def_inv _ _ _ _ _ _ _ Hp) as [acc [fields [ds2 [Hloop _]]]]. pose proof Hloop as Hloop0. rewrite Hfields in Hloop.
+  assert (Hnone : find_meta metas (p_text ft) = None).
+  { destruct (find_meta metas (p_text ft)) eqn:Hx; [|reflexivity]. exfalso. apply Hnm. apply Hmn. rewrite Hx. discriminate. }
+  assert (Hnl : never_len metas fw).
+  { intros store0 f0 st0 ds0 H0. destruct (visit_object_field _ _ _ _ _ _ _ _ _ _ _ _ Hdef Hnone H0) as [-> _]. reflexivity. }
+  pose proof (fun Hl => loop1_kept_at _ _ _ _ _ _ _ _ Hnl Hl Hloop) as K. destruct (K eq_refl) as [acc1 [f [st1 [ds1 [_ [Hf [Hnth _]]]]]]].
+  destruct (visit_object_field _ _ _ _ _ _ _ _ _ _ _ _ Hdef Hnone Hf) as [Hattr Hline].
+  destruct (packet_step_reaches _ _ _ _ _ _ _ _ _ Hp acc Hloop0 Hnth) as [a' [dsk [Hst [_ [f' [Hf' [Ha' Hskel]]]]]]].
+  rewrite Hattr in Hst. cbn [step_attr] in Hst. rewrite (mem_false_not_In _ _ (fun H => Hnp (Hpm _ H))) in Hst. inversion Hst as [[Hea Hed]]. rewrite <- Hea in Ha'.
+  pose proof (finish_field_diags s p f' Hpin (nth_error_In _ _ Hf')) as Hres.
+  destruct f' as [n0 a0 la0 rep0 doc0 tag0 ln0]. cbn [vf_attr] in Ha'. subst a0. cbn [resolve_field] in Hres.
+  rewrite (mem_false_not_In _ _ (fun H => Hnp (Hfinal _ H))) in Hres. cbn [snd] in Hres.
+  eexists. split; [rewrite Hr; apply Hres; left; reflexivity|]. cbn. split; [reflexivity|].
+  unfold skel in Hskel. cbn in Hskel. inversion Hskel. rewrite Hline. reflexivity.
+Qed.
+
+(* ---- C12, an undeclared packet as the value of a match pair (with a single key) of a top-level match field of a packet that is
+   not rejected: reported on the line of the pair.  Guard: no @lengthOf / @calculatedFrom before the match field *)
+Theorem undeclared_packet_in_pair_diagnosed t r A d B a fw b sp md comma pr :
+  visit t = VOk r ->
+  packet_defs t = A ++ d :: B -> ~ In (pd_name_text d) (map pd_name_text A) ->
+  pd_fields d = a ++ fw :: b -> fw_def fw = MatchField sp md comma ->
+  (forall x, In x (fw_attrs fw) -> is_len_or_calc x = false) ->
+  In pr (mf_pairs md) -> (match PT.mp_key pr with MKList _ => False | _ => True end) ->
+  ~ In (p_text (mp_ident pr)) (Faults.packet_names t) ->
+  has_diag r DK_UnknownPacket (start_line (mp_span pr)).
+Proof.
+  intros Hv Hdefs Hfreshname Hfields Hdef Hnolc Hpr Hsingle Hnp.
+  destruct (kept_packet _ _ _ _ _ Hv Hdefs Hfreshname) as [s [metas [pmap [store [p [st [ds [Hr [Hm [Hmn [Hpm [Hp [Hpin [_ Hfinal]]]]]]]]]]]]]].
+  destruct (visit_packet_def_inv _ _ _ _ _ _ _ Hp) as [acc [fields [ds2 [Hloop _]]]]. pose proof Hloop as Hloop0. rewrite Hfields in Hloop.
+  assert (Hvisit : forall store0 f0 st0 ds0, visit_field_with_attr metas fw store0 = ROk (f0, st0, ds0) ->
+                   vf_attr f0 = VAMatch (FRNew (p_text (mf_key md))) (flat_map visit_match_pair (mf_pairs md)) /\ vf_name f0 = p_text (mf_name md)).
+  { intros store0 f0 st0 ds0 H0. destruct (visit_field_with_attr_inv _ _ _ _ _ _ H0) as [g [stg [dsg [dsg' [Hd0 [Ha0 _]]]]]].
+    rewrite Hdef in Hd0. cbn [visit_field_def] in Hd0. unfold visit_match_field in Hd0. inversion Hd0. subst g.
+    rewrite (apply_attrs_nolc _ _ _ _ _ _ _ Hnolc Ha0), (apply_attrs_name _ _ _ _ _ _ _ Ha0). auto. }
+  assert (Hnl : never_len metas fw). { intros store0 f0 st0 ds0 H0. destruct (Hvisit _ _ _ _ H0) as [-> _]. reflexivity. }
+  pose proof (fun Hl => loop1_kept_at _ _ _ _ _ _ _ _ Hnl Hl Hloop) as K. destruct (K eq_refl) as [acc1 [f [st1 [ds1 [_ [Hf [Hnth _]]]]]]].
+  destruct (Hvisit _ _ _ _ Hf) as [Hattr Hname].
+  destruct (packet_step_reaches _ _ _ _ _ _ _ _ _ Hp acc Hloop0 Hnth) as [a' [dsk [Hst [_ [f' [Hf' [Ha' Hskel]]]]]]].
+  (* the second loop keeps the pairs *)
+  assert (Hpairs : exists key, a' = VAMatch key (flat_map visit_match_pair (mf_pairs md))).
+  { rewrite Hattr in Hst. cbn [step_attr fref_name] in Hst. destruct (alookup (pa_fmap acc) (p_text (mf_key md))); inversion Hst; eexists; reflexivity. }
+  destruct Hpairs as [key Hea]. rewrite Hea in Ha'.
+  pose proof (finish_field_diags s p f' Hpin (nth_error_In _ _ Hf')) as Hres.
+  destruct f' as [n0 a0 la0 rep0 doc0 tag0 ln0]. cbn [vf_attr] in Ha'. subst a0. cbn [resolve_field snd] in Hres.
+  (* the pair is among them, with its line *)
+  assert (Hvp : In (mkVPair (match PT.mp_key pr with MKDigits k | MKString k => p_text k | MKList _ => "" end) (p_text (mp_ident pr)) (start_line (mp_span pr)))
+                   (flat_map visit_match_pair (mf_pairs md))).
+  { apply in_flat_map. exists pr. split; [exact Hpr|]. unfold visit_match_pair. destruct (PT.mp_key pr); try contradiction; left; reflexivity. }
+  eexists. split.
+  - rewrite Hr. apply Hres. unfold pair_diags. apply in_flat_map. eexists. split; [exact Hvp|]. cbn [vp_value].
+    rewrite (mem_false_not_In _ _ (fun H => Hnp (Hfinal _ H))). left. reflexivity.
+  - cbn. auto.
+Qed.
+
+(* ---- C12, duplicate match key *)
+
+Definition model_keys (md : match_field_decl) : list (string * nat) :=
+  map (fun p => (vp_key p, vp_line p)) (flat_map visit_match_pair (mf_pairs md)).
+
+(* the repaired check finds every key that occurred before *)
+Lemma match_dup_loop_spec pairs : forall seen l,
+  In l (later_dups seen (map (fun p => (vp_key p, vp_line p)) pairs)) ->
+  exists d, In d (match_dup_loop pairs seen) /\ d_kind d = DK_DupMatchKey /\ d_line d = l.
+Proof.
+  induction pairs as [|p pairs IH]; intros seen l H; cbn [map later_dups match_dup_loop] in *; [contradiction|].
+  change (name_in (vp_key p) seen) with (mem (vp_key p) seen) in H. destruct (mem (vp_key p) seen).
+  - destruct H as [<-|H].
+    + eexists. split; [left; reflexivity|]. cbn. auto.
+    + destruct (IH _ _ H) as [d [Hd Hk]]. exists d. split; [right; exact Hd|exact Hk].
+  - exact (IH _ _ H).
+Qed.
+
+(* the keys as the visitor lists them are the keys in source order, when no key list mixes numbers and strings and the span
+   of a single-key pair starts at its key (as in every tree the parser builds) *)
+Definition homogeneous (ks : list ptok) : Prop :=
+  (forall k, In k ks -> p_type k = T_DIGITS) \/ (forall k, In k ks -> p_type k = T_STRING).
+
+Definition pair_wf (p : match_pair) : Prop :=
+  match PT.mp_key p with
+  | MKDigits k | MKString k => start_line (mp_span p) = p_line k
+  | MKList l => homogeneous (key_items l)
+  end.
+
+Lemma filter_all {A} (g : A -> bool) (l : list A) : (forall x, In x l -> g x = true) -> filter g l = l.
+Proof.
+  induction l as [|x l IH]; intros H; [reflexivity|]. cbn [filter]. rewrite (H x (or_introl eq_refl)). f_equal.
+  apply IH. intros y Hy. apply H. right. exact Hy.
+Qed.
+
+Lemma filter_none {A} (g : A -> bool) (l : list A) : (forall x, In x l -> g x = false) -> filter g l = [].
+Proof.
+  induction l as [|x l IH]; intros H; [reflexivity|]. cbn [filter]. rewrite (H x (or_introl eq_refl)).
+  apply IH. intros y Hy. apply H. right. exact Hy.
+Qed.
+
+Lemma map_pair_keys val ks :
+  map (fun p => (vp_key p, vp_line p)) (map (fun k => mkVPair (p_text k) val (p_line k)) ks) = map (fun k => (p_text k, p_line k)) ks.
+Proof. induction ks as [|k ks IH]; [reflexivity|]. cbn [map]. rewrite IH. reflexivity. Qed.
+
+Lemma model_keys_spec md : Forall pair_wf (mf_pairs md) -> model_keys md = match_keys md.
+Proof.
+  unfold model_keys, match_keys. induction (mf_pairs md) as [|p ps IH]; intros Hwf; [reflexivity|].
+  inversion Hwf as [|x xs Hp Hps]. subst. cbn [flat_map]. rewrite !map_app, (IH Hps). f_equal.
+  unfold visit_match_pair, pair_keys, pair_wf in *. destruct (PT.mp_key p) as [k|k|l].
+  - cbn. rewrite Hp. reflexivity.
+  - cbn. rewrite Hp. reflexivity.
+  - change (li_first l :: map snd (li_rest l)) with (key_items l). destruct Hp as [Hd|Hs].
+    + rewrite (filter_all _ _ (fun k Hk => proj2 (Nat.eqb_eq _ _) (Hd k Hk))).
+      rewrite (filter_none (fun k => Nat.eqb (p_type k) T_STRING) (key_items l)) by (intros k Hk; rewrite (Hd k Hk); reflexivity).
+      rewrite app_nil_r. apply map_pair_keys.
+    + rewrite (filter_none (fun k => Nat.eqb (p_type k) T_DIGITS) (key_items l)) by (intros k Hk; rewrite (Hs k Hk); reflexivity).
+      rewrite (filter_all _ _ (fun k Hk => proj2 (Nat.eqb_eq _ _) (Hs k Hk))). cbn [app]. apply map_pair_keys.
+Qed.
+
+(* a key that occurred earlier in the same match field, at the top level of a packet: reported on the line of the later key *)
+Theorem dup_match_key_diagnosed t r d a fw b sp md comma l :
+  visit t = VOk r -> In d (packet_defs t) -> pd_fields d = a ++ fw :: b -> fw_def fw = MatchField sp md comma ->
+  Forall pair_wf (mf_pairs md) -> In l (later_dups [] (match_keys md)) ->
+  has_diag r DK_DupMatchKey l.
+Proof.
+  intros Hv Hd Hfields Hdef Hwf Hl. rewrite <- (model_keys_spec _ Hwf) in Hl.
+  destruct (match_dup_loop_spec _ _ _ Hl) as [dg [Hdg Hk]].
+  destruct (packet_def_diag_reaches _ _ _ Hv Hd) as [metas [pmap [store [p [st [ds [Hm [Hp Hincl]]]]]]]].
+  destruct (visit_packet_def_inv _ _ _ _ _ _ _ Hp) as [acc [fields [ds2 [Hloop [_ [_ [_ ->]]]]]]]. rewrite Hfields in Hloop.
+  destruct (loop1_app _ _ _ _ _ _ _ Hloop) as [acc1 [_ H2]].
+  destruct (loop1_cons _ _ _ _ _ _ _ H2) as [f [st1 [ds1 [Hf Hr]]]].
+  destruct (visit_field_with_attr_inv _ _ _ _ _ _ Hf) as [f0 [st0 [ds0 [ds0' [Hd0 [_ ->]]]]]].
+  rewrite Hdef in Hd0. cbn [visit_field_def] in Hd0. unfold visit_match_field in Hd0. inversion Hd0. subst ds0.
+  exists dg. split; [|exact Hk]. apply Hincl. apply in_or_app. left. eapply loop1_mono; [exact Hr|].
+  apply loop1_add_mono. apply in_or_app. right. apply in_or_app. left. exact Hdg.
+Qed.
+
+(* ---- C12, an undeclared packet as the type of a field of an inline object *)
+
+(* the first loop of VisitInerObjectField *)
+Fixpoint inline_go (metas : list vmeta) (pname : string) (l : list field_def) (store : list fcell) (names : list string)
+  : res (list vfield * list fcell * list diag) :=
+  match l with
+  | [] => ROk ([], store, [])
+  | x :: r =>
+      match visit_field_def metas x store with
+      | RPanic e => RPanic e
+      | ROk (v, st1, ds1) =>
+          let dup := if mem (vf_name v) names then [dup_field_diag (start_line (fd_span x)) (vf_name v) pname] else [] in
+          match inline_go metas pname r st1 (vf_name v :: names) with
+          | RPanic e => RPanic e
+          | ROk (vs, st2, ds2) => ROk (v :: vs, st2, ds1 ++ dup ++ ds2)
+          end
+      end
+  end.
+
+Lemma visit_inline_unfold metas sp rep sp2 nm o fields c comma store :
+  visit_field_def metas (InerObjectField sp rep (InerObjectDecl sp2 nm o fields c) comma) store =
+  match inline_go metas (p_text nm) fields store [] with
+  | RPanic e => RPanic e
+  | ROk (subs, st1, ds) =>
+      ROk (mkVField (p_text nm) (VAObj true (p_text nm) (Some (p_text nm))
+                       (Some (mkVPacket (p_text nm) false None (map (link_key subs) subs) [] [] (start_line sp)))) VLNone (is_some rep) "" 0%N (start_line sp),
+           st1, ds ++ inline_key_diags (combine subs (map (fun x => start_line (fd_span x)) fields)) (map vf_name subs))
+  end.
+Proof.
+  cbn [visit_field_def]. cbv zeta.
+  assert (Hgo : forall l st names,
+            (fix go (l : list field_def) (store : list fcell) (names : list string) {struct l} : res (list vfield * list fcell * list diag) :=
+               match l with
+               | [] => ROk ([], store, [])
+               | x :: r =>
+                   match visit_field_def metas x store with
+                   | RPanic e => RPanic e
+                   | ROk (v, st1, ds1) =>
+                       match go r st1 (vf_name v :: names) with
+                       | RPanic e => RPanic e
+                       | ROk (vs, st2, ds2) =>
+                           ROk (v :: vs, st2, ds1 ++ (if mem (vf_name v) names then [dup_field_diag (start_line (fd_span x)) (vf_name v) (p_text nm)] else []) ++ ds2)
+                       end
+                   end
+               end) l st names = inline_go metas (p_text nm) l st names).
+  { induction l as [|x l IH]; intros st names; [reflexivity|]. cbn [inline_go]. destruct (visit_field_def metas x st) as [[[v st1] ds1]|e]; [|reflexivity].
+    rewrite IH. reflexivity. }
+  rewrite Hgo. reflexivity.
+Qed.
+
+(* an object field of the inline object whose type is no MetaData entry is among the sub-fields, unresolved *)
+Lemma inline_go_object metas pname l : forall store names subs st ds sp rep ft fn doc comma,
+  inline_go metas pname l store names = ROk (subs, st, ds) -> In (ObjectField sp rep ft fn doc comma) l -> find_meta metas (p_text ft) = None ->
+  exists v, In v subs /\ vf_attr v = VAObj false (p_text ft) None None /\ vf_line v = start_line sp.
+Proof.
+  induction l as [|x l IH]; intros store names subs st ds sp rep ft fn doc comma H Hin Hnone; [contradiction|]. cbn [inline_go] in H.
+  destruct (visit_field_def metas x store) as [[[v st1] ds1]|e] eqn:Hx; [|discriminate].
+  destruct (inline_go metas pname l st1 (vf_name v :: names)) as [[[vs st2] ds2]|e] eqn:Hr; [|discriminate]. inversion H. subst subs.
+  destruct Hin as [->|Hin].
+  - cbn [visit_field_def] in Hx. rewrite Hnone in Hx. inversion Hx. eexists. split; [left; reflexivity|]. cbn. auto.
+  - destruct (IH _ _ _ _ _ _ _ _ _ _ _ Hr Hin Hnone) as [w [Hw Hp]]. exists w. split; [right; exact Hw|exact Hp].
+Qed.
+
+Theorem undeclared_packet_in_inline_diagnosed t r A d B a fw b sp rep sp2 nm o subfields c comma spx repx ft fn doc commax :
+  visit t = VOk r ->
+  packet_defs t = A ++ d :: B -> ~ In (pd_name_text d) (map pd_name_text A) ->
+  pd_fields d = a ++ fw :: b -> fw_def fw = InerObjectField sp rep (InerObjectDecl sp2 nm o subfields c) comma ->
+  (forall x, In x (fw_attrs fw) -> is_len_or_calc x = false) ->
+  In (ObjectField spx repx ft fn doc commax) subfields ->
+  ~ In (p_text ft) (Faults.packet_names t) -> ~ In (p_text ft) (meta_names t) ->
+  has_diag r DK_UnknownPacket (start_line spx).
+Proof.
+  intros Hv Hdefs Hfreshname Hfields Hdef Hnolc Hsub Hnp Hnm.
+  destruct (kept_packet _ _ _ _ _ Hv Hdefs Hfreshname) as [s [metas [pmap [store [p [st [ds [Hr [Hm [Hmn [Hpm [Hp [Hpin [_ Hfinal]]]]]]]]]]]]]].
+  destruct (visit_packet_def_inv _ _ _ _ _ _ _ Hp) as [acc [fields [ds2 [Hloop _]]]]. pose proof Hloop as Hloop0. rewrite Hfields in Hloop.
+  assert (Hnone : find_meta metas (p_text ft) = None).
+  { destruct (find_meta metas (p_text ft)) eqn:Hx; [|reflexivity]. exfalso. apply Hnm. apply Hmn. rewrite Hx. discriminate. }
+  assert (Hvisit : forall store0 f0 st0 ds0, visit_field_with_attr metas fw store0 = ROk (f0, st0, ds0) ->
+                   exists subs, vf_attr f0 = VAObj true (p_text nm) (Some (p_text nm)) (Some (mkVPacket (p_text nm) false None subs [] [] (start_line sp))) /\
+                                exists v, In v subs /\ vf_attr v = VAObj false (p_text ft) None None /\ vf_line v = start_line spx).
+  (* (subs: the sub-fields after the keys of the match fields among them are linked; an object field is not touched by that) *)
+  { intros store0 f0 st0 ds0 H0. destruct (visit_field_with_attr_inv _ _ _ _ _ _ H0) as [g [stg [dsg [dsg' [Hd0 [Ha0 _]]]]]].
+    rewrite Hdef, visit_inline_unfold in Hd0. destruct (inline_go metas (p_text nm) subfields store0 []) as [[[subs st1] ds1]|e] eqn:Hgo; [|discriminate].
+    inversion Hd0. subst g. exists (map (link_key subs) subs). rewrite (apply_attrs_nolc _ _ _ _ _ _ _ Hnolc Ha0). split; [reflexivity|].
+    destruct (inline_go_object _ _ _ _ _ _ _ _ _ _ _ _ _ _ Hgo Hsub Hnone) as [v [Hvin [Hva Hvl]]].
+    exists v. split; [|auto]. apply in_map_iff. exists v. split; [|exact Hvin]. unfold link_key. rewrite Hva. reflexivity. }
+  assert (Hnl : never_len metas fw). { intros store0 f0 st0 ds0 H0. destruct (Hvisit _ _ _ _ H0) as [subs [-> _]]. reflexivity. }
+  pose proof (fun Hl => loop1_kept_at _ _ _ _ _ _ _ _ Hnl Hl Hloop) as K. destruct (K eq_refl) as [acc1 [f [st1 [ds1 [_ [Hf [Hnth _]]]]]]].
+  destruct (Hvisit _ _ _ _ Hf) as [subs [Hattr [v [Hv_in [Hv_attr Hv_line]]]]].
+  destruct (packet_step_reaches _ _ _ _ _ _ _ _ _ Hp acc Hloop0 Hnth) as [a' [dsk [Hst [_ [f' [Hf' [Ha' Hskel]]]]]]].
+  rewrite Hattr in Hst. cbn [step_attr] in Hst. inversion Hst as [[Hea Hed]]. rewrite <- Hea in Ha'.
+  pose proof (finish_field_diags s p f' Hpin (nth_error_In _ _ Hf')) as Hres.
+  destruct f' as [n0 a0 la0 rep0 doc0 tag0 ln0]. cbn [vf_attr] in Ha'. subst a0. rewrite resolve_inline_eq in Hres. cbn [snd] in Hres.
+  pose proof (resolve_fields_incl (Visitor.packet_names (s_packets s)) subs v Hv_in) as Hsubs.
+  destruct v as [vn va vla vrep vdoc vtag vln]. cbn [vf_attr vf_line] in Hv_attr, Hv_line. subst va vln. cbn [resolve_field] in Hsubs.
+  rewrite (mem_false_not_In _ _ (fun H => Hnp (Hfinal _ H))) in Hsubs. cbn [snd] in Hsubs.
+  eexists. split; [rewrite Hr; apply Hres; apply Hsubs; left; reflexivity|]. cbn. auto.
 Qed.
 
 (* ================================================================== (d) C08 on the visitor level *)
